@@ -2,50 +2,43 @@ import GrafeoModel.Model.ZoneMap
 
 /-!
 # C10 (storage half) — zone maps, property indexes and the planner's path choice
+(model pinned to /repo cc52572, after the repairs 4373a2f c174383 dc17651 ae73952 6ff036d 65e98ae)
 
 Everything is stated for **all** histories of `node / set / overwrite / remove / delete-node /
 rebuild (any hash-map iteration order) / create-index / drop-index` (`ops : List SOp`, induction
-over the list, no bound) and all values (`V`: Null, Bool, Int, Float as bit pattern, String).
+over the list, no bound) and all machine values (`WF`: i64 integers, 64-bit float patterns incl.
+NaN, ±0, infinities, subnormals; strings, booleans, null). No value-class hypothesis is left.
 
-Comparison semantics (all defined in `Model/ZoneMap.lean`, each tied to its source function):
-`cmp` (zone map: `compare_values`, Int/Float through `as f64`), `zsat` (the exact semantics `cmp`
-induces), `fsat` (generic filter: `values_equal` = |a−b| < ε, `compare_values` = three-way with
-NaN ↦ 0, no Bool order, `NULL <> v` true), `valueInRange`/`rsat` (range path: no Int/Float),
-`valEq` (`Value ==`, scan of `find_nodes_by_property`), `hvEq` (`HashableValue`, index key).
+Comparison semantics (`Model/ZoneMap.lean`): `cmp` (zone map / range lookup), `fsat` (generic
+filter: `values_equal` = `a == b || |a−b| < ε` with the subtraction rounded as IEEE does,
+`compare_values` = `partial_cmp`, Int/Float through `as f64`, no Bool order, `NULL <> v` true),
+`valEq` (`Value ==`), `hvEq` (index key, bit identity).
 
 ## What is proved
 
-(a) zone-map soundness
-* `stinv_run` (F): every column of every reachable store keeps `ZInv` — min/max bound every
-  current value that compares with them, nulls are counted, `mixed` is off only if every non-null
-  value compares with the minimum — for values of a class `P` on which the order is `Coherent`.
-* `coherent_noFloat`, `coherent_exact` (F): the order is coherent on float-free values (whole
-  i64 range) and on {|int| < 2^53, all floats, strings, bools, null}; `c10_order_not_transitive`
-  (W): it is not on all values.
-* `c10_zone_map_sound`, `c10_zone_map_range_sound` (P): `might_match = false` ⇒ no current value
-  satisfies `op v` under `zsat` (except nulls under `<>`); same for `might_match_range`.
-* `fsat_imp_zsat`, `good_tame`, `good_noFloat` (F) and `c10_zone_map_sound_filter_partial` (P):
-  the same against the engine's filter semantics, under tameness (no NaN/inf, ints < 2^53 or no
-  floats), no stored null for `<>`, no ε-neighbour for `=`.
-* `ZoneMapSoundFilter`, `ZoneMapSoundOrder`: the full statements; refuted (`*_refuted`), one
-  witness per cause: `c10_w_prune_null_ne`, `_nan_le`, `_eps_eq`, `_inf_ne`, `_rounding`.
-
-(b) index path = scan
-* `iinv_run` (F, for histories that write to live nodes): each index relation is exactly
-  {(value, node) | node's current value}, properties exist on live nodes only.
-* `c10_index_eq_scan_partial`, `c10_index_toggle_invariant` (P): indexed lookup = scan as sets,
-  before/after creating or dropping the index, when `Value ==` and bit identity agree on the column
-  (`valEq_iff_eq`: they differ only at NaN and ±0).
-* `IndexEqScan` full statement refuted; witnesses `c10_w_index_negzero`, `_nan`, `_nonlive`,
-  `_misses_live`.
-
-(c) the planner's path choice
-* `c10_planner_paths_agree_partial`, `c10_plan_eq_generic_partial` (P): every path the planner
-  may take (prune / index / range / generic) returns the generic filter's node set — a function
-  of live nodes and current values only — under `SemAgree` (pointwise agreement of the semantics
-  in play); `c10_planner_int_str` (P): unconditional for integer/string columns and literals.
-* `PlannerPathIndependent` full statement refuted; witnesses `c10_w_plan_range_int_float`,
-  `_range_bool`, `_range_nan`, `_index_int_float`, `_pruned_null`, `_history_dependent`.
+(a) `c10_zone_map_sound_filter` / `c10_ZoneMapSoundFilter` (**F**): `might_match = false` ⇒ no
+    current value passes the filter — every operator, literal, history. `c10_zone_map_range_sound`
+    (**F**) for `might_match_range`. Ingredients, all proved here: `stinv_run` (invariant `ZInv`:
+    a non-`mixed` column is of one variant and lies between min and max), `le_trans_adj`
+    (transitivity of the order along chains with two adjacent values of one variant — it fails for
+    Int–Float–Int, `c10_order_not_transitive`, which the code now avoids by flagging such columns
+    `mixed`), `ikey_mono` (`i64 as f64` is weakly monotone and never NaN on the whole i64 range),
+    `eps_window` (whatever the filter's numeric `=` accepts lies inside `[v−ε, v+ε]` as computed in
+    double arithmetic: rounding is monotone and fixes representable numbers).
+(b) `c10_index_eq_scan_partial`, `c10_index_toggle_invariant` (**P**, code unchanged):
+    `find_nodes_by_property` with an index = the scan, for histories writing to live nodes, when
+    `Value ==` and bit identity agree on the column (`valEq_iff_eq`: they differ only at NaN, ±0).
+    `IndexEqScan` refuted: `c10_w_index_negzero`, `_nan`, `_nonlive`, `_misses_live` (API level).
+(c) `c10_planner_paths_agree`, `c10_planner_path_independent` / `c10_PlannerPathIndependent` (**F**
+    under `wfRun`): every path the planner may take returns the generic filter's node set — a
+    function of live nodes and current values only. Ingredient `keys_cover`: the lookup keys of
+    the index path (65e98ae) cover everything the filter's `=` accepts. `wfRun` (properties are
+    written to live nodes) is needed by the index path only
+    (`c10_planner_path_independent_noindex`); without it: `c10_w_plan_index_misses_live`,
+    `c10_planner_any_writes_refuted` (API level).
+    `c10_rebuild_order_irrelevant`: the (random) iteration order of `rebuild_zone_map` never shows
+    in an answer.
+N/regression: `c10_nv_zone`, `c10_nv_planner`, `c10_nv_index`.
 -/
 
 set_option linter.unusedSimpArgs false
@@ -167,80 +160,634 @@ theorem le_of_not_gt {a b : V} (h : (cmp a b).isSome = true) (hg : cmp a b ≠ s
   | none => simp [hc] at h
   | some o => cases o <;> simp [le, hc] at hg ⊢
 
-/-- The order is coherent on the values satisfying `P`: `≤` is transitive there and so is
-comparability. (Neither holds on all values of the type: `i64 as f64` rounds above 2^53, see
-`c10_order_not_transitive`.) -/
-structure Coherent (P : V → Prop) : Prop where
-  trans : ∀ a b c, P a → P b → P c → le a b → le b c → le a c
-  ctrans : ∀ a b c, P a → P b → P c →
-    (cmp a b).isSome = true → (cmp b c).isSome = true → (cmp a c).isSome = true
+/-! ## F. Floating point: `i64 as f64`, rounding, the tolerance window -/
 
-theorem lt_of_lt_le {P : V → Prop} (hC : Coherent P) {a b c : V} (ha : P a) (hb : P b) (hc : P c)
-    (h1 : cmp a b = some .lt) (h2 : le b c) : cmp a c = some .lt := by
-  rcases hC.trans a b c ha hb hc (Or.inl h1) h2 with h | h
-  · exact h
-  · exfalso
-    have h3 : le b a := hC.trans b c a hb hc ha h2 (Or.inr (cmp_eq_swap h))
-    have h4 := cmp_lt_swap h1
-    rcases h3 with h3 | h3 <;> simp [h3] at h4
+theorem bitLenF_zero (f : Nat) : bitLenF f 0 = 0 := by cases f <;> simp [bitLenF]
 
-theorem lt_of_le_lt {P : V → Prop} (hC : Coherent P) {a b c : V} (ha : P a) (hb : P b) (hc : P c)
+theorem bitLenF_spec : ∀ (f n : Nat), n < 2 ^ f → n ≠ 0 →
+    1 ≤ bitLenF f n ∧ 2 ^ (bitLenF f n - 1) ≤ n ∧ n < 2 ^ (bitLenF f n)
+  | 0, n, h, hn => by simp at h; omega
+  | f + 1, n, h, hn => by
+    simp only [bitLenF, hn, if_false]
+    by_cases h2 : n / 2 = 0
+    · have : n = 1 := by omega
+      subst this
+      simp [bitLenF_zero]
+    · have hlt : n / 2 < 2 ^ f := by
+        rw [Nat.pow_succ] at h; omega
+      obtain ⟨k1, k2, k3⟩ := bitLenF_spec f (n / 2) hlt h2
+      generalize bitLenF f (n / 2) = k at *
+      refine ⟨by omega, ?_, ?_⟩
+      · have : 2 ^ (k + 1 - 1) = 2 * 2 ^ (k - 1) := by
+          have : k + 1 - 1 = (k - 1) + 1 := by omega
+          rw [this, Nat.pow_succ]; omega
+        rw [this]; omega
+      · rw [Nat.pow_succ]; omega
+
+theorem bitLen_spec (n : Nat) (hn : n ≠ 0) :
+    1 ≤ bitLen n ∧ 2 ^ (bitLen n - 1) ≤ n ∧ n < 2 ^ (bitLen n) :=
+  bitLenF_spec n n Nat.lt_two_pow_self hn
+
+/-- the bit length is determined by the binade -/
+theorem bitLen_unique (n k : Nat) (hk : 1 ≤ k) (h1 : 2 ^ (k - 1) ≤ n) (h2 : n < 2 ^ k) : bitLen n = k := by
+  have hn : n ≠ 0 := by
+    have := Nat.two_pow_pos (k - 1); omega
+  obtain ⟨a1, a2, a3⟩ := bitLen_spec n hn
+  apply Classical.byContradiction
+  intro hne
+  by_cases hlt : bitLen n < k
+  · have : 2 ^ (bitLen n) ≤ 2 ^ (k - 1) := Nat.pow_le_pow_right (by omega) (by omega)
+    omega
+  · have : 2 ^ k ≤ 2 ^ (bitLen n - 1) := Nat.pow_le_pow_right (by omega) (by omega)
+    omega
+
+theorem bitLen_mono (m m' : Nat) (h0 : m ≠ 0) (h : m ≤ m') : bitLen m ≤ bitLen m' := by
+  obtain ⟨a1, a2, a3⟩ := bitLen_spec m h0
+  obtain ⟨b1, b2, b3⟩ := bitLen_spec m' (by omega)
+  apply Classical.byContradiction
+  intro hc
+  have : 2 ^ (bitLen m') ≤ 2 ^ (bitLen m - 1) := Nat.pow_le_pow_right (by omega) (by omega)
+  omega
+
+theorem bitLen_ge (m k : Nat) (h : 2 ^ k ≤ m) : k + 1 ≤ bitLen m := by
+  have hm : m ≠ 0 := by have := Nat.two_pow_pos k; omega
+  obtain ⟨a1, a2, a3⟩ := bitLen_spec m hm
+  apply Classical.byContradiction
+  intro hc
+  have : 2 ^ (bitLen m) ≤ 2 ^ k := Nat.pow_le_pow_right (by omega) (by omega)
+  omega
+
+theorem bitLen_le_of_lt (m k : Nat) (hm : m ≠ 0) (h : m < 2 ^ k) : bitLen m ≤ k := by
+  obtain ⟨h1, h2, _⟩ := bitLen_spec m hm
+  apply Classical.byContradiction
+  intro hc
+  have : 2 ^ k ≤ 2 ^ (bitLen m - 1) := Nat.pow_le_pow_right (by omega) (by omega)
+  omega
+
+/-! ### the rounded mantissa -/
+
+/-- for `m` in the binade of bit length `l > 53`: the rounded mantissa lies in [2^52, 2^53] -/
+theorem roundQ_bounds (m l : Nat) (hl : 53 < l) (h1 : 2 ^ (l - 1) ≤ m) (h2 : m < 2 ^ l) :
+    2 ^ 52 ≤ roundQ m l ∧ roundQ m l ≤ 2 ^ 53 := by
+  have e1 : 2 ^ (l - 1) = 2 ^ 52 * 2 ^ (l - 53) := by
+    rw [← Nat.pow_add]; congr 1; omega
+  have e2 : 2 ^ l = 2 ^ 53 * 2 ^ (l - 53) := by
+    rw [← Nat.pow_add]; congr 1; omega
+  have hd : 0 < 2 ^ (l - 53) := Nat.two_pow_pos _
+  have q1 : 2 ^ 52 ≤ m / 2 ^ (l - 53) := (Nat.le_div_iff_mul_le hd).mpr (by rw [← e1]; exact h1)
+  have q2 : m / 2 ^ (l - 53) < 2 ^ 53 := (Nat.div_lt_iff_lt_mul hd).mpr (by rw [← e2]; exact h2)
+  unfold roundQ
+  simp only
+  split <;> omega
+
+/-- within one binade the rounded mantissa is monotone -/
+theorem roundQ_mono (m m' l : Nat) (hl : 53 < l) (h : m ≤ m') : roundQ m l ≤ roundQ m' l := by
+  unfold roundQ
+  simp only
+  generalize hD : 2 ^ (l - 53) = D
+  generalize hH : 2 ^ (l - 53 - 1) = H
+  have hDH : D = 2 * H := by
+    rw [← hD, ← hH]
+    have : l - 53 = (l - 53 - 1) + 1 := by omega
+    rw [this, Nat.pow_succ]; simp; omega
+  have hd : 0 < D := by rw [← hD]; exact Nat.two_pow_pos _
+  have d1 := Nat.div_add_mod m D
+  have d2 := Nat.div_add_mod m' D
+  have r1 := Nat.mod_lt m hd
+  have r2 := Nat.mod_lt m' hd
+  have qq : m / D ≤ m' / D := Nat.div_le_div_right h
+  generalize m / D = q at *
+  generalize m' / D = q' at *
+  generalize m % D = r at *
+  generalize m' % D = r' at *
+  by_cases hq : q = q'
+  · subst hq
+    have hr : r ≤ r' := by omega
+    by_cases u1 : (decide (r > H) || (r == H && q % 2 == 1)) = true
+    · have u2 : (decide (r' > H) || (r' == H && q % 2 == 1)) = true := by
+        simp only [Bool.or_eq_true, decide_eq_true_eq, Bool.and_eq_true, beq_iff_eq] at u1 ⊢
+        rcases u1 with u | ⟨u, v⟩
+        · left; omega
+        · by_cases hh : r' = H
+          · right; exact ⟨hh, v⟩
+          · left; omega
+      simp [u1, u2]
+    · have u1' : (decide (r > H) || (r == H && q % 2 == 1)) = false := by
+        cases hh : (decide (r > H) || (r == H && q % 2 == 1)) <;> simp [hh] at u1 ⊢
+      rw [u1']
+      simp only [Bool.false_eq_true, if_false]
+      split <;> omega
+  · have : q + 1 ≤ q' := by omega
+    split <;> split <;> omega
+
+/-! ### `i64 as f64` is monotone (weakly: it rounds above 2^53) and never NaN -/
+
+/-- the 53-bit (or, after a carry, 2^53) mantissa `natToF64` computes -/
+def Qn (m : Nat) : Nat :=
+  if bitLen m ≤ 53 then m * 2 ^ (53 - bitLen m) else roundQ m (bitLen m)
+
+theorem natToF64_shape (m : Nat) (h0 : m ≠ 0) :
+    natToF64 m = (bitLen m + 1022) * 2 ^ 52 + (Qn m - 2 ^ 52) ∧ 2 ^ 52 ≤ Qn m ∧ Qn m ≤ 2 ^ 53 := by
+  obtain ⟨h1, h2, h3⟩ := bitLen_spec m h0
+  have e0 : bitLen m - 1 + 1023 = bitLen m + 1022 := by omega
+  by_cases hl : bitLen m ≤ 53
+  · refine ⟨?_, ?_, ?_⟩
+    · unfold natToF64 Qn
+      simp only [h0, if_false, hl, if_true, e0]
+    · unfold Qn; simp only [hl, if_true]
+      have e : 2 ^ (bitLen m - 1) * 2 ^ (53 - bitLen m) = 2 ^ 52 := by
+        rw [← Nat.pow_add]; congr 1; omega
+      calc 2 ^ 52 = 2 ^ (bitLen m - 1) * 2 ^ (53 - bitLen m) := e.symm
+        _ ≤ m * 2 ^ (53 - bitLen m) := Nat.mul_le_mul_right _ h2
+    · unfold Qn; simp only [hl, if_true]
+      have e : 2 ^ (bitLen m) * 2 ^ (53 - bitLen m) = 2 ^ 53 := by
+        rw [← Nat.pow_add]; congr 1; omega
+      have : m * 2 ^ (53 - bitLen m) < 2 ^ (bitLen m) * 2 ^ (53 - bitLen m) :=
+        Nat.mul_lt_mul_of_pos_right h3 (Nat.two_pow_pos _)
+      omega
+  · have hb := roundQ_bounds m (bitLen m) (by omega) h2 h3
+    refine ⟨?_, ?_, ?_⟩
+    · unfold natToF64 Qn roundQ
+      simp only [h0, if_false, hl, e0]
+    · unfold Qn; simp only [hl, if_false]; exact hb.1
+    · unfold Qn; simp only [hl, if_false]; exact hb.2
+
+theorem Qn_mono_same (m m' : Nat) (hl : bitLen m = bitLen m') (h : m ≤ m') : Qn m ≤ Qn m' := by
+  unfold Qn
+  rw [← hl]
+  by_cases h53 : bitLen m ≤ 53
+  · simp only [h53, if_true]; exact Nat.mul_le_mul_right _ h
+  · simp only [h53, if_false]; exact roundQ_mono m m' _ (by omega) h
+
+theorem shape_arith (c l l' q q' : Nat) (hq2 : q ≤ 2 ^ 53) (hq' : 2 ^ 52 ≤ q') (hl : l + 1 ≤ l') :
+    (l + c) * 2 ^ 52 + (q - 2 ^ 52) ≤ (l' + c) * 2 ^ 52 + (q' - 2 ^ 52) := by
+  omega
+
+theorem shape_arith_same (c l q q' : Nat) (hq : q ≤ q') :
+    (l + c) * 2 ^ 52 + (q - 2 ^ 52) ≤ (l + c) * 2 ^ 52 + (q' - 2 ^ 52) := by
+  omega
+
+theorem natToF64_mono (m m' : Nat) (h : m ≤ m') : natToF64 m ≤ natToF64 m' := by
+  by_cases h0 : m = 0
+  · subst h0; simp [natToF64]
+  · obtain ⟨a1, a2, a3⟩ := natToF64_shape m h0
+    obtain ⟨b1, b2, b3⟩ := natToF64_shape m' (by omega)
+    rw [a1, b1]
+    have hll := bitLen_mono m m' h0 h
+    by_cases e : bitLen m = bitLen m'
+    · have := Qn_mono_same m m' e h
+      rw [e]
+      exact shape_arith_same 1022 _ _ _ this
+    · exact shape_arith 1022 _ _ _ _ a3 b2 (by omega)
+
+/-- for `m ≤ 2^63`: a finite positive pattern -/
+theorem natToF64_bits (m : Nat) (h : m ≤ 2 ^ 63) :
+    natToF64 m < 2 ^ 63 ∧ expField (natToF64 m) < 2047 ∧ (m ≠ 0 → 0 < natToF64 m) := by
+  by_cases h0 : m = 0
+  · subst h0; simp [natToF64, expField]
+  · obtain ⟨a1, a2, a3⟩ := natToF64_shape m h0
+    have hl : bitLen m ≤ 64 := bitLen_le_of_lt m 64 h0 (by omega)
+    rw [a1]
+    refine ⟨by omega, ?_, fun _ => by omega⟩
+    unfold expField
+    omega
+
+theorem key_of_lt (b : Nat) (h : b < 2 ^ 63) : key b = (b : Int) := by
+  unfold key signBit mag
+  have : b / 2 ^ 63 % 2 = 0 := by omega
+  simp [this]; omega
+
+theorem key_of_neg (x : Nat) (h : x < 2 ^ 63) : key (2 ^ 63 + x) = -(x : Int) := by
+  unfold key signBit mag
+  have : (2 ^ 63 + x) / 2 ^ 63 % 2 = 1 := by omega
+  simp [this]; omega
+
+theorem isNaN_of_exp (b : Nat) (h : expField b < 2047) : isNaN b = false := by
+  unfold isNaN
+  have : (expField b == 2047) = false := by simp; omega
+  simp [this]
+
+theorem expField_neg (x : Nat) (h : x < 2 ^ 63) : expField (2 ^ 63 + x) = expField x := by
+  unfold expField; omega
+
+/-- the i64 range -/
+def I64 (i : Int) : Prop := -(2 ^ 63) ≤ i ∧ i < 2 ^ 63
+
+theorem i64ToF64_key (i : Int) (h : I64 i) :
+    isNaN (i64ToF64 i) = false ∧ isFinite (i64ToF64 i) = true ∧
+    key (i64ToF64 i) = if i ≥ 0 then (natToF64 i.toNat : Int) else -(natToF64 (-i).toNat : Int) := by
+  unfold I64 at h
+  unfold i64ToF64 isFinite
+  by_cases hi : i ≥ 0
+  · have hb := natToF64_bits i.toNat (by omega)
+    simp only [hi, if_true]
+    refine ⟨isNaN_of_exp _ hb.2.1, ?_, key_of_lt _ hb.1⟩
+    simp; omega
+  · have hb := natToF64_bits (-i).toNat (by omega)
+    simp only [hi, if_false]
+    refine ⟨isNaN_of_exp _ ?_, ?_, key_of_neg _ hb.1⟩
+    · rw [expField_neg _ hb.1]; exact hb.2.1
+    · rw [expField_neg _ hb.1]; simp; omega
+
+/-- **`as f64` is weakly monotone on i64** -/
+theorem ikey_mono (i j : Int) (hi : I64 i) (hj : I64 j) (hle : i ≤ j) :
+    key (i64ToF64 i) ≤ key (i64ToF64 j) := by
+  rw [(i64ToF64_key i hi).2.2, (i64ToF64_key j hj).2.2]
+  unfold I64 at hi hj
+  by_cases h1 : i ≥ 0
+  · have h2 : j ≥ 0 := by omega
+    simp only [h1, h2, if_true]
+    have := natToF64_mono i.toNat j.toNat (by omega)
+    omega
+  · by_cases h2 : j ≥ 0
+    · simp only [h1, h2, if_true, if_false]; omega
+    · simp only [h1, h2, if_false]
+      have := natToF64_mono (-j).toNat (-i).toNat (by omega)
+      omega
+
+/-! ### rounding an exact multiple of 2^-1074 to a double -/
+
+theorem shape_arith0 (l l' q q' : Nat) (hq2 : q ≤ 2 ^ 53) (hq' : 2 ^ 52 ≤ q') (hl : l + 1 ≤ l') :
+    l * 2 ^ 52 + (q - 2 ^ 52) ≤ l' * 2 ^ 52 + (q' - 2 ^ 52) := by
+  omega
+
+theorem shape_arith0_same (l q q' : Nat) (hq : q ≤ q') :
+    l * 2 ^ 52 + (q - 2 ^ 52) ≤ l * 2 ^ 52 + (q' - 2 ^ 52) := by
+  omega
+
+theorem roundMag_mono (m m' : Nat) (h : m ≤ m') : roundMag m ≤ roundMag m' := by
+  unfold roundMag
+  by_cases h1 : m < 2 ^ 53
+  · by_cases h2 : m' < 2 ^ 53
+    · simp only [h1, h2, if_true]; exact h
+    · simp only [h1, h2, if_true, if_false]
+      have hl : 54 ≤ bitLen m' := bitLen_ge m' 53 (by omega)
+      have : 2 * 2 ^ 52 ≤ (bitLen m' - 52) * 2 ^ 52 := Nat.mul_le_mul_right _ (by omega)
+      omega
+  · have h2 : ¬ m' < 2 ^ 53 := by omega
+    simp only [h1, h2, if_false]
+    have h0 : m ≠ 0 := by omega
+    obtain ⟨a1, a2, a3⟩ := bitLen_spec m h0
+    obtain ⟨b1, b2, b3⟩ := bitLen_spec m' (by omega)
+    have hl : 54 ≤ bitLen m := bitLen_ge m 53 (by omega)
+    have hl' : 54 ≤ bitLen m' := bitLen_ge m' 53 (by omega)
+    have qa := roundQ_bounds m _ (by omega) a2 a3
+    have qb := roundQ_bounds m' _ (by omega) b2 b3
+    have hll := bitLen_mono m m' h0 h
+    by_cases e : bitLen m = bitLen m'
+    · rw [e]
+      refine shape_arith0_same _ _ _ ?_
+      rw [← e]; exact roundQ_mono m m' _ (by omega) h
+    · exact shape_arith0 _ _ _ _ qa.2 qb.1 (by omega)
+
+/-- magnitude bits (below the sign bit) of a pattern -/
+theorem mag_eq (b : Nat) : mag b = expField b * 2 ^ 52 + fracField b := by
+  unfold mag expField fracField; omega
+
+/-- representable numbers are fixed points of the rounding -/
+theorem roundMag_scaledMag (b : Nat) (hf : isFinite b = true) : roundMag (scaledMag b) = mag b := by
+  rw [mag_eq]
+  have hfr : fracField b < 2 ^ 52 := by unfold fracField; omega
+  unfold scaledMag
+  by_cases e0 : expField b = 0
+  · simp only [e0, if_true]
+    unfold roundMag
+    have : fracField b < 2 ^ 53 := by omega
+    simp [this]
+  · simp only [e0, if_false]
+    by_cases e1 : expField b = 1
+    · rw [e1]
+      unfold roundMag
+      have : (2 ^ 52 + fracField b) * 2 ^ (1 - 1) < 2 ^ 53 := by simp; omega
+      simp only [this, if_true]; simp
+    · generalize hE : expField b = e at *
+      generalize fracField b = f at *
+      have he : 2 ≤ e := by omega
+      -- M = (2^52 + f) · 2^(e-1) lies in the binade of bit length 52 + e
+      have hlo : 2 ^ (52 + e - 1) ≤ (2 ^ 52 + f) * 2 ^ (e - 1) := by
+        have : 2 ^ (52 + e - 1) = 2 ^ 52 * 2 ^ (e - 1) := by
+          rw [← Nat.pow_add]; congr 1; omega
+        rw [this]; exact Nat.mul_le_mul_right _ (by omega)
+      have hhi : (2 ^ 52 + f) * 2 ^ (e - 1) < 2 ^ (52 + e) := by
+        have : 2 ^ (52 + e) = 2 ^ 53 * 2 ^ (e - 1) := by
+          rw [← Nat.pow_add]; congr 1; omega
+        rw [this]; exact Nat.mul_lt_mul_of_pos_right (by omega) (Nat.two_pow_pos _)
+      have hbl : bitLen ((2 ^ 52 + f) * 2 ^ (e - 1)) = 52 + e := bitLen_unique _ _ (by omega) hlo hhi
+      have hge : ¬ (2 ^ 52 + f) * 2 ^ (e - 1) < 2 ^ 53 := by
+        have : 2 ^ 53 ≤ 2 ^ (52 + e - 1) := Nat.pow_le_pow_right (by omega) (by omega)
+        omega
+      unfold roundMag
+      simp only [hge, if_false, hbl]
+      have hq : roundQ ((2 ^ 52 + f) * 2 ^ (e - 1)) (52 + e) = 2 ^ 52 + f := by
+        unfold roundQ
+        have hs : 52 + e - 53 = e - 1 := by omega
+        simp only [hs]
+        rw [Nat.mul_div_cancel _ (Nat.two_pow_pos _), Nat.mul_mod_left]
+        have hh : 0 < 2 ^ (e - 1 - 1) := Nat.two_pow_pos _
+        have c1 : ¬ (0 > 2 ^ (e - 1 - 1)) := by omega
+        have c2 : ((0 : Nat) == 2 ^ (e - 1 - 1)) = false := by simp; omega
+        simp [c2]
+      rw [hq]
+      have : 52 + e - 52 = e := by omega
+      rw [this]; omega
+
+theorem scaledMag_lt (b : Nat) (hf : isFinite b = true) : scaledMag b + 2 ^ 1022 < 2 ^ 2098 := by
+  have hfr : fracField b < 2 ^ 52 := by unfold fracField; omega
+  have he : expField b < 2047 := by
+    have : expField b < 2048 := by unfold expField; omega
+    unfold isFinite at hf
+    have : expField b ≠ 2047 := by simpa using hf
+    omega
+  have big : (2 ^ 53 - 1) * 2 ^ 2045 + 2 ^ 1022 < 2 ^ 2098 := by
+    have e1 : (2:Nat) ^ 2098 = 2 ^ 53 * 2 ^ 2045 := by rw [← Nat.pow_add]
+    have e2 : (2:Nat) ^ 1022 < 2 ^ 2045 := Nat.pow_lt_pow_right (by omega) (by omega)
+    rw [e1, Nat.sub_mul]
+    have : 1 * 2 ^ 2045 ≤ 2 ^ 53 * 2 ^ 2045 := Nat.mul_le_mul_right _ (by omega)
+    omega
+  unfold scaledMag
+  split
+  · have : (2:Nat) ^ 52 ≤ (2 ^ 53 - 1) * 2 ^ 2045 := by
+      calc (2:Nat) ^ 52 = 2 ^ 52 * 1 := by simp
+        _ ≤ (2 ^ 53 - 1) * 2 ^ 2045 := Nat.mul_le_mul (by omega) (Nat.two_pow_pos _)
+    omega
+  · have h1 : (2 ^ 52 + fracField b) * 2 ^ (expField b - 1) ≤ (2 ^ 53 - 1) * 2 ^ 2045 :=
+      Nat.mul_le_mul (by omega) (Nat.pow_le_pow_right (by omega) (by omega))
+    omega
+
+theorem lt63_arith (A q : Nat) (h1 : A ≤ 2046 * 2 ^ 52) (h2 : q ≤ 2 ^ 53) : A + (q - 2 ^ 52) < 2 ^ 63 := by
+  omega
+
+/-- below 2^2098 the rounded magnitude stays below the sign bit (at most the pattern of inf) -/
+theorem roundMag_lt (m : Nat) (h : m < 2 ^ 2098) : roundMag m < 2 ^ 63 := by
+  unfold roundMag
+  by_cases h1 : m < 2 ^ 53
+  · simp only [h1, if_true]; omega
+  · simp only [h1, if_false]
+    have h0 : m ≠ 0 := by omega
+    obtain ⟨a1, a2, a3⟩ := bitLen_spec m h0
+    have hl : 54 ≤ bitLen m := bitLen_ge m 53 (by omega)
+    have hu : bitLen m ≤ 2098 := bitLen_le_of_lt m 2098 h0 h
+    have qa := roundQ_bounds m _ (by omega) a2 a3
+    have : (bitLen m - 52) * 2 ^ 52 ≤ 2046 * 2 ^ 52 := Nat.mul_le_mul_right _ (by omega)
+    exact lt63_arith _ _ this qa.2
+
+theorem key_def (x : Nat) : key x = if signBit x = 1 then -(mag x : Int) else (mag x : Int) := rfl
+
+theorem signBit_cases (x : Nat) : signBit x = 0 ∨ signBit x = 1 := by unfold signBit; omega
+
+theorem roundMag_zero : roundMag 0 = 0 := by unfold roundMag; simp
+
+theorem key_roundSigned (S : Int) (h : S.natAbs < 2 ^ 2098) :
+    key (roundSigned S) = if S ≥ 0 then (roundMag S.toNat : Int) else -(roundMag (-S).toNat : Int) := by
+  unfold roundSigned
+  by_cases hs : S ≥ 0
+  · simp only [hs, if_true]
+    exact key_of_lt _ (roundMag_lt _ (by omega))
+  · simp only [hs, if_false]
+    exact key_of_neg _ (roundMag_lt _ (by omega))
+
+/-- rounding never jumps over a representable number (from below) -/
+theorem round_lower (S : Int) (hS : S.natAbs < 2 ^ 2098) (x : Nat) (hx : isFinite x = true)
+    (h : S ≤ scaled x) : key (roundSigned S) ≤ key x := by
+  rw [key_roundSigned S hS, key_def, ← roundMag_scaledMag x hx]
+  unfold scaled at h
+  rcases signBit_cases x with sx | sx
+  · have : ¬ signBit x = 1 := by omega
+    simp only [this, if_false] at h ⊢
+    by_cases hs : S ≥ 0
+    · simp only [hs, if_true]
+      have := roundMag_mono S.toNat (scaledMag x) (by omega)
+      omega
+    · simp only [hs, if_false]; omega
+  · simp only [sx, if_true] at h ⊢
+    by_cases hs : S ≥ 0
+    · simp only [hs, if_true]
+      have e1 : scaledMag x = 0 := by omega
+      have e2 : S.toNat = 0 := by omega
+      rw [e1, e2]; simp [roundMag_zero]
+    · simp only [hs, if_false]
+      have := roundMag_mono (scaledMag x) (-S).toNat (by omega)
+      omega
+
+/-- … nor from above -/
+theorem round_upper (S : Int) (hS : S.natAbs < 2 ^ 2098) (x : Nat) (hx : isFinite x = true)
+    (h : scaled x ≤ S) : key x ≤ key (roundSigned S) := by
+  rw [key_roundSigned S hS, key_def, ← roundMag_scaledMag x hx]
+  unfold scaled at h
+  rcases signBit_cases x with sx | sx
+  · have : ¬ signBit x = 1 := by omega
+    simp only [this, if_false] at h ⊢
+    have hs : S ≥ 0 := by omega
+    simp only [hs, if_true]
+    have := roundMag_mono (scaledMag x) S.toNat (by omega)
+    omega
+  · simp only [sx, if_true] at h ⊢
+    by_cases hs : S ≥ 0
+    · simp only [hs, if_true]; omega
+    · simp only [hs, if_false]
+      have := roundMag_mono (-S).toNat (scaledMag x) (by omega)
+      omega
+
+theorem scaled_eq_of_key_eq {a b : Nat} (h : key a = key b) : scaled a = scaled b := by
+  unfold key at h
+  unfold scaled
+  have ea : ∀ c : Nat, expField c = (mag c / 2 ^ 52) % 2 ^ 11 := by
+    intro c; unfold expField mag; omega
+  have fa : ∀ c : Nat, fracField c = mag c % 2 ^ 52 := by
+    intro c; unfold fracField mag; omega
+  have sm : ∀ c : Nat, mag c = 0 → scaledMag c = 0 := by
+    intro c hc
+    unfold scaledMag
+    simp [ea, fa, hc]
+  by_cases sa : signBit a = 1 <;> by_cases sb : signBit b = 1 <;> simp only [sa, sb, if_true, if_false] at h ⊢
+  · have : mag a = mag b := by omega
+    have : scaledMag a = scaledMag b := by unfold scaledMag; rw [ea a, ea b, fa a, fa b, this]
+    omega
+  · have h1 : mag a = 0 := by omega
+    have h2 : mag b = 0 := by omega
+    rw [sm a h1, sm b h2]; rfl
+  · have h1 : mag a = 0 := by omega
+    have h2 : mag b = 0 := by omega
+    rw [sm a h1, sm b h2]; rfl
+  · have : mag a = mag b := by omega
+    have : scaledMag a = scaledMag b := by unfold scaledMag; rw [ea a, ea b, fa a, fa b, this]
+    omega
+
+theorem isFinite_of_key_eq {a b : Nat} (h : key a = key b) (hb : isFinite b = true) : isFinite a = true := by
+  unfold isFinite at *
+  have ea : ∀ c : Nat, expField c = (mag c / 2 ^ 52) % 2 ^ 11 := by
+    intro c; unfold expField mag; omega
+  have : mag a = mag b := by
+    unfold key at h
+    by_cases sa : signBit a = 1 <;> by_cases sb : signBit b = 1 <;> simp only [sa, sb, if_true, if_false] at h <;> omega
+  rw [ea a, this, ← ea b]; exact hb
+
+theorem scaled_natAbs (b : Nat) : (scaled b).natAbs = scaledMag b := by
+  unfold scaled; split <;> simp
+
+/-- **The tolerance window.** Whatever the filter's numeric equality accepts next to `b` lies, in
+the zone map's order, inside `[b − ε, b + ε]` as computed in double arithmetic. -/
+theorem eps_window (x b : Nat) (hb : isNaN b = false) (h : (feq x b || epsClose x b) = true) :
+    key (addEps b (-1)) ≤ key x ∧ key x ≤ key (addEps b 1) := by
+  unfold addEps
+  by_cases hf : isFinite b = true
+  · simp only [hf, if_true]
+    have hbound := scaledMag_lt b hf
+    have hS1 : (scaled b + -1 * 2 ^ 1022).natAbs < 2 ^ 2098 := by
+      have := scaled_natAbs b; omega
+    have hS2 : (scaled b + 1 * 2 ^ 1022).natAbs < 2 ^ 2098 := by
+      have := scaled_natAbs b; omega
+    have key : isFinite x = true ∧ scaled b + -1 * 2 ^ 1022 ≤ scaled x ∧ scaled x ≤ scaled b + 1 * 2 ^ 1022 := by
+      simp only [Bool.or_eq_true] at h
+      rcases h with h | h
+      · unfold feq at h
+        simp only [Bool.and_eq_true, Bool.not_eq_true', beq_iff_eq] at h
+        have hk := h.2
+        refine ⟨isFinite_of_key_eq hk hf, ?_, ?_⟩ <;> (rw [scaled_eq_of_key_eq hk]; omega)
+      · unfold epsClose at h
+        simp only [Bool.and_eq_true, decide_eq_true_eq] at h
+        obtain ⟨⟨hx, _⟩, hd⟩ := h
+        have : (2:Nat) ^ 968 ≤ 2 ^ 1022 := Nat.pow_le_pow_right (by omega) (by omega)
+        refine ⟨hx, ?_, ?_⟩ <;> omega
+    exact ⟨round_lower _ hS1 x key.1 key.2.1, round_upper _ hS2 x key.1 key.2.2⟩
+  · simp only [hf, if_false]
+    simp only [Bool.or_eq_true] at h
+    rcases h with h | h
+    · unfold feq at h
+      simp only [Bool.and_eq_true, Bool.not_eq_true', beq_iff_eq] at h
+      rw [h.2]; exact ⟨Int.le_refl _, Int.le_refl _⟩
+    · unfold epsClose at h
+      simp only [Bool.and_eq_true] at h
+      exact absurd h.1.2 hf
+
+
+/-! ## 0'. Transitivity of the zone map's order where the code relies on it -/
+
+/-- well-formed values: integers in the i64 range, float patterns of 64 bits -/
+def WF : V → Prop
+  | .int i => I64 i
+  | .float b => b < 2 ^ 64
+  | _ => True
+
+theorem pcle_iff (a b : Nat) :
+    (partialCmp a b = some .lt ∨ partialCmp a b = some .eq) ↔
+      (isNaN a = false ∧ isNaN b = false ∧ key a ≤ key b) := by
+  unfold partialCmp
+  cases ha : isNaN a <;> cases hb : isNaN b <;> simp
+  first
+    | omega
+    | (rw [Int.compare_eq_lt]; omega)
+
+/-- `≤` is transitive along a chain in which two *adjacent* values are of the same variant (the
+shape the zone map relies on: min/max and the values they bound are of one variant, the literal
+is arbitrary). It is not transitive for Int–Float–Int chains (`c10_order_not_transitive`). -/
+theorem le_trans_adj {a b c : V} (ha : WF a) (hb : WF b) (hc : WF c)
+    (h : discr a = discr b ∨ discr b = discr c) (h1 : le a b) (h2 : le b c) : le a c := by
+  unfold le at *
+  cases a <;> cases b <;> cases c <;> simp [cmp, discr] at h h1 h2 ⊢
+  · -- bool
+    rename_i x y z
+    cases x <;> cases y <;> cases z <;> simp [compare, compareOfLessAndEq] at *
+  · rename_i x y z
+    rw [Int.compare_eq_lt] at h1 h2 ⊢
+    omega
+  · -- int int float
+    rename_i x y z
+    rw [pcle_iff] at h2 ⊢
+    have hx := i64ToF64_key x ha
+    have := ikey_mono x y ha hb (by rw [Int.compare_eq_lt] at h1; omega)
+    exact ⟨hx.1, h2.2.1, by omega⟩
+  · -- int float float
+    rename_i x y z
+    rw [pcle_iff] at h1 h2 ⊢
+    exact ⟨h1.1, h2.2.1, by omega⟩
+  · -- float int int
+    rename_i x y z
+    rw [pcle_iff] at h1 ⊢
+    have hz := i64ToF64_key z hc
+    have := ikey_mono y z hb hc (by rw [Int.compare_eq_lt] at h2; omega)
+    exact ⟨h1.1, hz.1, by omega⟩
+  · -- float float int
+    rename_i x y z
+    rw [pcle_iff] at h1 h2 ⊢
+    exact ⟨h1.1, h2.2.1, by omega⟩
+  · -- float float float
+    rename_i x y z
+    rw [pcle_iff] at h1 h2 ⊢
+    exact ⟨h1.1, h2.2.1, by omega⟩
+  · rename_i x y z
+    have e1 : cmpBytes x y ≠ .gt := by rcases h1 with h | h <;> simp [h]
+    have e2 : cmpBytes y z ≠ .gt := by rcases h2 with h | h <;> simp [h]
+    have := cmpBytes_le_trans x y z e1 e2
+    cases hh : cmpBytes x z <;> simp [hh] at this ⊢
+
+theorem lt_of_le_lt {a b c : V} (ha : WF a) (hb : WF b) (hc : WF c) (hd : discr a = discr b)
     (h1 : le a b) (h2 : cmp b c = some .lt) : cmp a c = some .lt := by
-  rcases hC.trans a b c ha hb hc h1 (Or.inl h2) with h | h
+  rcases le_trans_adj ha hb hc (Or.inl hd) h1 (Or.inl h2) with h | h
   · exact h
   · exfalso
-    have h3 : le c b := hC.trans c a b hc ha hb (Or.inr (cmp_eq_swap h)) h1
+    have h3 : le c b := le_trans_adj hc ha hb (Or.inr hd) (Or.inr (cmp_eq_swap h)) h1
     have h4 := cmp_lt_swap h2
     rcases h3 with h3 | h3 <;> simp [h3] at h4
 
+theorem lt_of_lt_le {a b c : V} (ha : WF a) (hb : WF b) (hc : WF c) (hd : discr b = discr c)
+    (h1 : cmp a b = some .lt) (h2 : le b c) : cmp a c = some .lt := by
+  rcases le_trans_adj ha hb hc (Or.inr hd) (Or.inl h1) h2 with h | h
+  · exact h
+  · exfalso
+    have h3 : le b a := le_trans_adj hb hc ha (Or.inl hd) h2 (Or.inr (cmp_eq_swap h))
+    have h4 := cmp_lt_swap h1
+    rcases h3 with h3 | h3 <;> simp [h3] at h4
+
+theorem comparable_trans_same {a b c : V} (ha : WF a) (hb : WF b) (hc : WF c)
+    (h1 : discr a = discr b) (h2 : discr b = discr c)
+    (c1 : (cmp a b).isSome = true) (c2 : (cmp b c).isSome = true) : (cmp a c).isSome = true := by
+  cases a <;> cases b <;> cases c <;> simp [cmp, discr, partialCmp_isSome] at h1 h2 c1 c2 ⊢
+  exact ⟨c1.1, c2.2⟩
+
 /-! ## 1. What a zone map knows about a list of values -/
 
-/-- `z`, `mixed` summarise (at least) the values `L`: every value of `L` that compares with the
-recorded minimum is not below it (same for the maximum), nulls are counted, and while `mixed` is
-off every non-null value compares with the minimum. -/
-structure ZInv (P : V → Prop) (L : List V) (z : ZM) (mixed : Bool) : Prop where
-  pall : ∀ x ∈ L, P x
+/-- `z`, `mixed` summarise (at least) the values `L`: nulls are counted; a non-null value means
+min and max are recorded; and while `mixed` is off all non-null values are of the variant of
+min/max and — if min compares at all (it is not a lone NaN) — lie between them. -/
+structure ZInv (L : List V) (z : ZM) (mixed : Bool) : Prop where
+  wf : ∀ x ∈ L, WF x
   nulls : V.null ∈ L → 0 < z.nullCount
   count : z.nullCount ≤ z.rowCount
   nonnull : ∀ x ∈ L, x ≠ .null → z.nullCount < z.rowCount
-  minB : ∀ x ∈ L, x ≠ .null → ∃ m, z.min = some m ∧ ((cmp x m).isSome = true → le m x)
-  maxB : ∀ x ∈ L, x ≠ .null → ∃ M, z.max = some M ∧ ((cmp x M).isSome = true → le x M)
-  mix : mixed = false → ∀ x ∈ L, x ≠ .null → ∀ m, z.min = some m →
-    (cmp m m).isSome = true → (cmp x m).isSome = true
-  pmin : ∀ m, z.min = some m → P m
-  pmax : ∀ M, z.max = some M → P M
+  minmax : z.min.isSome = z.max.isSome
+  hasMin : ∀ x ∈ L, x ≠ .null → z.min.isSome = true
+  wfmin : ∀ m, z.min = some m → WF m
+  wfmax : ∀ M, z.max = some M → WF M
+  bounds : mixed = false → ∀ m M, z.min = some m → z.max = some M →
+    discr M = discr m ∧ ((cmp m m).isSome = true ∨ (cmp M M).isSome = true → le m M) ∧
+    ∀ x ∈ L, x ≠ .null → discr x = discr m ∧
+      ((cmp m m).isSome = true ∨ (cmp M M).isSome = true → le m x ∧ le x M)
 
-theorem zinv_empty (P : V → Prop) : ZInv P [] {} false where
-  pall := by simp
+theorem zinv_empty : ZInv [] {} false where
+  wf := by simp
   nulls := by simp
   count := Nat.le_refl _
   nonnull := by simp
-  minB := by simp
-  maxB := by simp
-  mix := by simp
-  pmin := by simp
-  pmax := by simp
+  minmax := rfl
+  hasMin := by simp
+  wfmin := by simp
+  wfmax := by simp
+  bounds := by simp
 
-theorem zinv_mono {P : V → Prop} {L L' : List V} {z : ZM} {mixed : Bool}
-    (h : ZInv P L z mixed) (hs : ∀ x ∈ L', x ∈ L) : ZInv P L' z mixed where
-  pall x hx := h.pall x (hs x hx)
+theorem zinv_mono {L L' : List V} {z : ZM} {mixed : Bool}
+    (h : ZInv L z mixed) (hs : ∀ x ∈ L', x ∈ L) : ZInv L' z mixed where
+  wf x hx := h.wf x (hs x hx)
   nulls hx := h.nulls (hs _ hx)
   count := h.count
   nonnull x hx := h.nonnull x (hs x hx)
-  minB x hx := h.minB x (hs x hx)
-  maxB x hx := h.maxB x (hs x hx)
-  mix hm x hx := h.mix hm x (hs x hx)
-  pmin := h.pmin
-  pmax := h.pmax
-
-theorem newMin_lt {v cur : V} (h : cmp v cur = some .lt) : newMin v (some cur) = (some v, false) := by
-  simp [newMin, h]
-theorem newMin_eq {v cur : V} (h : cmp v cur = some .eq) : newMin v (some cur) = (some cur, false) := by
-  simp [newMin, h]
-theorem newMin_gt {v cur : V} (h : cmp v cur = some .gt) : newMin v (some cur) = (some cur, false) := by
-  simp [newMin, h]
-theorem newMin_none {v cur : V} (h : cmp v cur = none) : newMin v (some cur) = (some cur, true) := by
-  simp [newMin, h]
+  minmax := h.minmax
+  hasMin x hx := h.hasMin x (hs x hx)
+  wfmin := h.wfmin
+  wfmax := h.wfmax
+  bounds hm m M e1 e2 :=
+    ⟨(h.bounds hm m M e1 e2).1, (h.bounds hm m M e1 e2).2.1,
+      fun x hx => (h.bounds hm m M e1 e2).2.2 x (hs x hx)⟩
 
 theorem zmAdd_null (z : ZM) (mixed : Bool) :
     zmAdd (z, mixed) .null = ({ z with nullCount := z.nullCount + 1, rowCount := z.rowCount + 1 }, mixed) := by
@@ -252,211 +799,140 @@ theorem zmAdd_nonnull (z : ZM) (mixed : Bool) {v : V} (hv : v ≠ .null) :
          rowCount := z.rowCount + 1 }, mixed || (newMin v z.min).2) := by
   simp [zmAdd, hv]
 
-theorem zinv_add_null {P : V → Prop} {L : List V} {z : ZM} {mixed : Bool}
-    (h : ZInv P L z mixed) (hv : P .null) :
-    ZInv P (.null :: L) (zmAdd (z, mixed) .null).1 (zmAdd (z, mixed) .null).2 := by
+theorem zinv_add_null {L : List V} {z : ZM} {mixed : Bool} (h : ZInv L z mixed) :
+    ZInv (.null :: L) (zmAdd (z, mixed) .null).1 (zmAdd (z, mixed) .null).2 := by
   rw [zmAdd_null]
+  have mem : ∀ x, x ∈ V.null :: L → x ≠ .null → x ∈ L := by
+    intro x hx hn
+    rcases List.mem_cons.mp hx with rfl | hx
+    · exact absurd rfl hn
+    · exact hx
   exact {
-    pall := by
+    wf := by
       intro x hx
       rcases List.mem_cons.mp hx with rfl | hx
-      · exact hv
-      · exact h.pall x hx
+      · trivial
+      · exact h.wf x hx
     nulls := fun _ => Nat.succ_pos _
     count := Nat.succ_le_succ h.count
-    nonnull := by
-      intro x hx hn
-      rcases List.mem_cons.mp hx with rfl | hx
-      · exact absurd rfl hn
-      · exact Nat.succ_lt_succ (h.nonnull x hx hn)
-    minB := by
-      intro x hx hn
-      rcases List.mem_cons.mp hx with rfl | hx
-      · exact absurd rfl hn
-      · exact h.minB x hx hn
-    maxB := by
-      intro x hx hn
-      rcases List.mem_cons.mp hx with rfl | hx
-      · exact absurd rfl hn
-      · exact h.maxB x hx hn
-    mix := by
-      intro hm x hx hn
-      rcases List.mem_cons.mp hx with rfl | hx
-      · exact absurd rfl hn
-      · exact h.mix hm x hx hn
-    pmin := h.pmin
-    pmax := h.pmax }
+    nonnull := fun x hx hn => Nat.succ_lt_succ (h.nonnull x (mem x hx hn) hn)
+    minmax := h.minmax
+    hasMin := fun x hx hn => h.hasMin x (mem x hx hn) hn
+    wfmin := h.wfmin
+    wfmax := h.wfmax
+    bounds := fun hm m M e1 e2 =>
+      ⟨(h.bounds hm m M e1 e2).1, (h.bounds hm m M e1 e2).2.1,
+        fun x hx hn => (h.bounds hm m M e1 e2).2.2 x (mem x hx hn) hn⟩ }
 
-/-- minimum side of one non-null insertion -/
-theorem minB_add {P : V → Prop} (hC : Coherent P) {L : List V} {z : ZM} {mixed : Bool}
-    (h : ZInv P L z mixed) {v : V} (hv : P v) (hvn : v ≠ .null) :
-    ∀ x ∈ v :: L, x ≠ .null →
-      ∃ m, (newMin v z.min).1 = some m ∧ ((cmp x m).isSome = true → le m x) := by
-  intro x hx hn
-  cases hmin : z.min with
-  | none =>
-    rcases List.mem_cons.mp hx with rfl | hx
-    · exact ⟨x, rfl, le_self_of_comparable⟩
-    · obtain ⟨m, hm, _⟩ := h.minB x hx hn
-      rw [hmin] at hm; cases hm
-  | some cur =>
-    have hcur : P cur := h.pmin cur hmin
-    cases hc : cmp v cur with
-    | none =>
-      rw [newMin_none hc]
-      rcases List.mem_cons.mp hx with rfl | hx
-      · exact ⟨cur, rfl, fun hh => by simp [hc] at hh⟩
-      · obtain ⟨m, hm, hle⟩ := h.minB x hx hn
-        rw [hmin] at hm; cases hm
-        exact ⟨cur, rfl, hle⟩
-    | some o =>
-      cases o with
-      | lt =>
-        rw [newMin_lt hc]
-        refine ⟨v, rfl, ?_⟩
-        rcases List.mem_cons.mp hx with rfl | hx
-        · exact le_self_of_comparable
-        · intro hxv
-          obtain ⟨m, hm, hle⟩ := h.minB x hx hn
-          rw [hmin] at hm; cases hm
-          have hxc : (cmp x cur).isSome = true :=
-            hC.ctrans x v cur (h.pall x hx) hv hcur hxv (by simp [hc])
-          exact hC.trans v cur x hv hcur (h.pall x hx) (Or.inl hc) (hle hxc)
-      | eq =>
-        rw [newMin_eq hc]
-        rcases List.mem_cons.mp hx with rfl | hx
-        · exact ⟨cur, rfl, fun _ => Or.inr (cmp_eq_swap hc)⟩
-        · obtain ⟨m, hm, hle⟩ := h.minB x hx hn
-          rw [hmin] at hm; cases hm
-          exact ⟨cur, rfl, hle⟩
-      | gt =>
-        rw [newMin_gt hc]
-        rcases List.mem_cons.mp hx with rfl | hx
-        · exact ⟨cur, rfl, fun _ => Or.inl (cmp_gt_swap hc)⟩
-        · obtain ⟨m, hm, hle⟩ := h.minB x hx hn
-          rw [hmin] at hm; cases hm
-          exact ⟨cur, rfl, hle⟩
+theorem newMin_some (v cur : V) :
+    (newMin v (some cur)).1 = (if cmp v cur = some .lt then some v else some cur) ∧
+    ((newMin v (some cur)).2 = false → (cmp v cur).isSome = true ∧ discr v = discr cur) := by
+  cases hc : cmp v cur with
+  | none => simp [newMin, hc]
+  | some o => cases o <;> simp [newMin, hc]
 
-/-- maximum side of one non-null insertion -/
-theorem maxB_add {P : V → Prop} (hC : Coherent P) {L : List V} {z : ZM} {mixed : Bool}
-    (h : ZInv P L z mixed) {v : V} (hv : P v) (hvn : v ≠ .null) :
-    ∀ x ∈ v :: L, x ≠ .null →
-      ∃ M, newMax v z.max = some M ∧ ((cmp x M).isSome = true → le x M) := by
-  intro x hx hn
-  cases hmax : z.max with
-  | none =>
-    rcases List.mem_cons.mp hx with rfl | hx
-    · exact ⟨x, rfl, le_self_of_comparable⟩
-    · obtain ⟨m, hm, _⟩ := h.maxB x hx hn
-      rw [hmax] at hm; cases hm
-  | some cur =>
-    have hcur : P cur := h.pmax cur hmax
-    by_cases hc : cmp v cur = some .gt
-    · simp only [newMax, hc, if_true]
-      refine ⟨v, rfl, ?_⟩
-      rcases List.mem_cons.mp hx with rfl | hx
-      · exact le_self_of_comparable
-      · intro hxv
-        obtain ⟨m, hm, hle⟩ := h.maxB x hx hn
-        rw [hmax] at hm; cases hm
-        have hxc : (cmp x cur).isSome = true :=
-          hC.ctrans x v cur (h.pall x hx) hv hcur hxv (by simp [hc])
-        exact hC.trans x cur v (h.pall x hx) hcur hv (hle hxc) (Or.inl (cmp_gt_swap hc))
-    · simp only [newMax, hc, if_false]
-      rcases List.mem_cons.mp hx with rfl | hx
-      · exact ⟨cur, rfl, fun hh => le_of_not_gt hh hc⟩
-      · obtain ⟨m, hm, hle⟩ := h.maxB x hx hn
-        rw [hmax] at hm; cases hm
-        exact ⟨cur, rfl, hle⟩
+theorem newMax_some (v cur : V) :
+    newMax v (some cur) = (if cmp v cur = some .gt then some v else some cur) := by
+  simp [newMax]
 
-/-- the `mixed` flag after one non-null insertion -/
-theorem mix_add {P : V → Prop} (hC : Coherent P) {L : List V} {z : ZM} {mixed : Bool}
-    (h : ZInv P L z mixed) {v : V} (hv : P v) (hvn : v ≠ .null)
-    (hm' : (mixed || (newMin v z.min).2) = false) :
-    ∀ x ∈ v :: L, x ≠ .null → ∀ m, (newMin v z.min).1 = some m →
-      (cmp m m).isSome = true → (cmp x m).isSome = true := by
-  have hmixed : mixed = false := by cases mixed <;> simp at hm' ⊢
-  have hflag : (newMin v z.min).2 = false := by
-    cases hh : (newMin v z.min).2 <;> simp [hmixed, hh] at hm' ⊢
-  intro x hx hn m hm hmm
-  cases hmin : z.min with
-  | none =>
-    rw [hmin] at hm
-    simp only [newMin, Option.some.injEq] at hm
+/-- one non-null insertion keeps the bounds (min and max of one variant, all values between) -/
+theorem bounds_step {L : List V} {v cur curM : V} (wv : WF v) (wc : WF cur) (wM : WF curM)
+    (wL : ∀ x ∈ L, WF x) (hvn : v ≠ .null)
+    (hd : discr v = discr cur) (hdM : discr curM = discr cur) (hc : (cmp v cur).isSome = true)
+    (hle : le cur curM)
+    (hold : ∀ x ∈ L, x ≠ .null → discr x = discr cur ∧ le cur x ∧ le x curM)
+    (m M : V) (hm : (newMin v (some cur)).1 = some m) (hM : newMax v (some curM) = some M) :
+    discr M = discr m ∧ le m M ∧ ∀ x ∈ v :: L, x ≠ .null → discr x = discr m ∧ le m x ∧ le x M := by
+  rw [(newMin_some v cur).1] at hm
+  rw [newMax_some] at hM
+  have hcc : (cmp cur cur).isSome = true := by
+    have := cmp_self_of_comparable (comparable_symm hc); simp [this]
+  have hvM : (cmp v curM).isSome = true :=
+    comparable_trans_same wv wc wM hd hdM.symm hc (le_comparable hle)
+  have hvv : le v v := le_self_of_comparable hc
+  -- the order between v and cur / curM
+  by_cases h1 : cmp v cur = some .lt
+  · -- v is the new minimum
+    simp only [h1, if_true, Option.some.injEq] at hm
     subst hm
+    have hvc : le v cur := Or.inl h1
+    have hvcM : le v curM := le_trans_adj wv wc wM (Or.inl hd) hvc hle
+    have hng : cmp v curM ≠ some .gt := by rcases hvcM with t | t <;> simp [t]
+    simp only [hng, if_false, Option.some.injEq] at hM
+    subst hM
+    refine ⟨by omega, hvcM, ?_⟩
+    intro x hx hn
     rcases List.mem_cons.mp hx with rfl | hx
-    · exact hmm
-    · obtain ⟨m', hm', _⟩ := h.minB x hx hn
-      rw [hmin] at hm'; cases hm'
-  | some cur =>
-    rw [hmin] at hm hflag
-    have hcur : P cur := h.pmin cur hmin
-    cases hc : cmp v cur with
-    | none => rw [newMin_none hc] at hflag; cases hflag
-    | some o =>
-      have hvc : (cmp v cur).isSome = true := by simp [hc]
-      have hcc : (cmp cur cur).isSome = true := by
-        have := cmp_self_of_comparable (comparable_symm hvc); simp [this]
-      cases o with
-      | lt =>
-        rw [newMin_lt hc] at hm
-        simp only [Option.some.injEq] at hm
-        subst hm
-        rcases List.mem_cons.mp hx with rfl | hx
-        · exact hmm
-        · have hxc := h.mix hmixed x hx hn cur hmin hcc
-          exact hC.ctrans x cur v (h.pall x hx) hcur hv hxc (comparable_symm hvc)
-      | eq =>
-        rw [newMin_eq hc] at hm
-        simp only [Option.some.injEq] at hm
-        subst hm
-        rcases List.mem_cons.mp hx with rfl | hx
-        · exact hvc
-        · exact h.mix hmixed x hx hn cur hmin hmm
-      | gt =>
-        rw [newMin_gt hc] at hm
-        simp only [Option.some.injEq] at hm
-        subst hm
-        rcases List.mem_cons.mp hx with rfl | hx
-        · exact hvc
-        · exact h.mix hmixed x hx hn cur hmin hmm
+    · exact ⟨rfl, hvv, hvcM⟩
+    · obtain ⟨d, l1, l2⟩ := hold x hx hn
+      exact ⟨by omega, le_trans_adj wv wc (wL x hx) (Or.inl hd) hvc l1, l2⟩
+  · simp only [h1, if_false, Option.some.injEq] at hm
+    subst hm
+    have hcv : le cur v :=
+      le_of_not_gt (comparable_symm hc) (fun hg => h1 (cmp_gt_swap hg))
+    by_cases h2 : cmp v curM = some .gt
+    · -- v is the new maximum
+      simp only [h2, if_true, Option.some.injEq] at hM
+      subst hM
+      have hMv : le curM v := Or.inl (cmp_gt_swap h2)
+      refine ⟨hd, hcv, ?_⟩
+      intro x hx hn
+      rcases List.mem_cons.mp hx with rfl | hx
+      · exact ⟨hd, hcv, hvv⟩
+      · obtain ⟨d, l1, l2⟩ := hold x hx hn
+        exact ⟨d, l1, le_trans_adj (wL x hx) wM wv (Or.inl (by omega)) l2 hMv⟩
+    · simp only [h2, if_false, Option.some.injEq] at hM
+      subst hM
+      refine ⟨hdM, hle, ?_⟩
+      intro x hx hn
+      rcases List.mem_cons.mp hx with rfl | hx
+      · exact ⟨hd, hcv, le_of_not_gt hvM h2⟩
+      · exact hold x hx hn
 
 theorem newMin_mem (v : V) (o : Option V) (m : V) (h : (newMin v o).1 = some m) :
     m = v ∨ o = some m := by
   cases o with
   | none => simp [newMin] at h; exact Or.inl h.symm
   | some cur =>
-    cases hc : cmp v cur with
-    | none => rw [newMin_none hc] at h; exact Or.inr h
-    | some o =>
-      cases o with
-      | lt => rw [newMin_lt hc] at h; simp at h; exact Or.inl h.symm
-      | eq => rw [newMin_eq hc] at h; exact Or.inr h
-      | gt => rw [newMin_gt hc] at h; exact Or.inr h
+    rw [(newMin_some v cur).1] at h
+    split at h
+    · simp at h; exact Or.inl h.symm
+    · exact Or.inr h
 
 theorem newMax_mem (v : V) (o : Option V) (m : V) (h : newMax v o = some m) :
     m = v ∨ o = some m := by
   cases o with
   | none => simp [newMax] at h; exact Or.inl h.symm
   | some cur =>
-    by_cases hc : cmp v cur = some .gt
-    · simp [newMax, hc] at h; exact Or.inl h.symm
-    · simp [newMax, hc] at h; exact Or.inr (by rw [h])
+    rw [newMax_some] at h
+    split at h
+    · simp at h; exact Or.inl h.symm
+    · exact Or.inr h
+
+theorem newMin_isSome (v : V) (o : Option V) : (newMin v o).1.isSome = true := by
+  cases o with
+  | none => rfl
+  | some cur => rw [(newMin_some v cur).1]; split <;> rfl
+
+theorem newMax_isSome (v : V) (o : Option V) : (newMax v o).isSome = true := by
+  cases o with
+  | none => rfl
+  | some cur => rw [newMax_some]; split <;> rfl
 
 /-- one insertion keeps the summary valid (this is `update_zone_map_on_insert`, and one turn of
 the loop of `rebuild_zone_map`) -/
-theorem zinv_add {P : V → Prop} (hC : Coherent P) {L : List V} {z : ZM} {mixed : Bool}
-    (h : ZInv P L z mixed) {v : V} (hv : P v) :
-    ZInv P (v :: L) (zmAdd (z, mixed) v).1 (zmAdd (z, mixed) v).2 := by
+theorem zinv_add {L : List V} {z : ZM} {mixed : Bool} (h : ZInv L z mixed) {v : V} (wv : WF v) :
+    ZInv (v :: L) (zmAdd (z, mixed) v).1 (zmAdd (z, mixed) v).2 := by
   by_cases hvn : v = .null
-  · subst hvn; exact zinv_add_null h hv
+  · subst hvn; exact zinv_add_null h
   · rw [zmAdd_nonnull z mixed hvn]
+    have wL : ∀ x ∈ v :: L, WF x := by
+      intro x hx
+      rcases List.mem_cons.mp hx with rfl | hx
+      · exact wv
+      · exact h.wf x hx
     exact {
-      pall := by
-        intro x hx
-        rcases List.mem_cons.mp hx with rfl | hx
-        · exact hv
-        · exact h.pall x hx
+      wf := wL
       nulls := by
         intro hx
         rcases List.mem_cons.mp hx with e | hx
@@ -464,33 +940,71 @@ theorem zinv_add {P : V → Prop} (hC : Coherent P) {L : List V} {z : ZM} {mixed
         · exact h.nulls hx
       count := Nat.le_succ_of_le h.count
       nonnull := fun _ _ _ => Nat.lt_succ_of_le h.count
-      minB := minB_add hC h hv hvn
-      maxB := maxB_add hC h hv hvn
-      mix := mix_add hC h hv hvn
-      pmin := by
+      minmax := by simp [newMin_isSome, newMax_isSome]
+      hasMin := fun _ _ _ => newMin_isSome v z.min
+      wfmin := by
         intro m hm
         rcases newMin_mem v z.min m hm with rfl | hm
-        · exact hv
-        · exact h.pmin m hm
-      pmax := by
+        · exact wv
+        · exact h.wfmin m hm
+      wfmax := by
         intro m hm
         rcases newMax_mem v z.max m hm with rfl | hm
-        · exact hv
-        · exact h.pmax m hm }
+        · exact wv
+        · exact h.wfmax m hm
+      bounds := by
+        intro hmx m M hm hM
+        simp only at hm hM
+        have hmixed : mixed = false := by cases mixed <;> simp at hmx ⊢
+        have hflag : (newMin v z.min).2 = false := by
+          cases hh : (newMin v z.min).2 <;> simp [hmixed, hh] at hmx ⊢
+        cases hmin : z.min with
+        | none =>
+          have hmaxn : z.max = none := by
+            have := h.minmax; rw [hmin] at this
+            cases hh : z.max <;> simp [hh] at this ⊢
+          rw [hmin] at hm; rw [hmaxn] at hM
+          simp only [newMin, newMax, Option.some.injEq] at hm hM
+          subst hm; subst hM
+          have self : (cmp v v).isSome = true ∨ (cmp v v).isSome = true → le v v := by
+            rintro (hc | hc) <;> exact le_self_of_comparable hc
+          refine ⟨rfl, self, ?_⟩
+          intro x hx hn
+          rcases List.mem_cons.mp hx with rfl | hx
+          · exact ⟨rfl, fun hc => ⟨self hc, self hc⟩⟩
+          · have := h.hasMin x hx hn; rw [hmin] at this; cases this
+        | some cur =>
+          obtain ⟨curM, hmaxs⟩ : ∃ curM, z.max = some curM := by
+            have := h.minmax; rw [hmin] at this
+            cases hh : z.max with
+            | none => simp [hh] at this
+            | some c => exact ⟨c, rfl⟩
+          rw [hmin] at hm hflag; rw [hmaxs] at hM
+          obtain ⟨hc, hd⟩ := (newMin_some v cur).2 hflag
+          have hcc : (cmp cur cur).isSome = true := by
+            have := cmp_self_of_comparable (comparable_symm hc); simp [this]
+          obtain ⟨b1, b2, b3⟩ := h.bounds hmixed cur curM hmin hmaxs
+          have := bounds_step wv (h.wfmin cur hmin) (h.wfmax curM hmaxs) h.wf hvn hd b1 hc (b2 (Or.inl hcc))
+            (fun x hx hn => ⟨(b3 x hx hn).1, (b3 x hx hn).2 (Or.inl hcc)⟩) m M hm hM
+          exact ⟨this.1, fun _ => this.2.1, fun x hx hn =>
+            ⟨(this.2.2 x hx hn).1, fun _ => (this.2.2 x hx hn).2⟩⟩ }
 
 /-- folding a list of values into a summary (`rebuild_zone_map`) -/
-theorem zinv_foldl {P : V → Prop} (hC : Coherent P) :
-    ∀ (vs : List V) (L : List V) (s : ZM × Bool), ZInv P L s.1 s.2 → (∀ v ∈ vs, P v) →
-      ZInv P (vs.reverse ++ L) (vs.foldl zmAdd s).1 (vs.foldl zmAdd s).2
+theorem zinv_foldl :
+    ∀ (vs : List V) (L : List V) (s : ZM × Bool), ZInv L s.1 s.2 → (∀ v ∈ vs, WF v) →
+      ZInv (vs.reverse ++ L) (vs.foldl zmAdd s).1 (vs.foldl zmAdd s).2
   | [], L, s, h, _ => by simpa using h
   | v :: vs, L, s, h, hp => by
-    have h1 : ZInv P (v :: L) (zmAdd s v).1 (zmAdd s v).2 :=
-      zinv_add hC (z := s.1) (mixed := s.2) h (hp v (List.mem_cons_self))
-    have h2 := zinv_foldl hC vs (v :: L) (zmAdd s v) h1
+    have h1 : ZInv (v :: L) (zmAdd s v).1 (zmAdd s v).2 :=
+      zinv_add (z := s.1) (mixed := s.2) h (hp v (List.mem_cons_self))
+    have h2 := zinv_foldl vs (v :: L) (zmAdd s v) h1
       (fun x hx => hp x (List.mem_cons_of_mem _ hx))
     simpa [List.foldl_cons, List.reverse_cons, List.append_assoc] using h2
 
-/-! ## 2. A `false` verdict of the zone map is right about every summarised value -/
+/-! ## 2. A `false` verdict of the zone map is right about every summarised value
+
+… under the engine's own filter semantics `fsat` (`filter.rs`), for every operator, every literal
+and every value — no value-class hypothesis. -/
 
 theorem cmp_null_left (v : V) : cmp .null v = none := by cases v <;> rfl
 theorem cmp_null_right (v : V) : cmp v .null = none := by cases v <;> rfl
@@ -498,10 +1012,70 @@ theorem cmp_null_right (v : V) : cmp v .null = none := by cases v <;> rfl
 theorem nonnull_of_cmp {x v : V} {o : Ordering} (h : cmp x v = some o) : x ≠ .null := by
   intro e; subst e; rw [cmp_null_left] at h; cases h
 
+/-- the filter's ordering comparison is the zone map's (minus Bool/Bool) -/
+theorem fCmp_sub_cmp {x v : V} {o : Ordering} (h : fCmp x v = some o) : cmp x v = some o := by
+  cases x <;> cases v <;> simp [fCmp, cmp] at h ⊢ <;> exact h
+
+theorem epsClose_comm (a b : Nat) : epsClose a b = epsClose b a := by
+  unfold epsClose
+  have : (scaled a - scaled b).natAbs = (scaled b - scaled a).natAbs := by omega
+  rw [this, Bool.and_comm (isFinite a)]
+
+theorem epsClose_of_key_eq {a b : Nat} (fa : isFinite a = true) (fb : isFinite b = true)
+    (h : key a = key b) : epsClose a b = true := by
+  unfold epsClose
+  rw [scaled_eq_of_key_eq h]
+  have : 0 < 2 ^ 1022 - 2 ^ 968 := Nat.sub_pos_of_lt (Nat.pow_lt_pow_right (by omega) (by omega))
+  simp [fa, fb, this]
+
+theorem partialCmp_eq_key {a b : Nat} (h : partialCmp a b = some .eq) :
+    isNaN a = false ∧ isNaN b = false ∧ key a = key b := by
+  unfold partialCmp at h
+  cases ha : isNaN a <;> cases hb : isNaN b <;> simp [ha, hb] at h
+  exact ⟨rfl, rfl, h⟩
+
+/-- values the zone map's order calls equal are equal for the filter -/
+theorem fEq_of_cmp_eq {x v : V} (wx : WF x) (wv : WF v) (h : cmp x v = some .eq) : fEq x v = true := by
+  cases x <;> cases v <;> simp [cmp, fEq] at h ⊢
+  · rename_i a b
+    cases a <;> cases b <;> simp [compare, compareOfLessAndEq] at h ⊢
+  · exact h
+  · rename_i i y
+    obtain ⟨_, _, hk⟩ := partialCmp_eq_key h
+    have hi := i64ToF64_key i wx
+    exact epsClose_of_key_eq hi.2.1 (isFinite_of_key_eq hk.symm hi.2.1) hk
+  · rename_i y i
+    obtain ⟨_, _, hk⟩ := partialCmp_eq_key h
+    have hi := i64ToF64_key i wv
+    exact epsClose_of_key_eq hi.2.1 (isFinite_of_key_eq hk hi.2.1) hk.symm
+  · rename_i a b
+    obtain ⟨ha, hb, hk⟩ := partialCmp_eq_key h
+    left; unfold feq; simp [ha, hb, hk]
+  · exact (cmpBytes_eq_iff _ _).mp h
+
 section Sound
-variable {P : V → Prop} (hC : Coherent P) {L : List V} {z : ZM} {mixed : Bool}
-  (h : ZInv P L z mixed) {v : V} (hv : P v)
-include hC h hv
+variable {L : List V} {z : ZM} (h : ZInv L z false) {v : V} (wv : WF v)
+include h wv
+
+/-- min/max exist and bound a value that compares with the literal the minimum compares with -/
+theorem bounds_of {x : V} (hx : x ∈ L) (hn : x ≠ .null) :
+    ∃ m M, z.min = some m ∧ z.max = some M ∧ WF m ∧ WF M ∧ WF x ∧
+      discr x = discr m ∧ discr M = discr m ∧
+      ((cmp m m).isSome = true ∨ (cmp M M).isSome = true → le m x ∧ le x M) := by
+  have h1 := h.hasMin x hx hn
+  cases hm : z.min with
+  | none => rw [hm] at h1; cases h1
+  | some m =>
+    have h2 := h.minmax
+    rw [hm] at h2
+    cases hM : z.max with
+    | none => rw [hM] at h2; cases h2
+    | some M =>
+      obtain ⟨b1, _, b3⟩ := h.bounds rfl m M hm hM
+      exact ⟨m, M, rfl, rfl, h.wfmin m hm, h.wfmax M hM, h.wf x hx, (b3 x hx hn).1, b1, (b3 x hx hn).2⟩
+
+theorem self_comparable_of {m w : V} {o : Ordering} (hc : cmp m w = some o) : (cmp m m).isSome = true := by
+  have := cmp_self_of_comparable (a := m) (b := w) (by simp [hc]); simp [this]
 
 /-- `might_contain_less_than(v, incl) = false` ⇒ no value is `< v` (resp. `≤ v`) -/
 theorem less_sound {incl : Bool} (hf : z.mightLess v incl = false) :
@@ -511,23 +1085,19 @@ theorem less_sound {incl : Bool} (hf : z.mightLess v incl = false) :
   have key : ∀ o, cmp x v = some o → (o = .lt ∨ (incl = true ∧ o = .eq)) → False := by
     intro o hxo ho
     have hn := nonnull_of_cmp hxo
-    obtain ⟨m, hm, hle⟩ := h.minB x hx hn
+    obtain ⟨m, M, hm, hM, wm, wM, wx, d1, d2, hb⟩ := bounds_of h wv hx hn
     rw [hm] at hf
     simp only [lessOn] at hf
-    have hpm := h.pmin m hm
-    have hpx := h.pall x hx
     cases hmv : cmp m v with
     | none => rw [hmv] at hf; simp [lessVerdict] at hf
     | some o' =>
-      have hxm : (cmp x m).isSome = true :=
-        hC.ctrans x v m hpx hv hpm (by simp [hxo]) (comparable_symm (by simp [hmv]))
-      have hmx := hle hxm
+      have hmx := (hb (Or.inl (self_comparable_of h wv hmv))).1
       rw [hmv] at hf
       rcases ho with rfl | ⟨hi, rfl⟩
-      · have := lt_of_le_lt hC hpm hpx hv hmx hxo
+      · have := lt_of_le_lt wm wx wv d1.symm hmx hxo
         rw [this] at hmv; cases hmv; simp [lessVerdict] at hf
       · subst hi
-        rcases hC.trans m x v hpm hpx hv hmx (Or.inr hxo) with h' | h' <;>
+        rcases le_trans_adj wm wx wv (Or.inl d1.symm) hmx (Or.inr hxo) with h' | h' <;>
           (rw [h'] at hmv; cases hmv; simp [lessVerdict] at hf)
   exact ⟨fun e => key _ e (Or.inl rfl), fun hi e => key _ e (Or.inr ⟨hi, rfl⟩)⟩
 
@@ -539,153 +1109,31 @@ theorem greater_sound {incl : Bool} (hf : z.mightGreater v incl = false) :
   have key : ∀ o, cmp x v = some o → (o = .gt ∨ (incl = true ∧ o = .eq)) → False := by
     intro o hxo ho
     have hn := nonnull_of_cmp hxo
-    obtain ⟨m, hm, hle⟩ := h.maxB x hx hn
-    rw [hm] at hf
+    obtain ⟨m, M, hm, hM, wm, wM, wx, d1, d2, hb⟩ := bounds_of h wv hx hn
+    rw [hM] at hf
     simp only [greaterOn] at hf
-    have hpm := h.pmax m hm
-    have hpx := h.pall x hx
-    cases hmv : cmp m v with
-    | none => rw [hmv] at hf; simp [greaterVerdict] at hf
+    cases hMv : cmp M v with
+    | none => rw [hMv] at hf; simp [greaterVerdict] at hf
     | some o' =>
-      have hxm : (cmp x m).isSome = true :=
-        hC.ctrans x v m hpx hv hpm (by simp [hxo]) (comparable_symm (by simp [hmv]))
-      have hxm' := hle hxm
-      rw [hmv] at hf
+      have hxM := (hb (Or.inr (self_comparable_of h wv hMv))).2
+      rw [hMv] at hf
       rcases ho with rfl | ⟨hi, rfl⟩
-      · -- v < x ≤ m, so v < m
-        have := lt_of_lt_le hC hv hpx hpm (cmp_gt_swap hxo) hxm'
+      · have := lt_of_lt_le wv wx wM (by omega) (cmp_gt_swap hxo) hxM
         have := cmp_lt_swap this
-        rw [this] at hmv; cases hmv; simp [greaterVerdict] at hf
+        rw [this] at hMv; cases hMv; simp [greaterVerdict] at hf
       · subst hi
-        rcases hC.trans v x m hv hpx hpm (Or.inr (cmp_eq_swap hxo)) hxm' with h' | h'
+        rcases le_trans_adj wv wx wM (Or.inr (by omega)) (Or.inr (cmp_eq_swap hxo)) hxM with h' | h'
         · have := cmp_lt_swap h'
-          rw [this] at hmv; cases hmv; simp [greaterVerdict] at hf
+          rw [this] at hMv; cases hMv; simp [greaterVerdict] at hf
         · have := cmp_eq_swap h'
-          rw [this] at hmv; cases hmv; simp [greaterVerdict] at hf
+          rw [this] at hMv; cases hMv; simp [greaterVerdict] at hf
   exact ⟨fun e => key _ e (Or.inl rfl), fun hi e => key _ e (Or.inr ⟨hi, rfl⟩)⟩
-
-/-- `might_contain_equal(v) = false` ⇒ no value equals `v` -/
-theorem equal_sound (hf : z.mightEqual v = false) : ∀ x ∈ L, zEq x v = false := by
-  intro x hx
-  unfold ZM.mightEqual at hf
-  by_cases hvn : v = .null
-  · subst hvn
-    simp only [if_true, decide_eq_false_iff_not, Nat.not_lt, Nat.le_zero] at hf
-    have hxn : x ≠ .null := by
-      intro e; subst e
-      have := h.nulls hx
-      omega
-    simp [zEq, cmp_null_right, hxn]
-  · simp only [hvn, if_false] at hf
-    by_cases hxn : x = .null
-    · subst hxn; simp [zEq, cmp_null_left, hvn]
-    · have hz : zEq x v = (cmp x v == some .eq) := by simp [zEq, hxn]
-      rw [hz]
-      have hnc := h.nonnull x hx hxn
-      have hall : z.isAllNull = false := by
-        unfold ZM.isAllNull
-        have : (z.nullCount == z.rowCount) = false := by simp; omega
-        simp [this]
-      simp only [hall, if_false, Bool.false_eq_true] at hf
-      obtain ⟨mn, hmn, hle1⟩ := h.minB x hx hxn
-      obtain ⟨mx, hmx, hle2⟩ := h.maxB x hx hxn
-      rw [hmn, hmx] at hf
-      simp only [eqBounds] at hf
-      cases hxv : cmp x v with
-      | none => simp
-      | some o =>
-        cases o with
-        | lt => simp
-        | gt => simp
-        | eq =>
-          exfalso
-          have hpx := h.pall x hx
-          have hpmn := h.pmin mn hmn
-          have hpmx := h.pmax mx hmx
-          have hxv' : (cmp x v).isSome = true := by simp [hxv]
-          by_cases h1 : cmp v mn = some .lt
-          · have hxm : (cmp x mn).isSome = true := hC.ctrans x v mn hpx hv hpmn hxv' (by simp [h1])
-            have := hC.trans mn x v hpmn hpx hv (hle1 hxm) (Or.inr hxv)
-            have h1' := cmp_lt_swap h1
-            rcases this with t | t <;> simp [t] at h1'
-          · have h2 : cmp v mx = some .gt := by
-              cases hh : cmp v mx with
-              | none => simp [h1, hh] at hf
-              | some o => cases o <;> simp [h1, hh] at hf ⊢
-            have hxm : (cmp x mx).isSome = true := hC.ctrans x v mx hpx hv hpmx hxv' (by simp [h2])
-            have := hC.trans v x mx hv hpx hpmx (Or.inr (cmp_eq_swap hxv)) (hle2 hxm)
-            rcases this with t | t <;> simp [t] at h2
-
-/-- `<>`: the verdict `false` (not mixed, min = max = v) ⇒ every non-null value equals `v` -/
-theorem ne_sound (hmix : mixed = false) (hf : neVerdict v z.min z.max = false) :
-    ∀ x ∈ L, x ≠ .null → zEq x v = true := by
-  intro x hx hxn
-  cases hmn : z.min with
-  | none => simp [neVerdict, hmn] at hf
-  | some mn =>
-    cases hmx : z.max with
-    | none => simp [neVerdict, hmn, hmx] at hf
-    | some mx =>
-      simp only [neVerdict, hmn, hmx, Bool.not_eq_false', Bool.and_eq_true, beq_iff_eq] at hf
-      obtain ⟨h1, h2⟩ := hf
-      have hpx := h.pall x hx
-      have hpmn := h.pmin mn hmn
-      have hpmx := h.pmax mx hmx
-      have hmm : (cmp mn mn).isSome = true := by
-        have := cmp_self_of_comparable (a := mn) (b := v) (by simp [h1]); simp [this]
-      have hxmn : (cmp x mn).isSome = true := h.mix hmix x hx hxn mn hmn hmm
-      have hxv : (cmp x v).isSome = true := hC.ctrans x mn v hpx hpmn hv hxmn (by simp [h1])
-      have hxmx : (cmp x mx).isSome = true :=
-        hC.ctrans x v mx hpx hv hpmx hxv (comparable_symm (by simp [h2]))
-      obtain ⟨_, e1, hle1⟩ := h.minB x hx hxn
-      obtain ⟨_, e2, hle2⟩ := h.maxB x hx hxn
-      rw [hmn] at e1; cases e1
-      rw [hmx] at e2; cases e2
-      have hvx : le v x := hC.trans v mn x hv hpmn hpx (Or.inr (cmp_eq_swap h1)) (hle1 hxmn)
-      have hxv2 : le x v := hC.trans x mx v hpx hpmx hv (hle2 hxmx) (Or.inr h2)
-      have : cmp x v = some .eq := by
-        rcases hxv2 with t | t
-        · have := cmp_lt_swap t
-          rcases hvx with u | u <;> simp [u] at this
-        · exact t
-      simp [zEq, this]
 
 end Sound
 
-/-- **Zone-map soundness at the level of one summary**: if the verdict for `op v` is `false`,
-no summarised value satisfies `op v` under the exact order semantics — except that `<>` says
-nothing about nulls (for the filter `NULL <> v` is true; the zone map forgets the nulls). -/
-theorem matchOn_sound {P : V → Prop} (hC : Coherent P) {L : List V} {z : ZM} {mixed : Bool}
-    (h : ZInv P L z mixed) {v : V} (hv : P v) (op : Op) (hf : matchOn z mixed v op = false) :
-    ∀ x ∈ L, (op = .ne → x ≠ .null) → zsat op x v = false := by
-  intro x hx hne
-  cases op with
-  | eq => exact equal_sound hC h hv hf x hx
-  | ne =>
-    simp only [matchOn] at hf
-    cases hm : mixed with
-    | true => simp [hm] at hf
-    | false =>
-      simp only [hm, Bool.false_eq_true, if_false] at hf
-      simp [zsat, ne_sound hC h hv hm hf x hx (hne rfl)]
-  | lt =>
-    have := less_sound hC h hv (incl := false) hf x hx
-    simp [zsat, this.1]
-  | le =>
-    have := less_sound hC h hv (incl := true) hf x hx
-    simp [zsat, this.1, this.2 rfl]
-  | gt =>
-    have := greater_sound hC h hv (incl := false) hf x hx
-    simp [zsat, this.1]
-  | ge =>
-    have := greater_sound hC h hv (incl := true) hf x hx
-    simp [zsat, this.1, this.2 rfl]
-
-/-- the same for `might_contain_range` (which `PropertyStorage::might_match_range` consults
-without looking at the `dirty` flag) -/
-theorem range_sound {P : V → Prop} (hC : Coherent P) {L : List V} {z : ZM} {mixed : Bool}
-    (h : ZInv P L z mixed) (lo hi : Option V) (hlo : ∀ l, lo = some l → P l)
-    (hhi : ∀ u, hi = some u → P u) (li ui : Bool)
+/-- `might_contain_range` (bounds of any kind): no value lies in the range by the zone map's order -/
+theorem range_sound {L : List V} {z : ZM} (h : ZInv L z false) (lo hi : Option V)
+    (hlo : ∀ l, lo = some l → WF l) (hhi : ∀ u, hi = some u → WF u) (li ui : Bool)
     (hf : z.mightRange lo hi li ui = false) :
     ∀ x ∈ L, satRange zsat x lo hi li ui = false := by
   intro x hx
@@ -696,7 +1144,7 @@ theorem range_sound {P : V → Prop} (hC : Coherent P) {L : List V} {z : ZM} {mi
     | none => simp [lowerOk] at hl
     | some l =>
       simp only [lowerOk] at hl
-      have := greater_sound hC h (hlo l rfl) hl x hx
+      have := greater_sound h (hlo l rfl) hl x hx
       cases li <;> simp [satRange, boundOp, zsat, this.1] <;> intro h1 <;> simp [this.2] at h1
   | true =>
     rw [hl] at hf
@@ -705,8 +1153,217 @@ theorem range_sound {P : V → Prop} (hC : Coherent P) {L : List V} {z : ZM} {mi
     | none => simp [upperOk] at hf
     | some u =>
       simp only [upperOk] at hf
-      have := less_sound hC h (hhi u rfl) hf x hx
+      have := less_sound h (hhi u rfl) hf x hx
       cases ui <;> simp [satRange, boundOp, zsat, this.1] <;> intro _ h1 <;> simp [this.2] at h1
+
+/-- for a non-numeric literal the filter's equality is identity -/
+theorem fEq_nonnumeric {x v : V} (hv : numBits v = none) (h : fEq x v = true) : x = v := by
+  cases x <;> cases v <;> simp [fEq, numBits] at h hv ⊢ <;> exact h
+
+/-- `might_contain_equal(v) = false` for a string / boolean / null literal -/
+theorem equal_sound {L : List V} {z : ZM} (h : ZInv L z false) {v : V} (wv : WF v)
+    (hnum : numBits v = none) (hf : z.mightEqual v = false) : ∀ x ∈ L, fEq x v = false := by
+  intro x hx
+  cases hfe : fEq x v with
+  | false => rfl
+  | true =>
+    exfalso
+    have e := fEq_nonnumeric hnum hfe
+    subst e
+    unfold ZM.mightEqual at hf
+    by_cases hvn : x = .null
+    · subst hvn
+      simp only [if_true, decide_eq_false_iff_not, Nat.not_lt, Nat.le_zero] at hf
+      have := h.nulls hx; omega
+    · simp only [hvn, if_false] at hf
+      have hnc := h.nonnull x hx hvn
+      have hall : z.isAllNull = false := by
+        unfold ZM.isAllNull
+        have : (z.nullCount == z.rowCount) = false := by simp; omega
+        simp [this]
+      simp only [hall, if_false, Bool.false_eq_true] at hf
+      obtain ⟨m, M, hm, hM, wm, wM, wx, d1, d2, hb⟩ := bounds_of h wv hx hvn
+      rw [hm, hM] at hf
+      simp only [eqBounds] at hf
+      -- x is a string or a boolean: it compares with itself, hence so do m and M (same variant)
+      have hmm : (cmp m m).isSome = true := by
+        cases x <;> cases m <;> simp [discr, numBits, cmp] at d1 hnum hvn ⊢
+      obtain ⟨l1, l2⟩ := hb (Or.inl hmm)
+      by_cases h1 : cmp x m = some .lt
+      · have := cmp_lt_swap h1
+        rcases l1 with t | t <;> simp [t] at this
+      · have h2 : cmp x M = some .gt := by
+          cases hh : cmp x M with
+          | none => simp [h1, hh] at hf
+          | some o => cases o <;> simp [h1, hh] at hf ⊢
+        rcases l2 with t | t <;> simp [t] at h2
+
+/-- a numeric value as a float pattern compares with a float like the value itself -/
+theorem cmp_float_right {a : V} {ab : Nat} (ha : numBits a = some ab) (c : Nat) :
+    cmp a (.float c) = partialCmp ab c := by
+  cases a <;> simp [numBits] at ha <;> subst ha <;> rfl
+
+/-- the pattern order follows `≤` between numeric values of one variant -/
+theorem key_le_of_le {a b : V} {ab bb : Nat} (wa : WF a) (wb : WF b) (hd : discr a = discr b)
+    (ha : numBits a = some ab) (hb : numBits b = some bb) (h : le a b) : key ab ≤ key bb := by
+  cases a <;> cases b <;> simp [numBits, discr] at ha hb hd <;> subst ha <;> subst hb
+  · rename_i i j
+    unfold le at h
+    simp only [cmp] at h
+    apply ikey_mono i j wa wb
+    rcases h with h | h
+    · have := Int.compare_eq_lt.mp (by simpa using h); omega
+    · have := Int.compare_eq_eq.mp (by simpa using h); omega
+  · unfold le at h
+    simp only [cmp] at h
+    exact ((pcle_iff _ _).mp h).2.2
+
+/-- what the filter's `=` accepts for a numeric literal, on patterns -/
+theorem fEq_numeric {x v : V} {vb : Nat} (wx : WF x) (wv : WF v) (hv : numBits v = some vb)
+    (h : fEq x v = true) :
+    ∃ xb, numBits x = some xb ∧ (feq xb vb || epsClose xb vb) = true := by
+  cases x <;> cases v <;> simp [fEq, numBits] at h hv ⊢ <;> subst hv
+  · rename_i i j
+    subst h
+    have := i64ToF64_key i wx
+    left; unfold feq; simp [this.1]
+  · right; exact h
+  · right; rw [epsClose_comm]; exact h
+  · rename_i a b
+    rcases h with h | h
+    · left; exact h
+    · right; exact h
+
+/-- `Eq` with a numeric literal: the interval `[v − ε, v + ε]` -/
+theorem eq_numeric_sound {L : List V} {z : ZM} (h : ZInv L z false) {v : V} (wv : WF v) {vb : Nat}
+    (hv : numBits v = some vb) (hnan : isNaN vb = false)
+    (hf : z.mightRange (some (.float (addEps vb (-1)))) (some (.float (addEps vb 1))) true true = false) :
+    ∀ x ∈ L, fEq x v = false := by
+  intro x hx
+  cases hfe : fEq x v with
+  | false => rfl
+  | true =>
+    exfalso
+    have wx := h.wf x hx
+    obtain ⟨xb, hxb, hwin⟩ := fEq_numeric wx wv hv hfe
+    obtain ⟨w1, w2⟩ := eps_window xb vb hnan hwin
+    have hn : x ≠ .null := by intro e; subst e; simp [numBits] at hxb
+    obtain ⟨m, M, hm, hM, wm, wM, _, d1, d2, hb⟩ := bounds_of h wv hx hn
+    -- m and M are numeric, of x's variant
+    have hnumM : ∃ Mb, numBits M = some Mb := by
+      cases x <;> cases M <;> cases m <;> simp [numBits, discr] at hxb d1 d2 ⊢
+    have hnumm : ∃ mb, numBits m = some mb := by
+      cases x <;> cases m <;> simp [numBits, discr] at hxb d1 ⊢
+    obtain ⟨Mb, hMb⟩ := hnumM
+    obtain ⟨mb, hmb⟩ := hnumm
+    unfold ZM.mightRange at hf
+    cases hl : lowerOk z true (some (.float (addEps vb (-1)))) with
+    | false =>
+      simp only [lowerOk, ZM.mightGreater, hM, greaterOn] at hl
+      rw [cmp_float_right hMb] at hl
+      cases hc : partialCmp Mb (addEps vb (-1)) with
+      | none => simp [hc, greaterVerdict] at hl
+      | some o =>
+        have hMM : (cmp M M).isSome = true := by
+          have : isNaN Mb = false := by
+            unfold partialCmp at hc
+            cases hh : isNaN Mb <;> simp [hh] at hc ⊢
+          cases M <;> simp [numBits] at hMb <;> subst hMb <;> simp [cmp, partialCmp, this]
+        have := key_le_of_le wx wM (by omega) hxb hMb (hb (Or.inr hMM)).2
+        cases o <;> simp [hc, greaterVerdict] at hl
+        -- Mb < lower
+        unfold partialCmp at hc
+        split at hc
+        · cases hc
+        · simp only [Option.some.injEq] at hc
+          have := Int.compare_eq_lt.mp hc
+          omega
+    | true =>
+      rw [hl] at hf
+      simp only [Bool.true_and, upperOk, ZM.mightLess, hm, lessOn] at hf
+      rw [cmp_float_right hmb] at hf
+      cases hc : partialCmp mb (addEps vb 1) with
+      | none => simp [hc, lessVerdict] at hf
+      | some o =>
+        have hmm : (cmp m m).isSome = true := by
+          have : isNaN mb = false := by
+            unfold partialCmp at hc
+            cases hh : isNaN mb <;> simp [hh] at hc ⊢
+          cases m <;> simp [numBits] at hmb <;> subst hmb <;> simp [cmp, partialCmp, this]
+        have := key_le_of_le wm wx (by omega) hmb hxb (hb (Or.inl hmm)).1
+        cases o <;> simp [hc, lessVerdict] at hf
+        unfold partialCmp at hc
+        split at hc
+        · cases hc
+        · simp only [Option.some.injEq] at hc
+          have := Int.compare_eq_gt.mp hc
+          omega
+
+/-- `<>`: verdict `false` (no null counted, min = max = v) ⇒ every value equals `v` for the filter -/
+theorem ne_sound {L : List V} {z : ZM} (h : ZInv L z false) {v : V} (wv : WF v)
+    (hnc : ¬ z.nullCount > 0) (hf : neVerdict v z.min z.max = false) :
+    ∀ x ∈ L, fEq x v = true := by
+  intro x hx
+  have hn : x ≠ .null := by
+    intro e; subst e
+    have := h.nulls hx; omega
+  obtain ⟨m, M, hm, hM, wm, wM, wx, d1, d2, hb⟩ := bounds_of h wv hx hn
+  rw [hm, hM] at hf
+  simp only [neVerdict, Bool.not_eq_false', Bool.and_eq_true, beq_iff_eq] at hf
+  obtain ⟨h1, h2⟩ := hf
+  obtain ⟨l1, l2⟩ := hb (Or.inl (self_comparable_of h wv h1))
+  have hvx : le v x := le_trans_adj wv wm wx (Or.inr d1.symm) (Or.inr (cmp_eq_swap h1)) l1
+  have hxv : le x v := le_trans_adj wx wM wv (Or.inl (by omega)) l2 (Or.inr h2)
+  have : cmp x v = some .eq := by
+    rcases hxv with t | t
+    · have := cmp_lt_swap t
+      rcases hvx with u | u <;> simp [u] at this
+    · exact t
+  exact fEq_of_cmp_eq wx wv this
+
+/-- **Zone-map soundness at the level of one summary**: if the verdict for `op v` is `false`,
+no summarised value passes the generic filter `x <op> v`. -/
+theorem matchOn_sound {L : List V} {z : ZM} (h : ZInv L z false) {v : V} (wv : WF v) (op : Op)
+    (hf : matchOn z v op = false) : ∀ x ∈ L, fsat op x v = false := by
+  intro x hx
+  cases op with
+  | eq =>
+    simp only [matchOn, eqVerdict] at hf
+    simp only [fsat]
+    cases hnb : numBits v with
+    | none =>
+      rw [hnb] at hf
+      exact equal_sound h wv hnb hf x hx
+    | some vb =>
+      rw [hnb] at hf
+      simp only at hf
+      cases hnan : isNaN vb with
+      | true => simp [hnan] at hf
+      | false =>
+        simp only [hnan, Bool.false_eq_true, if_false] at hf
+        exact eq_numeric_sound h wv hnb hnan hf x hx
+  | ne =>
+    simp only [matchOn] at hf
+    split at hf
+    · cases hf
+    · rename_i hnc
+      simp [fsat, ne_sound h wv hnc hf x hx]
+  | lt =>
+    have := less_sound h wv (incl := false) hf x hx
+    simp only [fsat, beq_eq_false_iff_ne, ne_eq]
+    intro e; exact this.1 (fCmp_sub_cmp e)
+  | le =>
+    have := less_sound h wv (incl := true) hf x hx
+    simp only [fsat, Bool.or_eq_false_iff, beq_eq_false_iff_ne, ne_eq]
+    exact ⟨fun e => this.1 (fCmp_sub_cmp e), fun e => this.2 rfl (fCmp_sub_cmp e)⟩
+  | gt =>
+    have := greater_sound h wv (incl := false) hf x hx
+    simp only [fsat, beq_eq_false_iff_ne, ne_eq]
+    intro e; exact this.1 (fCmp_sub_cmp e)
+  | ge =>
+    have := greater_sound h wv (incl := true) hf x hx
+    simp only [fsat, Bool.or_eq_false_iff, beq_eq_false_iff_ne, ne_eq]
+    exact ⟨fun e => this.1 (fCmp_sub_cmp e), fun e => this.2 rfl (fCmp_sub_cmp e)⟩
 
 /-! ## 3. Every reachable column, storage and store keeps the summary valid -/
 
@@ -770,14 +1427,14 @@ theorem mem_orderedVals (vals : List (Nat × V)) (ord : List Nat) (x : V) :
     · right; exact ⟨p, ⟨hp, by simpa using hc⟩, rfl⟩
 
 /-- the column's zone map and `mixed` flag summarise its current values -/
-def CInv (P : V → Prop) (c : Col) : Prop := ZInv P (c.vals.map (·.2)) c.zm c.mixed
+def CInv (c : Col) : Prop := ZInv (c.vals.map (·.2)) c.zm c.mixed
 
-theorem cinv_empty (P : V → Prop) : CInv P {} := zinv_empty P
+theorem cinv_empty : CInv {} := zinv_empty
 
-theorem cinv_set {P : V → Prop} (hC : Coherent P) {c : Col} (h : CInv P c) (id : Nat) {v : V}
-    (hv : P v) : CInv P (c.set id v) := by
+theorem cinv_set {c : Col} (h : CInv c) (id : Nat) {v : V}
+    (hv : WF v) : CInv (c.set id v) := by
   unfold CInv Col.set
-  refine zinv_mono (zinv_add hC h hv) ?_
+  refine zinv_mono (zinv_add h hv) ?_
   intro x hx
   simp only [aset, List.map_cons, List.mem_cons] at hx
   rcases hx with rfl | hx
@@ -785,7 +1442,7 @@ theorem cinv_set {P : V → Prop} (hC : Coherent P) {c : Col} (h : CInv P c) (id
   · obtain ⟨p, hp, rfl⟩ := List.mem_map.mp hx
     exact List.mem_cons_of_mem _ (List.mem_map.mpr ⟨p, mem_aerase _ _ _ hp, rfl⟩)
 
-theorem cinv_remove {P : V → Prop} {c : Col} (h : CInv P c) (id : Nat) : CInv P (c.remove id) := by
+theorem cinv_remove {c : Col} (h : CInv c) (id : Nat) : CInv (c.remove id) := by
   unfold Col.remove
   split
   · unfold CInv
@@ -795,22 +1452,22 @@ theorem cinv_remove {P : V → Prop} {c : Col} (h : CInv P c) (id : Nat) : CInv 
     exact List.mem_map.mpr ⟨p, mem_aerase _ _ _ hp, rfl⟩
   · exact h
 
-theorem cinv_rebuild {P : V → Prop} (hC : Coherent P) {c : Col} (h : CInv P c) (ord : List Nat) :
-    CInv P (c.rebuild ord) := by
+theorem cinv_rebuild {c : Col} (h : CInv c) (ord : List Nat) :
+    CInv (c.rebuild ord) := by
   unfold CInv Col.rebuild
-  have hp : ∀ v ∈ orderedVals c.vals ord, P v := fun v hv =>
-    h.pall v ((mem_orderedVals _ _ _).mp hv)
-  have := zinv_foldl hC (orderedVals c.vals ord) [] ({}, false) (zinv_empty P) hp
+  have hp : ∀ v ∈ orderedVals c.vals ord, WF v := fun v hv =>
+    h.wf v ((mem_orderedVals _ _ _).mp hv)
+  have := zinv_foldl (orderedVals c.vals ord) [] ({}, false) (zinv_empty) hp
   refine zinv_mono this ?_
   intro x hx
   simp only [List.append_nil, List.mem_reverse]
   exact (mem_orderedVals _ _ _).mpr hx
 
 /-- every column of the storage is summarised correctly -/
-def StInv (P : V → Prop) (st : Storage) : Prop := ∀ key c, aget st key = some c → CInv P c
+def StInv (st : Storage) : Prop := ∀ key c, aget st key = some c → CInv c
 
-theorem stinv_set {P : V → Prop} (hC : Coherent P) {st : Storage} (h : StInv P st) (id key : Nat)
-    {v : V} (hv : P v) : StInv P (st.set id key v) := by
+theorem stinv_set {st : Storage} (h : StInv st) (id key : Nat)
+    {v : V} (hv : WF v) : StInv (st.set id key v) := by
   intro k c hc
   unfold Storage.set at hc
   rw [aget_aset] at hc
@@ -818,15 +1475,15 @@ theorem stinv_set {P : V → Prop} (hC : Coherent P) {st : Storage} (h : StInv P
   · subst e
     simp only [if_true, Option.some.injEq] at hc
     subst hc
-    apply cinv_set hC _ id hv
+    apply cinv_set _ id hv
     cases hk : aget st key with
-    | none => simpa using cinv_empty P
+    | none => simpa using cinv_empty
     | some c0 => simpa using h key c0 hk
   · simp only [e, if_false] at hc
     exact h k c hc
 
-theorem stinv_remove {P : V → Prop} {st : Storage} (h : StInv P st) (id key : Nat) :
-    StInv P (st.remove id key) := by
+theorem stinv_remove {st : Storage} (h : StInv st) (id key : Nat) :
+    StInv (st.remove id key) := by
   intro k c hc
   unfold Storage.remove at hc
   cases hk : aget st key with
@@ -842,8 +1499,8 @@ theorem stinv_remove {P : V → Prop} {st : Storage} (h : StInv P st) (id key : 
     · simp only [e, if_false] at hc
       exact h k c hc
 
-theorem stinv_removeAll {P : V → Prop} {st : Storage} (h : StInv P st) (id : Nat) :
-    StInv P (st.removeAll id) := by
+theorem stinv_removeAll {st : Storage} (h : StInv st) (id : Nat) :
+    StInv (st.removeAll id) := by
   intro k c hc
   unfold Storage.removeAll at hc
   have h2 : aget (st.map (fun p => (p.1, p.2.remove id))) k = (aget st k).map (fun c => c.remove id) :=
@@ -857,8 +1514,8 @@ theorem stinv_removeAll {P : V → Prop} {st : Storage} (h : StInv P st) (id : N
     subst hc
     exact cinv_remove (h k c0 hk) id
 
-theorem stinv_rebuild {P : V → Prop} (hC : Coherent P) {st : Storage} (h : StInv P st)
-    (ords : List (Nat × List Nat)) : StInv P (st.rebuild ords) := by
+theorem stinv_rebuild {st : Storage} (h : StInv st)
+    (ords : List (Nat × List Nat)) : StInv (st.rebuild ords) := by
   intro k c hc
   unfold Storage.rebuild at hc
   have h2 : aget (st.map (fun p => (p.1, p.2.rebuild ((aget ords p.1).getD [])))) k
@@ -871,43 +1528,43 @@ theorem stinv_rebuild {P : V → Prop} (hC : Coherent P) {st : Storage} (h : StI
     rw [hk] at hc
     simp only [Option.map_some, Option.some.injEq] at hc
     subst hc
-    exact cinv_rebuild hC (h k c0 hk) _
+    exact cinv_rebuild (h k c0 hk) _
 
-/-- the values written by a history all satisfy `P` -/
-def SOp.valOk (P : V → Prop) : SOp → Prop
-  | .set _ _ v => P v
+/-- the values written by a history are well-formed (i64 integers, 64-bit float patterns) -/
+def SOp.valOk : SOp → Prop
+  | .set _ _ v => WF v
   | _ => True
 
-theorem stinv_step {P : V → Prop} (hC : Coherent P) {s : Store} (h : StInv P s.props) (op : SOp)
-    (hop : op.valOk P) : StInv P (s.step op).props := by
+theorem stinv_step {s : Store} (h : StInv s.props) (op : SOp)
+    (hop : op.valOk) : StInv (s.step op).props := by
   cases op with
   | node => exact h
-  | set n key v => exact stinv_set hC h n key hop
+  | set n key v => exact stinv_set h n key hop
   | remove n key => exact stinv_remove h n key
   | delnode n =>
     simp only [Store.step, Store.deleteNode]
     split
     · exact stinv_removeAll h n
     · exact h
-  | rebuild ords => exact stinv_rebuild hC h ords
+  | rebuild ords => exact stinv_rebuild h ords
   | index key =>
     simp only [Store.step, Store.createIndex]
     split <;> exact h
   | dropindex key => exact h
 
-theorem stinv_foldl {P : V → Prop} (hC : Coherent P) :
-    ∀ (ops : List SOp) (s : Store), StInv P s.props → (∀ op ∈ ops, op.valOk P) →
-      StInv P (ops.foldl Store.step s).props
+theorem stinv_foldl :
+    ∀ (ops : List SOp) (s : Store), StInv s.props → (∀ op ∈ ops, op.valOk) →
+      StInv (ops.foldl Store.step s).props
   | [], _, h, _ => h
   | op :: rest, s, h, hops =>
-    stinv_foldl hC rest (s.step op) (stinv_step hC h op (hops op List.mem_cons_self))
+    stinv_foldl rest (s.step op) (stinv_step h op (hops op List.mem_cons_self))
       (fun o ho => hops o (List.mem_cons_of_mem _ ho))
 
-theorem stinv_run {P : V → Prop} (hC : Coherent P) (ops : List SOp) (hops : ∀ op ∈ ops, op.valOk P) :
-    StInv P (Store.run ops).props :=
-  stinv_foldl hC ops {} (by intro k c hc; simp [aget] at hc) hops
+theorem stinv_run (ops : List SOp) (hops : ∀ op ∈ ops, op.valOk) :
+    StInv (Store.run ops).props :=
+  stinv_foldl ops {} (by intro k c hc; simp [aget] at hc) hops
 
-/-! ## 4. (a) Zone-map soundness for every history -/
+/-! ## 4. (a) Zone-map soundness for every history — against the engine's filter semantics -/
 
 theorem get_mem_vals {st : Storage} {n key : Nat} {x : V} (h : st.get n key = some x) :
     ∃ c, aget st key = some c ∧ x ∈ c.vals.map (·.2) := by
@@ -918,655 +1575,90 @@ theorem get_mem_vals {st : Storage} {n key : Nat} {x : V} (h : st.get n key = so
     rw [hk] at h
     exact ⟨c, rfl, List.mem_map.mpr ⟨(n, x), aget_mem _ _ _ h, rfl⟩⟩
 
-/-- **(a), order semantics.** For every history of node / set / overwrite / remove /
-delete-node / rebuild (any iteration order) / index operations whose written values, together
-with the queried value, lie in a class `P` on which the order is coherent: if
-`might_match(key, op, v)` answers `false`, then no value currently stored under `key` satisfies
-`op v` — with the one exception that `<>` is silent about stored nulls. -/
-theorem c10_zone_map_sound {P : V → Prop} (hC : Coherent P) (ops : List SOp)
-    (hops : ∀ o ∈ ops, o.valOk P) (key : Nat) (op : Op) (v : V) (hv : P v)
+/-- **(a) ZoneMapSoundFilter — full.** For every history of node / set / overwrite / remove /
+delete-node / rebuild (any hash-map iteration order) / index operations, every key, every
+comparison operator and every literal: if `might_match(key, op, v)` answers `false`, then no
+value currently stored under `key` passes the generic filter `n.key <op> v` (`filter.rs`
+semantics: ε-equality, Int/Float coercion, NaN unordered, `NULL <> v` true, no Bool order).
+The only hypothesis is that values are machine values (i64 integers, 64-bit float patterns). -/
+theorem c10_zone_map_sound_filter (ops : List SOp) (hops : ∀ o ∈ ops, o.valOk) (key : Nat)
+    (op : Op) (v : V) (wv : WF v)
     (hf : (Store.run ops).props.mightMatch key op v = false) :
-    ∀ n x, (Store.run ops).props.get n key = some x → (op = .ne → x ≠ .null) →
-      zsat op x v = false := by
-  intro n x hx hne
+    ∀ n x, (Store.run ops).props.get n key = some x → fsat op x v = false := by
+  intro n x hx
   obtain ⟨c, hc, hmem⟩ := get_mem_vals hx
-  have hinv := stinv_run hC ops hops key c hc
+  have hinv := stinv_run ops hops key c hc
   unfold Storage.mightMatch at hf
   rw [hc] at hf
   simp only [Col.mightMatch] at hf
   cases hd : c.dirty with
   | true => simp [hd] at hf
   | false =>
-    simp only [hd, Bool.false_eq_true, if_false] at hf
-    exact matchOn_sound hC hinv hv op hf x hmem hne
+    cases hm : c.mixed with
+    | true => simp [hd, hm] at hf
+    | false =>
+      simp only [hd, hm, Bool.or_self, Bool.false_eq_true, if_false] at hf
+      unfold CInv at hinv
+      rw [hm] at hinv
+      exact matchOn_sound hinv wv op hf x hmem
 
-/-- **(a), ranges.** Same for `might_match_range` (which ignores the `dirty` flag: sound all the
-same, because removals only shrink the set of values a stale zone map has to cover). -/
-theorem c10_zone_map_range_sound {P : V → Prop} (hC : Coherent P) (ops : List SOp)
-    (hops : ∀ o ∈ ops, o.valOk P) (key : Nat) (lo hi : Option V) (li ui : Bool)
-    (hlo : ∀ l, lo = some l → P l) (hhi : ∀ u, hi = some u → P u)
+theorem satRange_f_imp_z {x : V} {lo hi : Option V} {li ui : Bool}
+    (h : satRange fsat x lo hi li ui = true) : satRange zsat x lo hi li ui = true := by
+  unfold satRange at *
+  simp only [Bool.and_eq_true] at h ⊢
+  constructor
+  · cases lo with
+    | none => rfl
+    | some l =>
+      have h1 := h.1
+      cases li <;> simp [boundOp, fsat, zsat] at h1 ⊢
+      · exact fCmp_sub_cmp h1
+      · rcases h1 with h1 | h1
+        · exact Or.inl (fCmp_sub_cmp h1)
+        · exact Or.inr (fCmp_sub_cmp h1)
+  · cases hi with
+    | none => rfl
+    | some u =>
+      have h2 := h.2
+      cases ui <;> simp [boundOp, fsat, zsat] at h2 ⊢
+      · exact fCmp_sub_cmp h2
+      · rcases h2 with h2 | h2
+        · exact Or.inl (fCmp_sub_cmp h2)
+        · exact Or.inr (fCmp_sub_cmp h2)
+
+/-- **(a), ranges — full.** Same for `might_match_range`. -/
+theorem c10_zone_map_range_sound (ops : List SOp) (hops : ∀ o ∈ ops, o.valOk) (key : Nat)
+    (lo hi : Option V) (li ui : Bool)
+    (hlo : ∀ l, lo = some l → WF l) (hhi : ∀ u, hi = some u → WF u)
     (hf : (Store.run ops).props.mightRange key lo hi li ui = false) :
-    ∀ n x, (Store.run ops).props.get n key = some x → satRange zsat x lo hi li ui = false := by
+    ∀ n x, (Store.run ops).props.get n key = some x → satRange fsat x lo hi li ui = false := by
   intro n x hx
   obtain ⟨c, hc, hmem⟩ := get_mem_vals hx
-  have hinv := stinv_run hC ops hops key c hc
+  have hinv := stinv_run ops hops key c hc
   unfold Storage.mightRange at hf
   rw [hc] at hf
-  exact range_sound hC hinv lo hi hlo hhi li ui hf x hmem
+  simp only [Col.mightRange] at hf
+  cases hd : c.dirty with
+  | true => simp [hd] at hf
+  | false =>
+    cases hm : c.mixed with
+    | true => simp [hd, hm] at hf
+    | false =>
+      simp only [hd, hm, Bool.or_self, Bool.false_eq_true, if_false] at hf
+      unfold CInv at hinv
+      rw [hm] at hinv
+      have := range_sound hinv lo hi hlo hhi li ui hf x hmem
+      cases hs : satRange fsat x lo hi li ui with
+      | false => rfl
+      | true => rw [satRange_f_imp_z hs] at this; cases this
 
-/-! ### classes of values on which the order is coherent -/
-
-/-- no floats at all: integers (the full i64 range), strings, booleans, nulls -/
-def NoFloat : V → Prop
-  | .float _ => False
-  | _ => True
-
-theorem coherent_noFloat : Coherent NoFloat where
-  trans := by
-    intro a b c ha hb hc h1 h2
-    cases a <;> cases b <;> cases c <;> simp [le, cmp, NoFloat] at *
-    · -- bool
-      rename_i x y z
-      cases x <;> cases y <;> cases z <;> simp [compare, compareOfLessAndEq] at *
-    · rename_i x y z
-      rw [Int.compare_eq_lt] at h1 h2 ⊢
-      omega
-    · rename_i x y z
-      have e1 : cmpBytes x y ≠ .gt := by rcases h1 with h | h <;> simp [h]
-      have e2 : cmpBytes y z ≠ .gt := by rcases h2 with h | h <;> simp [h]
-      have := cmpBytes_le_trans x y z e1 e2
-      cases hh : cmpBytes x z <;> simp [hh] at this ⊢
-  ctrans := by
-    intro a b c ha hb hc h1 h2
-    cases a <;> cases b <;> cases c <;> simp [cmp, NoFloat] at *
-
-/-! #### `i64 as f64` is exact and order-preserving below 2^53 -/
-
-theorem bitLenF_zero (f : Nat) : bitLenF f 0 = 0 := by cases f <;> simp [bitLenF]
-
-theorem bitLenF_spec : ∀ (f n : Nat), n < 2 ^ f → n ≠ 0 →
-    1 ≤ bitLenF f n ∧ 2 ^ (bitLenF f n - 1) ≤ n ∧ n < 2 ^ (bitLenF f n)
-  | 0, n, h, hn => by simp at h; omega
-  | f + 1, n, h, hn => by
-    simp only [bitLenF, hn, if_false]
-    by_cases h2 : n / 2 = 0
-    · have : n = 1 := by omega
-      subst this
-      simp [bitLenF_zero]
-    · have hlt : n / 2 < 2 ^ f := by
-        rw [Nat.pow_succ] at h; omega
-      obtain ⟨k1, k2, k3⟩ := bitLenF_spec f (n / 2) hlt h2
-      generalize bitLenF f (n / 2) = k at *
-      refine ⟨by omega, ?_, ?_⟩
-      · have : 2 ^ (k + 1 - 1) = 2 * 2 ^ (k - 1) := by
-          have : k + 1 - 1 = (k - 1) + 1 := by omega
-          rw [this, Nat.pow_succ]; omega
-        rw [this]; omega
-      · rw [Nat.pow_succ]; omega
-
-theorem bitLen_spec (n : Nat) (hn : n ≠ 0) :
-    1 ≤ bitLen n ∧ 2 ^ (bitLen n - 1) ≤ n ∧ n < 2 ^ (bitLen n) :=
-  bitLenF_spec n n Nat.lt_two_pow_self hn
-
-theorem bitLen_le_of_lt (m k : Nat) (hm : m ≠ 0) (h : m < 2 ^ k) : bitLen m ≤ k := by
-  obtain ⟨h1, h2, _⟩ := bitLen_spec m hm
-  apply Classical.byContradiction
-  intro hc
-  have : 2 ^ k ≤ 2 ^ (bitLen m - 1) := Nat.pow_le_pow_right (by omega) (by omega)
-  omega
-
-/-- shape of `natToF64 m` for `0 < m < 2^53` (conversion exact) -/
-theorem natToF64_small (m : Nat) (h0 : m ≠ 0) (h : m < 2 ^ 53) :
-    ∃ l mant, 1 ≤ l ∧ l ≤ 53 ∧ 2 ^ (l - 1) ≤ m ∧ m < 2 ^ l ∧ mant = m * 2 ^ (53 - l) ∧
-      2 ^ 52 ≤ mant ∧ mant < 2 ^ 53 ∧ natToF64 m = (l + 1022) * 2 ^ 52 + (mant - 2 ^ 52) := by
-  obtain ⟨h1, h2, h3⟩ := bitLen_spec m h0
-  have hl : bitLen m ≤ 53 := bitLen_le_of_lt m 53 h0 h
-  refine ⟨bitLen m, m * 2 ^ (53 - bitLen m), h1, hl, h2, h3, rfl, ?_, ?_, ?_⟩
-  · have e : 2 ^ (bitLen m - 1) * 2 ^ (53 - bitLen m) = 2 ^ 52 := by
-      rw [← Nat.pow_add]; congr 1; omega
-    calc 2 ^ 52 = 2 ^ (bitLen m - 1) * 2 ^ (53 - bitLen m) := e.symm
-      _ ≤ m * 2 ^ (53 - bitLen m) := Nat.mul_le_mul_right _ h2
-  · have e : 2 ^ (bitLen m) * 2 ^ (53 - bitLen m) = 2 ^ 53 := by
-      rw [← Nat.pow_add]; congr 1; omega
-    calc m * 2 ^ (53 - bitLen m) < 2 ^ (bitLen m) * 2 ^ (53 - bitLen m) :=
-          Nat.mul_lt_mul_of_pos_right h3 (Nat.two_pow_pos _)
-      _ = 2 ^ 53 := e
-  · unfold natToF64
-    simp only [h0, if_false, hl, if_true]
-    have : bitLen m - 1 + 1023 = bitLen m + 1022 := by omega
-    rw [this]
-
-theorem natToF64_strictMono (m m' : Nat) (h0 : m ≠ 0) (hlt : m < m') (h' : m' < 2 ^ 53) :
-    natToF64 m < natToF64 m' := by
-  obtain ⟨l, mant, a1, a2, a3, a4, a5, a6, a7, a8⟩ := natToF64_small m h0 (by omega)
-  obtain ⟨l', mant', b1, b2, b3, b4, b5, b6, b7, b8⟩ := natToF64_small m' (by omega) h'
-  rw [a8, b8]
-  have hll : l ≤ l' := by
-    apply Classical.byContradiction
-    intro hc
-    have : 2 ^ l' ≤ 2 ^ (l - 1) := Nat.pow_le_pow_right (by omega) (by omega)
-    omega
-  by_cases e : l = l'
-  · subst e
-    have : mant < mant' := by
-      rw [a5, b5]; exact Nat.mul_lt_mul_of_pos_right hlt (Nat.two_pow_pos _)
-    omega
-  · have : l + 1 ≤ l' := by omega
-    have : (l + 1023) * 2 ^ 52 ≤ (l' + 1022) * 2 ^ 52 := Nat.mul_le_mul_right _ (by omega)
-    omega
-
-/-- `natToF64 m` for `m < 2^53` is a positive, finite, non-NaN pattern below 2^63 -/
-theorem natToF64_small_bits (m : Nat) (h : m < 2 ^ 53) :
-    natToF64 m < 2 ^ 63 ∧ expField (natToF64 m) < 2047 ∧ (m ≠ 0 → 0 < natToF64 m) := by
-  by_cases h0 : m = 0
-  · subst h0; simp [natToF64, expField]
-  · obtain ⟨l, mant, a1, a2, a3, a4, a5, a6, a7, a8⟩ := natToF64_small m h0 h
-    rw [a8]
-    refine ⟨by omega, ?_, fun _ => by omega⟩
-    unfold expField
-    omega
-
-theorem key_of_lt (b : Nat) (h : b < 2 ^ 63) : key b = (b : Int) := by
-  unfold key signBit mag
-  have : b / 2 ^ 63 % 2 = 0 := by omega
-  simp [this]; omega
-
-theorem key_of_neg (x : Nat) (h : x < 2 ^ 63) : key (2 ^ 63 + x) = -(x : Int) := by
-  unfold key signBit mag
-  have : (2 ^ 63 + x) / 2 ^ 63 % 2 = 1 := by omega
-  simp [this]; omega
-
-theorem isNaN_of_exp (b : Nat) (h : expField b < 2047) : isNaN b = false := by
-  unfold isNaN
-  have : (expField b == 2047) = false := by simp; omega
-  simp [this]
-
-theorem expField_neg (x : Nat) (h : x < 2 ^ 63) : expField (2 ^ 63 + x) = expField x := by
-  unfold expField; omega
-
-/-- integers of magnitude below 2^53 convert exactly: not NaN, and the order of the resulting
-patterns is the order of the integers -/
-theorem i64ToF64_small (i : Int) (h : -(2 ^ 53) < i ∧ i < 2 ^ 53) :
-    isNaN (i64ToF64 i) = false ∧
-    key (i64ToF64 i) = if i ≥ 0 then (natToF64 i.toNat : Int) else -(natToF64 (-i).toNat : Int) := by
-  unfold i64ToF64
-  by_cases hi : i ≥ 0
-  · have hb := natToF64_small_bits i.toNat (by omega)
-    simp only [hi, if_true]
-    exact ⟨isNaN_of_exp _ hb.2.1, key_of_lt _ hb.1⟩
-  · have hb := natToF64_small_bits (-i).toNat (by omega)
-    simp only [hi, if_false]
-    refine ⟨isNaN_of_exp _ ?_, key_of_neg _ hb.1⟩
-    rw [expField_neg _ hb.1]; exact hb.2.1
-
-theorem ikey_strictMono (i j : Int) (hi : -(2 ^ 53) < i ∧ i < 2 ^ 53) (hj : -(2 ^ 53) < j ∧ j < 2 ^ 53)
-    (hlt : i < j) : key (i64ToF64 i) < key (i64ToF64 j) := by
-  rw [(i64ToF64_small i hi).2, (i64ToF64_small j hj).2]
-  by_cases h1 : i ≥ 0
-  · have h2 : j ≥ 0 := by omega
-    simp only [h1, h2, if_true]
-    by_cases h0 : i = 0
-    · subst h0
-      have := (natToF64_small_bits j.toNat (by omega)).2.2 (by omega)
-      have e : natToF64 (0 : Int).toNat = 0 := by simp [natToF64]
-      rw [e]; omega
-    · have := natToF64_strictMono i.toNat j.toNat (by omega) (by omega) (by omega)
-      omega
-  · by_cases h2 : j ≥ 0
-    · simp only [h1, h2, if_true, if_false]
-      have := (natToF64_small_bits (-i).toNat (by omega)).2.2 (by omega)
-      omega
-    · simp only [h1, h2, if_false]
-      have := natToF64_strictMono (-j).toNat (-i).toNat (by omega) (by omega) (by omega)
-      omega
-
-theorem ikey_compare (i j : Int) (hi : -(2 ^ 53) < i ∧ i < 2 ^ 53) (hj : -(2 ^ 53) < j ∧ j < 2 ^ 53) :
-    compare (key (i64ToF64 i)) (key (i64ToF64 j)) = compare i j := by
-  rcases Int.lt_trichotomy i j with h | h | h
-  · rw [Int.compare_eq_lt.mpr h, Int.compare_eq_lt.mpr (ikey_strictMono i j hi hj h)]
-  · subst h; simp
-  · rw [Int.compare_eq_gt.mpr h, Int.compare_eq_gt.mpr (ikey_strictMono j i hj hi h)]
-
-/-- integers of magnitude below 2^53 (where `i64 as f64` is exact), any float, strings,
-booleans, nulls -/
-def Exact : V → Prop
-  | .int i => -(2 ^ 53) < i ∧ i < 2 ^ 53
-  | _ => True
-
-/-- the numeric key of a value of the numeric class -/
-def nkey : V → Option Int
-  | .int i => some (key (i64ToF64 i))
-  | .float b => if isNaN b then none else some (key b)
-  | _ => none
-
-def isNumeric : V → Bool
-  | .int _ => true
-  | .float _ => true
-  | _ => false
-
-theorem cmp_numeric_exact {a b : V} (ha : Exact a) (hb : Exact b) (na : isNumeric a = true)
-    (nb : isNumeric b = true) :
-    cmp a b = (match nkey a, nkey b with
-      | some ka, some kb => some (compare ka kb)
-      | _, _ => none) := by
-  cases a <;> cases b <;> simp [isNumeric] at na nb
-  · rename_i i j
-    simp only [cmp, nkey, ikey_compare i j ha hb]
-  · rename_i i y
-    simp only [cmp, nkey, partialCmp, (i64ToF64_small i ha).1]
-    cases isNaN y <;> simp
-  · rename_i x j
-    simp only [cmp, nkey, partialCmp, (i64ToF64_small j hb).1]
-    cases isNaN x <;> simp
-  · rename_i x y
-    simp only [cmp, nkey, partialCmp]
-    cases isNaN x <;> cases isNaN y <;> simp
-
-theorem numeric_le_iff {a b : V} (ha : Exact a) (hb : Exact b) (na : isNumeric a = true)
-    (nb : isNumeric b = true) :
-    le a b ↔ ∃ ka kb, nkey a = some ka ∧ nkey b = some kb ∧ ka ≤ kb := by
-  unfold le
-  rw [cmp_numeric_exact ha hb na nb]
-  cases nkey a <;> cases nkey b <;> simp
-  rename_i ka kb
-  first
-    | omega
-    | (rw [Int.compare_eq_lt]; omega)
-
-theorem numeric_comparable_iff {a b : V} (ha : Exact a) (hb : Exact b) (na : isNumeric a = true)
-    (nb : isNumeric b = true) :
-    (cmp a b).isSome = true ↔ (nkey a).isSome = true ∧ (nkey b).isSome = true := by
-  rw [cmp_numeric_exact ha hb na nb]
-  cases nkey a <;> cases nkey b <;> simp
-
-theorem cmp_none_of_mixed {a b : V} (h : isNumeric a ≠ isNumeric b) : cmp a b = none := by
-  cases a <;> cases b <;> simp [isNumeric, cmp] at h ⊢
-
-theorem coherent_exact : Coherent Exact where
-  trans := by
-    intro a b c ha hb hc h1 h2
-    by_cases na : isNumeric a = true
-    · have nb : isNumeric b = true := by
-        apply Classical.byContradiction; intro hn
-        have := cmp_none_of_mixed (a := a) (b := b) (by simp [na, hn])
-        rcases h1 with h | h <;> simp [this] at h
-      have nc : isNumeric c = true := by
-        apply Classical.byContradiction; intro hn
-        have := cmp_none_of_mixed (a := b) (b := c) (by simp [nb, hn])
-        rcases h2 with h | h <;> simp [this] at h
-      rw [numeric_le_iff ha hb na nb] at h1
-      rw [numeric_le_iff hb hc nb nc] at h2
-      rw [numeric_le_iff ha hc na nc]
-      obtain ⟨ka, kb, e1, e2, l1⟩ := h1
-      obtain ⟨kb', kc, e3, e4, l2⟩ := h2
-      rw [e2] at e3; cases e3
-      exact ⟨ka, kc, e1, e4, by omega⟩
-    · -- no numeric value involved: the float-free argument applies
-      have fa : NoFloat a := by cases a <;> simp [isNumeric, NoFloat] at na ⊢
-      have nb : isNumeric b = false := by
-        cases hb' : isNumeric b with
-        | false => rfl
-        | true =>
-          have := cmp_none_of_mixed (a := a) (b := b) (by simp [na, hb'])
-          rcases h1 with h | h <;> simp [this] at h
-      have fb : NoFloat b := by cases b <;> simp [isNumeric, NoFloat] at nb ⊢
-      have nc : isNumeric c = false := by
-        cases hc' : isNumeric c with
-        | false => rfl
-        | true =>
-          have := cmp_none_of_mixed (a := b) (b := c) (by simp [nb, hc'])
-          rcases h2 with h | h <;> simp [this] at h
-      have fc : NoFloat c := by cases c <;> simp [isNumeric, NoFloat] at nc ⊢
-      exact coherent_noFloat.trans a b c fa fb fc h1 h2
-  ctrans := by
-    intro a b c ha hb hc h1 h2
-    by_cases na : isNumeric a = true
-    · have nb : isNumeric b = true := by
-        apply Classical.byContradiction; intro hn
-        have := cmp_none_of_mixed (a := a) (b := b) (by simp [na, hn])
-        simp [this] at h1
-      have nc : isNumeric c = true := by
-        apply Classical.byContradiction; intro hn
-        have := cmp_none_of_mixed (a := b) (b := c) (by simp [nb, hn])
-        simp [this] at h2
-      rw [numeric_comparable_iff ha hb na nb] at h1
-      rw [numeric_comparable_iff hb hc nb nc] at h2
-      rw [numeric_comparable_iff ha hc na nc]
-      exact ⟨h1.1, h2.2⟩
-    · have fa : NoFloat a := by cases a <;> simp [isNumeric, NoFloat] at na ⊢
-      have nb : isNumeric b = false := by
-        cases hb' : isNumeric b with
-        | false => rfl
-        | true =>
-          have := cmp_none_of_mixed (a := a) (b := b) (by simp [na, hb'])
-          simp [this] at h1
-      have fb : NoFloat b := by cases b <;> simp [isNumeric, NoFloat] at nb ⊢
-      have nc : isNumeric c = false := by
-        cases hc' : isNumeric c with
-        | false => rfl
-        | true =>
-          have := cmp_none_of_mixed (a := b) (b := c) (by simp [nb, hc'])
-          simp [this] at h2
-      have fc : NoFloat c := by cases c <;> simp [isNumeric, NoFloat] at nc ⊢
-      exact coherent_noFloat.ctrans a b c fa fb fc h1 h2
-
-theorem coherent_mono {P Q : V → Prop} (h : ∀ v, Q v → P v) (hC : Coherent P) : Coherent Q where
-  trans a b c ha hb hc := hC.trans a b c (h a ha) (h b hb) (h c hc)
-  ctrans a b c ha hb hc := hC.ctrans a b c (h a ha) (h b hb) (h c hc)
-
-/-! ## 5. (a) against the engine's filter semantics (`filter.rs`) -/
-
-def FiniteV : V → Prop
-  | .float b => isFinite b = true
-  | _ => True
-
-/-- values on which the filter's comparisons and the zone map's order tell the same story:
-integers below 2^53 in magnitude, finite floats (no NaN, no infinity), strings, booleans, null -/
-def Tame (v : V) : Prop := Exact v ∧ FiniteV v
-
-theorem coherent_tame : Coherent Tame := coherent_mono (fun _ h => h.1) coherent_exact
-
-theorem isNaN_of_finite {b : Nat} (h : isFinite b = true) : isNaN b = false := by
-  unfold isFinite at h
-  unfold isNaN
-  have : (expField b == 2047) = false := by simpa using h
-  simp [this]
-
-theorem scaled_eq_of_key_eq {a b : Nat} (h : key a = key b) : scaled a = scaled b := by
-  unfold key at h
-  unfold scaled
-  have ea : ∀ c : Nat, expField c = (mag c / 2 ^ 52) % 2 ^ 11 := by
-    intro c; unfold expField mag; omega
-  have fa : ∀ c : Nat, fracField c = mag c % 2 ^ 52 := by
-    intro c; unfold fracField mag; omega
-  have sm : ∀ c : Nat, mag c = 0 → scaledMag c = 0 := by
-    intro c hc
-    unfold scaledMag
-    simp [ea, fa, hc]
-  by_cases sa : signBit a = 1 <;> by_cases sb : signBit b = 1 <;> simp only [sa, sb, if_true, if_false] at h ⊢
-  · have : mag a = mag b := by omega
-    have : scaledMag a = scaledMag b := by unfold scaledMag; rw [ea a, ea b, fa a, fa b, this]
-    omega
-  · have h1 : mag a = 0 := by omega
-    have h2 : mag b = 0 := by omega
-    rw [sm a h1, sm b h2]; rfl
-  · have h1 : mag a = 0 := by omega
-    have h2 : mag b = 0 := by omega
-    rw [sm a h1, sm b h2]; rfl
-  · have : mag a = mag b := by omega
-    have : scaledMag a = scaledMag b := by unfold scaledMag; rw [ea a, ea b, fa a, fa b, this]
-    omega
-
-theorem epsClose_of_key_eq {a b : Nat} (fa : isFinite a = true) (fb : isFinite b = true)
-    (h : key a = key b) : epsClose a b = true := by
-  unfold epsClose
-  rw [scaled_eq_of_key_eq h]
-  have : 0 < 2 ^ 1022 - 2 ^ 968 := Nat.sub_pos_of_lt (Nat.pow_lt_pow_right (by omega) (by omega))
-  simp [fa, fb, this]
-
-theorem isFinite_i64 {i : Int} (h : -(2 ^ 53) < i ∧ i < 2 ^ 53) : isFinite (i64ToF64 i) = true := by
-  unfold isFinite i64ToF64
-  by_cases hi : i ≥ 0
-  · have hb := natToF64_small_bits i.toNat (by omega)
-    simp only [hi, if_true]; simp; omega
-  · have hb := natToF64_small_bits (-i).toNat (by omega)
-    simp only [hi, if_false]
-    rw [expField_neg _ hb.1]; simp; omega
-
-theorem partialCmp_eq_key {a b : Nat} (h : partialCmp a b = some .eq) : key a = key b := by
-  unfold partialCmp at h
-  split at h
-  · cases h
-  · simp only [Option.some.injEq] at h
-    exact Int.compare_eq_eq.mp h
-
-/-- exact equality (zone-map order) implies the filter's ε-equality on tame values -/
-theorem fEq_of_zEq {x v : V} (hx : Tame x) (hv : Tame v) (h : zEq x v = true) : fEq x v = true := by
-  unfold zEq at h
-  cases x <;> cases v <;> simp [cmp, fEq] at h ⊢
-  · -- bool
-    rename_i a b
-    cases a <;> cases b <;> simp [compare, compareOfLessAndEq] at h ⊢
-  · exact h
-  · rename_i i y
-    exact epsClose_of_key_eq (isFinite_i64 hx.1) hv.2 (partialCmp_eq_key h)
-  · rename_i y i
-    exact epsClose_of_key_eq (isFinite_i64 hv.1) hx.2 (partialCmp_eq_key h).symm
-  · rename_i a b
-    exact epsClose_of_key_eq hx.2 hv.2 (partialCmp_eq_key h)
-  · exact (cmpBytes_eq_iff _ _).mp h
-
-theorem fltCmp3_of_not_nan {a b : Nat} (ha : isNaN a = false) (hb : isNaN b = false) :
-    some (fltCmp3 a b) = partialCmp a b := by
-  unfold fltCmp3 partialCmp
-  simp [ha, hb]
-
-/-- on tame values the filter's ordering comparisons are the zone map's -/
-theorem fCmp_eq_cmp {x v : V} (hx : Tame x) (hv : Tame v) {o : Ordering} (h : fCmp x v = some o) :
-    cmp x v = some o := by
-  cases x with
-  | null => cases v <;> simp [fCmp] at h
-  | bool a => cases v <;> simp [fCmp] at h
-  | str a =>
-    cases v with
-    | str b => simpa [fCmp, cmp] using h
-    | _ => simp [fCmp] at h
-  | int i =>
-    cases v with
-    | int j => simpa [fCmp, cmp] using h
-    | float y =>
-      simp only [fCmp] at h; simp only [cmp]
-      rw [← fltCmp3_of_not_nan (i64ToF64_small i hx.1).1 (isNaN_of_finite hv.2)]; exact h
-    | _ => simp [fCmp] at h
-  | float a =>
-    cases v with
-    | int j =>
-      simp only [fCmp] at h; simp only [cmp]
-      rw [← fltCmp3_of_not_nan (isNaN_of_finite hx.2) (i64ToF64_small j hv.1).1]; exact h
-    | float b =>
-      simp only [fCmp] at h; simp only [cmp]
-      rw [← fltCmp3_of_not_nan (isNaN_of_finite hx.2) (isNaN_of_finite hv.2)]; exact h
-    | _ => simp [fCmp] at h
-
-/-- **Bridge.** On tame values, whatever the generic filter accepts the exact order semantics
-accepts too — up to the ε in `=`: the hypothesis `heps` asks that the literal is not within
-2^-52 of a different stored number. -/
-theorem fsat_imp_zsat {op : Op} {x v : V} (hx : Tame x) (hv : Tame v)
-    (heps : op = .eq → fEq x v = true → zEq x v = true) (h : fsat op x v = true) :
-    zsat op x v = true := by
-  cases op with
-  | eq => exact heps rfl h
-  | ne =>
-    simp only [fsat, zsat, Bool.not_eq_true', Bool.not_eq_eq_eq_not, Bool.not_true] at h ⊢
-    cases hz : zEq x v with
-    | false => rfl
-    | true => rw [fEq_of_zEq hx hv hz] at h; cases h
-  | lt =>
-    simp only [fsat, zsat, beq_iff_eq] at h ⊢
-    exact fCmp_eq_cmp hx hv h
-  | gt =>
-    simp only [fsat, zsat, beq_iff_eq] at h ⊢
-    exact fCmp_eq_cmp hx hv h
-  | le =>
-    simp only [fsat, zsat, Bool.or_eq_true, beq_iff_eq] at h ⊢
-    rcases h with h | h
-    · exact Or.inl (fCmp_eq_cmp hx hv h)
-    · exact Or.inr (fCmp_eq_cmp hx hv h)
-  | ge =>
-    simp only [fsat, zsat, Bool.or_eq_true, beq_iff_eq] at h ⊢
-    rcases h with h | h
-    · exact Or.inl (fCmp_eq_cmp hx hv h)
-    · exact Or.inr (fCmp_eq_cmp hx hv h)
-
-/-- the current values of a reachable store satisfy the class of the written values -/
-theorem current_value_ok {P : V → Prop} (hC : Coherent P) (ops : List SOp)
-    (hops : ∀ o ∈ ops, o.valOk P) {n key : Nat} {x : V}
-    (hx : (Store.run ops).props.get n key = some x) : P x := by
+/-- the current values of a reachable store are well-formed -/
+theorem current_value_wf (ops : List SOp) (hops : ∀ o ∈ ops, o.valOk) {n key : Nat} {x : V}
+    (hx : (Store.run ops).props.get n key = some x) : WF x := by
   obtain ⟨c, hc, hmem⟩ := get_mem_vals hx
-  exact (stinv_run hC ops hops key c hc).pall x hmem
+  exact (stinv_run ops hops key c hc).wf x hmem
 
-/-- a class of values on which the zone map's order is coherent and on which the generic
-filter accepts nothing the exact order semantics rejects (up to the ε of `=`) -/
-structure Good (P : V → Prop) : Prop where
-  coh : Coherent P
-  bridge : ∀ (op : Op) (x v : V), P x → P v →
-    (op = .eq → fEq x v = true → zEq x v = true) → fsat op x v = true → zsat op x v = true
-  selfEq : ∀ v, P v → zEq v v = true
-
-theorem zEq_self_of_tame {v : V} (h : Tame v) : zEq v v = true := by
-  cases v with
-  | null => simp [zEq]
-  | bool b => simp [zEq, cmp]
-  | int i => simp [zEq, cmp]
-  | str s => simp [zEq, cmp, (cmpBytes_eq_iff s s).mpr rfl]
-  | float b => simp [zEq, cmp, partialCmp, isNaN_of_finite h.2]
-
-theorem good_tame : Good Tame where
-  coh := coherent_tame
-  bridge := fun _ _ _ hx hv heps h => fsat_imp_zsat hx hv heps h
-  selfEq := fun _ h => zEq_self_of_tame h
-
-/-- float-free values: integers over the whole i64 range, strings, booleans, null -/
-theorem good_noFloat : Good NoFloat where
-  coh := coherent_noFloat
-  bridge := by
-    intro op x v hx hv heps h
-    cases op with
-    | eq => exact heps rfl h
-    | ne =>
-      simp only [fsat, zsat, Bool.not_eq_eq_eq_not, Bool.not_true] at h ⊢
-      cases x <;> cases v <;> simp [fEq, zEq, cmp, NoFloat] at h hx hv ⊢
-      · rename_i a b; cases a <;> cases b <;> simp [compare, compareOfLessAndEq] at h ⊢
-      · exact h
-      · rw [cmpBytes_eq_iff]; exact h
-    | lt => cases x <;> cases v <;> simp [fsat, zsat, fCmp, cmp, NoFloat] at h hx hv ⊢ <;> exact h
-    | gt => cases x <;> cases v <;> simp [fsat, zsat, fCmp, cmp, NoFloat] at h hx hv ⊢ <;> exact h
-    | le => cases x <;> cases v <;> simp [fsat, zsat, fCmp, cmp, NoFloat] at h hx hv ⊢ <;> exact h
-    | ge => cases x <;> cases v <;> simp [fsat, zsat, fCmp, cmp, NoFloat] at h hx hv ⊢ <;> exact h
-  selfEq := by
-    intro v hv
-    cases v with
-    | null => simp [zEq]
-    | bool b => simp [zEq, cmp]
-    | int i => simp [zEq, cmp]
-    | str s => simp [zEq, cmp, (cmpBytes_eq_iff s s).mpr rfl]
-    | float b => simp [NoFloat] at hv
-
-/-- **(a), filter semantics (partial).** For every history whose written values lie in a good
-class (`Tame`: integers below 2^53, finite floats, strings, booleans, null — or `NoFloat`: all
-i64 integers, strings, booleans, null) and every literal of that class: if
-`might_match(key, op, v)` answers `false`, no row can pass the generic filter `n.key <op> v` —
-provided (i) for `<>` the column currently holds no null and (ii) for `=` the literal is not
-within ε of a different stored number. The full statement is false; see the witnesses
-`c10_w_prune_*`. -/
-theorem c10_zone_map_sound_filter_partial {P : V → Prop} (hG : Good P) (ops : List SOp)
-    (hops : ∀ o ∈ ops, o.valOk P) (key : Nat) (op : Op) (v : V) (hv : P v)
-    (hf : (Store.run ops).props.mightMatch key op v = false) :
-    ∀ n x, (Store.run ops).props.get n key = some x → (op = .ne → x ≠ .null) →
-      (op = .eq → fEq x v = true → zEq x v = true) → fsat op x v = false := by
-  intro n x hx hne heps
-  have hz := c10_zone_map_sound hG.coh ops hops key op v hv hf n x hx hne
-  have hxt : P x := current_value_ok hG.coh ops hops hx
-  cases hfs : fsat op x v with
-  | false => rfl
-  | true => rw [hG.bridge op x v hxt hv heps hfs] at hz; cases hz
-
-/-! ### the full statement of (a) and why it is false for the pinned code -/
-
-/-- **(a) at full strength**: for every history and every value, a `false` verdict of
-`might_match` means no stored value passes the generic filter. -/
-def ZoneMapSoundFilter : Prop :=
-  ∀ (ops : List SOp) (key : Nat) (op : Op) (v : V),
-    (Store.run ops).props.mightMatch key op v = false →
-    ∀ n x, (Store.run ops).props.get n key = some x → fsat op x v = false
-
-/-- the same for the zone map's own exact order (no filter peculiarities involved) -/
-def ZoneMapSoundOrder : Prop :=
-  ∀ (ops : List SOp) (key : Nat) (op : Op) (v : V),
-    (Store.run ops).props.mightMatch key op v = false →
-    ∀ n x, (Store.run ops).props.get n key = some x → (op = .ne → x ≠ .null) → zsat op x v = false
-
-def f64_one : Nat := 0x3ff0000000000000
-def f64_nan : Nat := 0x7ff8000000000000
-def f64_inf : Nat := 0x7ff0000000000000
-def f64_1em20 : Nat := 0x3bc79ca10c924223
-def f64_2p53 : Nat := 0x4340000000000000
-
-/-- W: a stored NULL. `x <> 5` over the column {5, NULL}: the zone map (min = max = 5, not
-mixed — nulls bypass the `mixed` logic) says "no row can match"; the filter accepts the NULL row
-(`values_equal(Null, 5)` is false, so `<>` is true). -/
-theorem c10_w_prune_null_ne :
-    let s := Store.run [.node, .node, .set 0 0 (.int 5), .set 1 0 .null]
-    s.props.mightMatch 0 .ne (.int 5) = false ∧ s.props.get 1 0 = some .null ∧
-      fsat .ne .null (.int 5) = true := by decide
-
-/-- W: NaN. `x <= 0.0` over {1.0, NaN}: min = max = 1.0 prunes; the filter's three-way
-comparison maps NaN to 0, so `NaN <= 0.0` passes. -/
-theorem c10_w_prune_nan_le :
-    let s := Store.run [.node, .node, .set 0 0 (.float f64_one), .set 1 0 (.float f64_nan)]
-    s.props.mightMatch 0 .le (.float 0) = false ∧ s.props.get 1 0 = some (.float f64_nan) ∧
-      fsat .le (.float f64_nan) (.float 0) = true := by decide
-
-set_option exponentiation.threshold 1100 in
-/-- W: ε-equality. `x = 1e-20` over {0.0}: 1e-20 > max prunes; the filter's
-`|a − b| < f64::EPSILON` accepts 0.0. -/
-theorem c10_w_prune_eps_eq :
-    let s := Store.run [.node, .set 0 0 (.float 0)]
-    s.props.mightMatch 0 .eq (.float f64_1em20) = false ∧ s.props.get 0 0 = some (.float 0) ∧
-      fsat .eq (.float 0) (.float f64_1em20) = true := by decide
-
-/-- W: infinity. `x <> inf` over {inf}: min = max = inf prunes; `inf − inf` is NaN, so the
-filter's equality fails and `<>` passes. -/
-theorem c10_w_prune_inf_ne :
-    let s := Store.run [.node, .set 0 0 (.float f64_inf)]
-    s.props.mightMatch 0 .ne (.float f64_inf) = false ∧
-      fsat .ne (.float f64_inf) (.float f64_inf) = true := by decide
-
-/-- W: `i64 as f64` rounding. Column {2^53 as float, 2^53+1 as integer} (written in that order):
-the integer compares Equal to the float maximum and does not replace it; `x > 2^53` (integer
-literal) is pruned because max = 2^53.0 compares Equal to the literal — but 2^53+1 > 2^53. Both
-the filter and the zone map's own order accept that row. -/
-theorem c10_w_prune_rounding :
-    let s := Store.run [.node, .node, .set 0 0 (.float f64_2p53), .set 1 0 (.int (2 ^ 53 + 1))]
-    s.props.mightMatch 0 .gt (.int (2 ^ 53)) = false ∧ s.props.get 1 0 = some (.int (2 ^ 53 + 1)) ∧
-      zsat .gt (.int (2 ^ 53 + 1)) (.int (2 ^ 53)) = true ∧
-      fsat .gt (.int (2 ^ 53 + 1)) (.int (2 ^ 53)) = true := by decide
-
-/-- the order is not transitive on all values -/
-theorem c10_order_not_transitive :
-    le (.int (2 ^ 53 + 1)) (.float f64_2p53) ∧ le (.float f64_2p53) (.int (2 ^ 53)) ∧
-      ¬ le (.int (2 ^ 53 + 1)) (.int (2 ^ 53)) := by
-  unfold le; decide
-
-theorem c10_zone_map_sound_filter_refuted : ¬ ZoneMapSoundFilter := by
-  intro h
-  have := h [.node, .node, .set 0 0 (.int 5), .set 1 0 .null] 0 .ne (.int 5) (by decide) 1 .null (by decide)
-  revert this; decide
-
-theorem c10_zone_map_sound_order_refuted : ¬ ZoneMapSoundOrder := by
-  intro h
-  have := h [.node, .node, .set 0 0 (.float f64_2p53), .set 1 0 (.int (2 ^ 53 + 1))] 0 .gt
-    (.int (2 ^ 53)) (by decide) 1 (.int (2 ^ 53 + 1)) (by decide) (by decide)
-  revert this; decide
-
-/-- N: the theorems are not vacuous — the mixed-type `<>` regression (column {'a', 1}, `<> 'a'`
-must not be pruned) and a genuine prune (`> 7` over {1, 5}). -/
-theorem c10_nv_mixed_ne_regression :
-    let s := Store.run [.node, .node, .set 0 0 (.str [0x61]), .set 1 0 (.int 1)]
-    s.props.mightMatch 0 .ne (.str [0x61]) = true ∧
-      (s.rebuild [(0, [0, 1])]).props.mightMatch 0 .ne (.str [0x61]) = true ∧
-      (s.rebuild [(0, [1, 0])]).props.mightMatch 0 .ne (.str [0x61]) = true ∧
-      (s.rebuild [(0, [0, 1])]).props.zone 0 ≠ (s.rebuild [(0, [1, 0])]).props.zone 0 := by decide
-theorem c10_nv_zone_prune :
-    let s := Store.run [.node, .node, .set 0 0 (.int 1), .set 1 0 (.int 5), .set 1 0 (.int 3)]
-    s.props.mightMatch 0 .gt (.int 7) = false ∧ s.props.mightMatch 0 .gt (.int 4) = true ∧
-      (∀ o ∈ [SOp.node, .node, .set 0 0 (.int 1), .set 1 0 (.int 5), .set 1 0 (.int 3)], o.valOk Tame) := by
-  refine ⟨by decide, by decide, ?_⟩
-  intro o ho
-  simp only [List.mem_cons, List.not_mem_nil, or_false] at ho
-  rcases ho with rfl | rfl | rfl | rfl | rfl <;> simp [SOp.valOk, Tame, Exact, FiniteV]
-
-/-! ## 6. (b) The indexed lookup equals the scan -/
+/-! ## 5. (b) The indexed lookup equals the scan -/
 
 theorem aget_aerase {α : Type} (l : List (Nat × α)) (k k' : Nat) :
     aget (aerase l k) k' = if k = k' then none else aget l k' := by
@@ -2017,13 +2109,16 @@ theorem valEq_iff_eq (x v : V)
     subst e
     simp [hn]
 
-/-! ### (b) at full strength, and why it is false -/
+def f64_one : Nat := 0x3ff0000000000000
+def f64_nan : Nat := 0x7ff8000000000000
+def f64_negzero : Nat := 0x8000000000000000
+
+/-! ### (b) at full strength, and why it is false (unchanged code: `find_nodes_by_property`) -/
 
 def IndexEqScan : Prop :=
   ∀ (ops : List SOp) (key : Nat) (v : V) (n : Nat),
     n ∈ (Store.run ops).find key v ↔ n ∈ (Store.run ops).scanFind key v
 
-def f64_negzero : Nat := 0x8000000000000000
 
 /-- W: ±0.0. A node holds 0.0; looking up −0.0 finds it by scan (`0.0 == -0.0`) and misses it
 through the index (different bits). -/
@@ -2064,7 +2159,277 @@ theorem c10_nv_index :
     wfRun {} ops ∧ (Store.run ops).find 0 (.int 1) = [1] ∧ (Store.run ops).scanFind 0 (.int 1) = [1] := by
   decide
 
-/-! ## 7. (c) The planner's path choice does not matter -/
+/-! ## 6. (c) The planner's path choice does not matter -/
+
+/-! ### the lookup keys of the index path cover what the filter's `=` accepts -/
+
+/-- a finite pattern of magnitude ≥ 1 is a multiple of 2^-52 (of 2^1022 in scaled units) -/
+theorem scaledMag_dvd (x : Nat) (h : 2 ^ 1074 ≤ scaledMag x) : ∃ k, scaledMag x = 2 ^ 1022 * k := by
+  have hfr : fracField x < 2 ^ 52 := by unfold fracField; omega
+  unfold scaledMag at h ⊢
+  by_cases e0 : expField x = 0
+  · simp only [e0, if_true] at h
+    have : (2:Nat) ^ 52 ≤ 2 ^ 1074 := Nat.pow_le_pow_right (by omega) (by omega)
+    omega
+  · simp only [e0, if_false] at h ⊢
+    have he : 1022 ≤ expField x - 1 := by
+      apply Classical.byContradiction
+      intro hc
+      have h1 : 2 ^ (expField x - 1) ≤ 2 ^ 1021 := Nat.pow_le_pow_right (by omega) (by omega)
+      have h2 : (2 ^ 52 + fracField x) * 2 ^ (expField x - 1) < 2 ^ 53 * 2 ^ 1021 :=
+        Nat.mul_lt_mul_of_lt_of_le (by omega) h1 (Nat.two_pow_pos _)
+      have h3 : (2:Nat) ^ 53 * 2 ^ 1021 = 2 ^ 1074 := by
+        have e : (53 + 1021 : Nat) = 1074 := by omega
+        exact (Nat.pow_add 2 53 1021).symm.trans (congrArg (fun n => 2 ^ n) e)
+      omega
+    refine ⟨(2 ^ 52 + fracField x) * 2 ^ (expField x - 1 - 1022), ?_⟩
+    have : 2 ^ (expField x - 1) = 2 ^ 1022 * 2 ^ (expField x - 1 - 1022) :=
+      (congrArg (fun n => 2 ^ n) (by omega : expField x - 1 = 1022 + (expField x - 1 - 1022))).trans
+        (Nat.pow_add 2 1022 _)
+    rw [this, Nat.mul_left_comm]
+
+/-- two finite doubles within the filter's tolerance, one of them of magnitude ≥ 2, have the
+same value: the tolerance is below their spacing -/
+theorem eps_identical (a b : Nat) (ha : 2 ^ 1075 ≤ scaledMag a) (h : epsClose a b = true) :
+    scaled a = scaled b := by
+  unfold epsClose at h
+  simp only [Bool.and_eq_true, decide_eq_true_eq] at h
+  obtain ⟨_, hd⟩ := h
+  have p1 : (2:Nat) ^ 1074 ≤ 2 ^ 1075 := Nat.pow_le_pow_right (by omega) (by omega)
+  have p2 : (2:Nat) ^ 1075 = 2 * 2 ^ 1074 := by
+    have : (1075:Nat) = 1074 + 1 := rfl
+    rw [this, Nat.pow_succ]; omega
+  have p3 : (2:Nat) ^ 1022 ≤ 2 ^ 1074 := Nat.pow_le_pow_right (by omega) (by omega)
+  obtain ⟨ka, hka⟩ := scaledMag_dvd a (by omega)
+  by_cases hb : 2 ^ 1074 ≤ scaledMag b
+  · obtain ⟨kb, hkb⟩ := scaledMag_dvd b hb
+    unfold scaled at hd ⊢
+    split at hd <;> split at hd <;> omega
+  · unfold scaled at hd ⊢
+    split at hd <;> split at hd <;> omega
+
+theorem bits_decomp (a : Nat) (h : a < 2 ^ 64) : a = signBit a * 2 ^ 63 + mag a := by
+  unfold signBit mag; omega
+
+/-- distinct finite non-zero patterns have distinct values -/
+theorem bits_eq_of_scaled_eq (a b : Nat) (ha : a < 2 ^ 64) (hb : b < 2 ^ 64)
+    (fa : isFinite a = true) (fb : isFinite b = true) (hnz : scaledMag a ≠ 0)
+    (h : scaled a = scaled b) : a = b := by
+  have hm : scaledMag a = scaledMag b ∧ signBit a = signBit b := by
+    unfold scaled at h
+    rcases signBit_cases a with sa | sa <;> rcases signBit_cases b with sb | sb <;>
+      simp [sa, sb] at h ⊢ <;> omega
+  have : mag a = mag b := by
+    rw [← roundMag_scaledMag a fa, ← roundMag_scaledMag b fb, hm.1]
+  rw [bits_decomp a ha, bits_decomp b hb, this, hm.2]
+
+theorem scaledMag_ge_of_mag (x : Nat) (h : 0x4000000000000000 ≤ mag x) : 2 ^ 1075 ≤ scaledMag x := by
+  rw [mag_eq] at h
+  have hfr : fracField x < 2 ^ 52 := by unfold fracField; omega
+  have he : 1024 ≤ expField x := by omega
+  unfold scaledMag
+  have e0 : ¬ expField x = 0 := by omega
+  simp only [e0, if_false]
+  have h1 : 2 ^ 1023 ≤ 2 ^ (expField x - 1) := Nat.pow_le_pow_right (by omega) (by omega)
+  have h2 : 2 ^ 52 * 2 ^ 1023 ≤ (2 ^ 52 + fracField x) * 2 ^ (expField x - 1) :=
+    Nat.mul_le_mul (by omega) h1
+  have h3 : (2:Nat) ^ 52 * 2 ^ 1023 = 2 ^ 1075 :=
+    (Nat.pow_add 2 52 1023).symm.trans (congrArg (fun n => 2 ^ n) (by omega : (52 + 1023 : Nat) = 1075))
+  omega
+
+theorem isFinite_of_mag (x : Nat) (h : mag x < 0x7ff0000000000000) : isFinite x = true := by
+  rw [mag_eq] at h
+  unfold isFinite
+  have : expField x ≠ 2047 := by omega
+  simpa using this
+
+theorem natToF64_two : natToF64 2 = 0x4000000000000000 := by decide
+theorem natToF64_2p53 : natToF64 (2 ^ 53) = 0x4340000000000000 := by decide
+
+theorem mag_i64 (n : Int) (hn : I64 n) : mag (i64ToF64 n) = natToF64 n.natAbs := by
+  unfold I64 at hn
+  unfold i64ToF64
+  by_cases h : n ≥ 0
+  · have hb := natToF64_bits n.toNat (by omega)
+    simp only [h, if_true]
+    have : n.toNat = n.natAbs := by omega
+    rw [this] at hb ⊢
+    unfold mag; omega
+  · have hb := natToF64_bits (-n).toNat (by omega)
+    simp only [h, if_false]
+    have : (-n).toNat = n.natAbs := by omega
+    rw [this] at hb ⊢
+    unfold mag; omega
+
+theorem i64_lt64 (n : Int) (hn : I64 n) : i64ToF64 n < 2 ^ 64 := by
+  unfold I64 at hn
+  unfold i64ToF64
+  by_cases h : n ≥ 0
+  · have hb := natToF64_bits n.toNat (by omega)
+    simp only [h, if_true]; omega
+  · have hb := natToF64_bits (-n).toNat (by omega)
+    simp only [h, if_false]; omega
+
+/-- fields of the pattern of a positive integer below 2^53 -/
+theorem natToF64_fields (n : Nat) (h0 : n ≠ 0) (h : n < 2 ^ 53) :
+    natToF64 n < 2 ^ 63 ∧ expField (natToF64 n) = bitLen n + 1022 ∧ bitLen n ≤ 53 ∧
+      2 ^ 52 + fracField (natToF64 n) = n * 2 ^ (53 - bitLen n) := by
+  obtain ⟨h1, h2, h3⟩ := bitLen_spec n h0
+  have hl : bitLen n ≤ 53 := bitLen_le_of_lt n 53 h0 h
+  obtain ⟨a1, a2, _⟩ := natToF64_shape n h0
+  have hq : Qn n = n * 2 ^ (53 - bitLen n) := by unfold Qn; simp [hl]
+  have hlt : n * 2 ^ (53 - bitLen n) < 2 ^ 53 := by
+    have e : 2 ^ (bitLen n) * 2 ^ (53 - bitLen n) = 2 ^ 53 := by
+      rw [← Nat.pow_add]; congr 1; omega
+    have : n * 2 ^ (53 - bitLen n) < 2 ^ (bitLen n) * 2 ^ (53 - bitLen n) :=
+      Nat.mul_lt_mul_of_pos_right h3 (Nat.two_pow_pos _)
+    omega
+  rw [hq] at a1 a2
+  generalize n * 2 ^ (53 - bitLen n) = Q at *
+  rw [a1]
+  refine ⟨by omega, ?_, hl, ?_⟩
+  · unfold expField; omega
+  · unfold fracField; omega
+
+/-- magnitude part of `floatToInt` on the pattern of a positive integer below 2^53 -/
+theorem floatToInt_mag (n : Nat) (h0 : n ≠ 0) (h : n < 2 ^ 53) (e f : Nat)
+    (he : e = bitLen n + 1022) (hl : bitLen n ≤ 53) (hf : 2 ^ 52 + f = n * 2 ^ (53 - bitLen n)) :
+    (if e ≥ 1075 then some ((2 ^ 52 + f) * 2 ^ (e - 1075))
+      else if (2 ^ 52 + f) % 2 ^ (1075 - e) = 0 then some ((2 ^ 52 + f) / 2 ^ (1075 - e)) else none)
+      = some n := by
+  by_cases h53 : bitLen n = 53
+  · have : e ≥ 1075 := by omega
+    simp only [this, if_true]
+    have e1 : e - 1075 = 0 := by omega
+    have e2 : 53 - bitLen n = 0 := by omega
+    rw [hf, e1, e2]; simp
+  · have : ¬ e ≥ 1075 := by omega
+    have hsh : 1075 - e = 53 - bitLen n := by omega
+    simp only [this, if_false, hsh, hf, Nat.mul_mod_left, if_true,
+      Nat.mul_div_cancel _ (Nat.two_pow_pos _)]
+
+theorem floatToInt_i64 (a : Int) (h0 : a ≠ 0) (h : -(2 ^ 53) < a ∧ a < 2 ^ 53) :
+    floatToInt (i64ToF64 a) = some a := by
+  have hn0 : a.natAbs ≠ 0 := by omega
+  obtain ⟨f1, f2, f3, f4⟩ := natToF64_fields a.natAbs hn0 (by omega)
+  unfold floatToInt i64ToF64
+  by_cases hs : a ≥ 0
+  · have e : a.toNat = a.natAbs := by omega
+    simp only [hs, if_true, e]
+    have sg : ¬ signBit (natToF64 a.natAbs) = 1 := by
+      unfold signBit
+      generalize natToF64 a.natAbs = B at *
+      omega
+    rw [floatToInt_mag a.natAbs hn0 (by omega) _ _ f2 f3 f4]
+    simp only [Option.map_some, sg, if_false]
+    simp; omega
+  · have e : (-a).toNat = a.natAbs := by omega
+    simp only [hs, if_false, e]
+    have ex : expField (2 ^ 63 + natToF64 a.natAbs) = expField (natToF64 a.natAbs) := expField_neg _ f1
+    have fr : fracField (2 ^ 63 + natToF64 a.natAbs) = fracField (natToF64 a.natAbs) := by
+      unfold fracField
+      generalize natToF64 a.natAbs = B at *
+      omega
+    have sg : signBit (2 ^ 63 + natToF64 a.natAbs) = 1 := by
+      unfold signBit
+      generalize natToF64 a.natAbs = B at *
+      omega
+    rw [ex, fr, floatToInt_mag a.natAbs hn0 (by omega) _ _ f2 f3 f4]
+    simp only [Option.map_some, sg, if_true]
+    simp; omega
+
+theorem abs_lt_of_mag (a : Int) (ha : I64 a) (h : mag (i64ToF64 a) < 0x4340000000000000) :
+    -(2 ^ 53) < a ∧ a < 2 ^ 53 := by
+  rw [mag_i64 a ha] at h
+  have : a.natAbs < 2 ^ 53 := by
+    apply Classical.byContradiction
+    intro hc
+    have := natToF64_mono (2 ^ 53) a.natAbs (by omega)
+    rw [natToF64_2p53] at this
+    omega
+  omega
+
+theorem feq_def (a b : Nat) (h : feq a b = true) : isNaN a = false ∧ isNaN b = false ∧ key a = key b := by
+  unfold feq at h
+  simp only [Bool.and_eq_true, Bool.not_eq_true', beq_iff_eq] at h
+  exact ⟨h.1.1, h.1.2, h.2⟩
+
+/-- **The lookup keys cover the equality.** Whatever value the filter's `=` accepts for a literal
+that `lookup_keys_for_equality` serves is bit-identical to one of the keys. -/
+theorem keys_cover {x lit : V} (wx : WF x) (wl : WF lit) {ks : List V}
+    (hk : lookupKeys lit = some ks) (h : fEq x lit = true) : x ∈ ks := by
+  cases lit with
+  | null => simp [lookupKeys] at hk
+  | str s =>
+    simp only [lookupKeys, Option.some.injEq] at hk; subst hk
+    have := fEq_nonnumeric (v := .str s) rfl h; simp [this]
+  | bool b =>
+    simp only [lookupKeys, Option.some.injEq] at hk; subst hk
+    have := fEq_nonnumeric (v := .bool b) rfl h; simp [this]
+  | int n =>
+    simp only [lookupKeys] at hk
+    split at hk
+    · rename_i hn
+      simp only [Option.some.injEq] at hk; subst hk
+      cases x with
+      | int a => simp [fEq] at h; simp [h]
+      | float y =>
+        simp only [fEq] at h
+        have hmag : 0x4000000000000000 ≤ mag (i64ToF64 n) := by
+          rw [mag_i64 n wl]
+          have := natToF64_mono 2 n.natAbs hn
+          rw [natToF64_two] at this; exact this
+        have hs := eps_identical _ _ (scaledMag_ge_of_mag _ hmag) h
+        have hfy : isFinite y = true := by
+          unfold epsClose at h; simp only [Bool.and_eq_true] at h; exact h.1.2
+        have hnz : scaledMag (i64ToF64 n) ≠ 0 := by
+          have := scaledMag_ge_of_mag _ hmag
+          have : 0 < (2:Nat) ^ 1075 := Nat.two_pow_pos _
+          omega
+        have := bits_eq_of_scaled_eq _ _ (i64_lt64 n wl) wx (i64ToF64_key n wl).2.1 hfy hnz hs
+        simp [this]
+      | _ => simp [fEq] at h
+    · cases hk
+  | float f =>
+    simp only [lookupKeys] at hk
+    split at hk
+    · rename_i hf
+      have hff : isFinite f = true := isFinite_of_mag f (by omega)
+      have hsf := scaledMag_ge_of_mag f hf.1
+      have hnz : scaledMag f ≠ 0 := by
+        have : 0 < (2:Nat) ^ 1075 := Nat.two_pow_pos _
+        omega
+      simp only [Option.some.injEq] at hk
+      cases x with
+      | float y =>
+        simp only [fEq, Bool.or_eq_true] at h
+        have hy : y = f := by
+          rcases h with h | h
+          · obtain ⟨_, _, hkk⟩ := feq_def _ _ h
+            exact (bits_eq_of_scaled_eq f y wl wx hff (isFinite_of_key_eq hkk hff) hnz
+              (scaled_eq_of_key_eq hkk.symm)).symm
+          · have hfy : isFinite y = true := by
+              unfold epsClose at h; simp only [Bool.and_eq_true] at h; exact h.1.1
+            rw [epsClose_comm] at h
+            exact (bits_eq_of_scaled_eq f y wl wx hff hfy hnz (eps_identical _ _ hsf h)).symm
+        subst hy
+        rw [← hk]; split <;> simp
+      | int a =>
+        simp only [fEq] at h
+        rw [epsClose_comm] at h
+        have hs := eps_identical _ _ hsf h
+        have hfe := bits_eq_of_scaled_eq f (i64ToF64 a) wl (i64_lt64 a wx) hff (i64ToF64_key a wx).2.1 hnz hs
+        have hab := abs_lt_of_mag a wx (by rw [← hfe]; exact hf.2)
+        have ha0 : a ≠ 0 := by
+          intro e; subst e
+          have : mag (i64ToF64 0) = 0 := by decide
+          rw [← hfe] at this; omega
+        have := floatToInt_i64 a ha0 hab
+        rw [← hfe] at this
+        rw [← hk, this]; simp
+      | _ => simp [fEq] at h
+    · cases hk
+
 
 theorem mem_genericPath (s : Store) (key : Nat) (op : Op) (lit : V) (n : Nat) :
     n ∈ s.genericPath key op lit ↔
@@ -2080,202 +2445,7 @@ theorem mem_scanRange (s : Store) (key : Nat) (lo hi : Option V) (li ui : Bool) 
   simp only [List.mem_filter]
   cases s.props.get n key <;> simp [holds]
 
-theorem cmpR_sub_cmp {x v : V} {o : Ordering} (h : cmpR x v = some o) : cmp x v = some o := by
-  cases x <;> cases v <;> simp [cmpR, cmp] at h ⊢ <;> exact h
-
-/-- membership in a range by the range path's own comparison implies membership by the zone
-map's order -/
-theorem valueInRange_imp_zsat {x : V} {lo hi : Option V} {li ui : Bool}
-    (h : valueInRange x lo hi li ui = true) : satRange zsat x lo hi li ui = true := by
-  unfold valueInRange at h
-  unfold satRange
-  simp only [Bool.and_eq_true] at h ⊢
-  obtain ⟨h1, h2⟩ := h
-  constructor
-  · cases lo with
-    | none => rfl
-    | some l =>
-      simp only [lowerSat] at h1
-      cases hc : cmpR x l with
-      | none => simp [hc, lowerIn] at h1
-      | some o =>
-        have := cmpR_sub_cmp hc
-        cases o <;> cases li <;> simp [hc, lowerIn, boundOp, zsat, this] at h1 ⊢
-  · cases hi with
-    | none => rfl
-    | some u =>
-      simp only [upperSat] at h2
-      cases hc : cmpR x u with
-      | none => simp [hc, upperIn] at h2
-      | some o =>
-        have := cmpR_sub_cmp hc
-        cases o <;> cases ui <;> simp [hc, upperIn, boundOp, zsat, this] at h2 ⊢
-
-/-- the bounds the planner hands to `find_nodes_in_range` for `n.key <op> lit` -/
-def rangeArgs (op : Op) (lit : V) : Option V × Option V × Bool × Bool :=
-  match op with
-  | .lt => (none, some lit, false, false)
-  | .le => (none, some lit, false, true)
-  | .gt => (some lit, none, false, false)
-  | .ge => (some lit, none, true, false)
-  | _ => (none, none, false, false)
-
-theorem rangePath_eq (s : Store) (key : Nat) (op : Op) (lit : V) (h : op.isRange = true) :
-    s.rangePath key op lit =
-      s.findRange key (rangeArgs op lit).1 (rangeArgs op lit).2.1 (rangeArgs op lit).2.2.1
-        (rangeArgs op lit).2.2.2 := by
-  cases op <;> simp [Op.isRange] at h <;> rfl
-
-/-- the range path's own acceptance test for `x <op> lit` -/
-def rsat (op : Op) (x lit : V) : Bool :=
-  valueInRange x (rangeArgs op lit).1 (rangeArgs op lit).2.1 (rangeArgs op lit).2.2.1
-    (rangeArgs op lit).2.2.2
-
-/-- **Pointwise agreement of the comparison semantics in play** for a stored value `x` and the
-literal: nulls do not meet `<>`; for `=`, the filter's ε-equality coincides with identity (the
-index key equality); for `<, <=, >, >=`, the range path's test coincides with the filter's. -/
-structure SemAgree (op : Op) (x lit : V) : Prop where
-  neNull : op = .ne → x ≠ .null
-  eqId : op = .eq → (fEq x lit = true ↔ x = lit)
-  range : op.isRange = true → rsat op x lit = fsat op x lit
-
-/-- when may the planner take a path -/
-def applicable (s : Store) (key : Nat) (op : Op) (lit : V) : Path → Prop
-  | .pruned => s.props.mightMatch key op lit = false
-  | .index => op = .eq ∧ s.hasIndex key = true
-  | .range => op.isRange = true
-  | .generic => True
-
-theorem choosePath_applicable (s : Store) (key : Nat) (op : Op) (lit : V) :
-    applicable s key op lit (s.choosePath key op lit) := by
-  unfold Store.choosePath
-  cases h1 : s.props.mightMatch key op lit with
-  | false => simp [applicable, h1]
-  | true =>
-    simp only [Bool.not_true, Bool.false_eq_true, if_false]
-    by_cases h2 : op = .eq
-    · cases h3 : s.hasIndex key with
-      | true => simp [applicable, h2, h3]
-      | false => simp [applicable, h2, h3, Op.isRange]
-    · simp only [h2, false_and, if_false]
-      cases h3 : op.isRange with
-      | true => simp [applicable, h3]
-      | false => simp [applicable]
-
-theorem findProps_single (s : Store) (key : Nat) (lit : V) (hi : s.hasIndex key = true) (n : Nat) :
-    n ∈ s.findProps [(key, lit)] ↔ n ∈ s.find key lit := by
-  unfold Store.hasIndex at hi
-  unfold Store.findProps Store.find
-  cases hk : aget s.idx key with
-  | none => simp [hk] at hi
-  | some r =>
-    simp only [bestStart, hk]
-    cases he : (relLookup r lit).isEmpty with
-    | true =>
-      have : relLookup r lit = [] := by simpa using he
-      simp [this]
-    | false =>
-      simp [retainConds]
-
-section Planner
-variable {P : V → Prop} (hG : Good P) (ops : List SOp) (hw : wfRun {} ops)
-  (hops : ∀ o ∈ ops, o.valOk P) (key : Nat) (op : Op) (lit : V) (hl : P lit)
-  (hag : ∀ n x, (Store.run ops).props.get n key = some x → SemAgree op x lit)
-include hG hw hops hl hag
-
-/-- **(c) (partial).** For every history (writes to live nodes, values of a good class; index
-creation/drop, removes, deletions, rebuilds anywhere) and every literal of that class on whose
-comparison with the column's current values the semantics agree (`SemAgree`): every path the
-planner may take — zone-map prune, index lookup, range lookup, generic filter — yields the same
-node set as the generic filter. -/
-theorem c10_planner_paths_agree_partial (p : Path)
-    (hp : applicable (Store.run ops) key op lit p) :
-    ∀ n, n ∈ (Store.run ops).runPath key op lit p ↔ n ∈ (Store.run ops).genericPath key op lit := by
-  intro n
-  have hinv := iinv_run ops hw
-  cases p with
-  | generic => exact Iff.rfl
-  | pruned =>
-    simp only [Store.runPath, List.not_mem_nil, false_iff]
-    rw [mem_genericPath]
-    rintro ⟨_, x, hx, hf⟩
-    have ag := hag n x hx
-    have := c10_zone_map_sound_filter_partial hG ops hops key op lit hl hp n x hx ag.neNull
-      (by
-        intro he hfe
-        have : x = lit := (ag.eqId he).mp hfe
-        rw [this]; exact hG.selfEq lit hl)
-    rw [this] at hf; cases hf
-  | index =>
-    obtain ⟨hop, hi⟩ := hp
-    subst hop
-    simp only [Store.runPath, Store.indexPath, List.mem_filter, Bool.and_eq_true,
-      List.contains_iff_mem]
-    rw [findProps_single _ key lit hi, mem_find_indexed ops hw key lit n hi, mem_genericPath]
-    constructor
-    · rintro ⟨hx, hlv, hh⟩
-      rw [hx] at hh
-      exact ⟨hlv, lit, hx, by simpa [holds] using hh⟩
-    · rintro ⟨hlv, x, hx, hf⟩
-      have ag := hag n x hx
-      have e : x = lit := (ag.eqId rfl).mp (by simpa [fsat] using hf)
-      subst e
-      exact ⟨hx, hlv, by simp only [hx, holds]; exact hf⟩
-  | range =>
-    simp only [applicable] at hp
-    simp only [Store.runPath]
-    rw [rangePath_eq _ key op lit hp, mem_genericPath]
-    unfold Store.findRange
-    have hscan : n ∈ (Store.run ops).scanRange key (rangeArgs op lit).1 (rangeArgs op lit).2.1
-          (rangeArgs op lit).2.2.1 (rangeArgs op lit).2.2.2 ↔
-        (n ∈ (Store.run ops).live ∧ ∃ x, (Store.run ops).props.get n key = some x ∧ fsat op x lit = true) := by
-      rw [mem_scanRange]
-      constructor
-      · rintro ⟨hlv, x, hx, hr⟩
-        exact ⟨hlv, x, hx, by rw [← (hag n x hx).range hp]; exact hr⟩
-      · rintro ⟨hlv, x, hx, hr⟩
-        exact ⟨hlv, x, hx, by have := (hag n x hx).range hp; unfold rsat at this; rw [this]; exact hr⟩
-    cases hm : (Store.run ops).props.mightRange key (rangeArgs op lit).1 (rangeArgs op lit).2.1
-        (rangeArgs op lit).2.2.1 (rangeArgs op lit).2.2.2 with
-    | true => simp only [if_true]; exact hscan
-    | false =>
-      simp only [Bool.false_eq_true, if_false, List.not_mem_nil, false_iff]
-      rintro ⟨hlv, x, hx, hr⟩
-      have hlo : ∀ l, (rangeArgs op lit).1 = some l → P l := by
-        intro l hl'; cases op <;> simp [rangeArgs] at hl' <;> (subst hl'; exact hl)
-      have hhi : ∀ u, (rangeArgs op lit).2.1 = some u → P u := by
-        intro u hu'; cases op <;> simp [rangeArgs] at hu' <;> (subst hu'; exact hl)
-      have hz := c10_zone_map_range_sound hG.coh ops hops key _ _ _ _ hlo hhi hm n x hx
-      have hv : valueInRange x (rangeArgs op lit).1 (rangeArgs op lit).2.1 (rangeArgs op lit).2.2.1
-          (rangeArgs op lit).2.2.2 = true := by
-        have := (hag n x hx).range hp; unfold rsat at this; rw [this]; exact hr
-      rw [valueInRange_imp_zsat hv] at hz; cases hz
-
-/-- the planner's answer is the generic filter's answer: a function of the live nodes and their
-current values only — not of the history, the zone-map state or the set of indexes -/
-theorem c10_plan_eq_generic_partial :
-    ∀ n, n ∈ (Store.run ops).planFilter key op lit ↔
-      (n ∈ (Store.run ops).live ∧ ∃ x, (Store.run ops).props.get n key = some x ∧ fsat op x lit = true) := by
-  intro n
-  unfold Store.planFilter
-  rw [c10_planner_paths_agree_partial hG ops hw hops key op lit hl hag _
-    (choosePath_applicable _ key op lit) n, mem_genericPath]
-
-end Planner
-
-theorem good_mono {P Q : V → Prop} (h : ∀ v, Q v → P v) (hG : Good P) : Good Q where
-  coh := coherent_mono h hG.coh
-  bridge op x v hx hv := hG.bridge op x v (h x hx) (h v hv)
-  selfEq v hv := hG.selfEq v (h v hv)
-
-/-- integers (full i64 range) and strings -/
-def IntOrStr : V → Prop
-  | .int _ => True
-  | .str _ => True
-  | _ => False
-
-theorem good_intOrStr : Good IntOrStr :=
-  good_mono (fun v h => by cases v <;> simp [IntOrStr, NoFloat] at h ⊢) good_noFloat
+theorem cmpR_eq_cmp (x v : V) : cmpR x v = cmp x v := by cases x <;> cases v <;> rfl
 
 theorem upperIn_false (o : Option Ordering) : upperIn false o = (o == some .lt) := by
   cases o with
@@ -2294,104 +2464,256 @@ theorem lowerIn_true (o : Option Ordering) : lowerIn true o = (o == some .gt || 
   | none => rfl
   | some o => cases o <;> rfl
 
-theorem cmpR_eq_fCmp_intOrStr {x lit : V} (hx : IntOrStr x) (hl : IntOrStr lit) :
-    cmpR x lit = fCmp x lit := by
-  cases x <;> cases lit <;> simp [IntOrStr] at hx hl <;> rfl
+/-- whatever the filter accepts for a range operator, the range lookup's own test accepts -/
+theorem valueInRange_of_fsat {op : Op} {x lit : V} (hr : op.isRange = true) (h : fsat op x lit = true) :
+    valueInRange x (rangeArgs op lit).1 (rangeArgs op lit).2.1 (rangeArgs op lit).2.2.1
+      (rangeArgs op lit).2.2.2 = true := by
+  cases op <;> simp [Op.isRange] at hr <;>
+    simp [fsat] at h <;>
+    simp [rangeArgs, valueInRange, lowerSat, upperSat, cmpR_eq_cmp, upperIn_false, upperIn_true,
+      lowerIn_false, lowerIn_true]
+  · exact fCmp_sub_cmp h
+  · rcases h with h | h
+    · exact Or.inl (fCmp_sub_cmp h)
+    · exact Or.inr (fCmp_sub_cmp h)
+  · exact fCmp_sub_cmp h
+  · rcases h with h | h
+    · exact Or.inl (fCmp_sub_cmp h)
+    · exact Or.inr (fCmp_sub_cmp h)
 
-/-- on integers and strings all the comparison semantics in play coincide -/
-theorem semAgree_intOrStr (op : Op) {x lit : V} (hx : IntOrStr x) (hl : IntOrStr lit) :
-    SemAgree op x lit where
-  neNull := by intro _ e; subst e; simp [IntOrStr] at hx
-  eqId := by
-    intro _
-    cases x <;> cases lit <;> simp [IntOrStr, fEq] at hx hl ⊢
-  range := by
-    intro hr
-    have e := cmpR_eq_fCmp_intOrStr hx hl
-    cases op <;> simp [Op.isRange] at hr <;>
-      simp [rsat, rangeArgs, valueInRange, lowerSat, upperSat, fsat, e, upperIn_false, upperIn_true,
-        lowerIn_false, lowerIn_true]
+theorem satRange_of_fsat {op : Op} {x lit : V} (hr : op.isRange = true) (h : fsat op x lit = true) :
+    satRange fsat x (rangeArgs op lit).1 (rangeArgs op lit).2.1 (rangeArgs op lit).2.2.1
+      (rangeArgs op lit).2.2.2 = true := by
+  cases op <;> simp [Op.isRange] at hr <;> simp [rangeArgs, satRange, boundOp] <;> exact h
 
-/-- **(c) for integer / string columns (full within its scope).** Every history that writes
-integers (whole i64 range) and strings to live nodes; every integer or string literal; every
-comparison operator; every set of indexes; any zone-map state: whichever path the planner takes,
-the node set is the generic filter's. -/
-theorem c10_planner_int_str (ops : List SOp) (hw : wfRun {} ops)
-    (hops : ∀ o ∈ ops, o.valOk IntOrStr) (key : Nat) (op : Op) (lit : V) (hl : IntOrStr lit)
-    (p : Path) (hp : applicable (Store.run ops) key op lit p) :
-    ∀ n, n ∈ (Store.run ops).runPath key op lit p ↔ n ∈ (Store.run ops).genericPath key op lit :=
-  c10_planner_paths_agree_partial good_intOrStr ops hw hops key op lit hl
-    (fun _ _ hx => semAgree_intOrStr op (current_value_ok good_intOrStr.coh ops hops hx) hl) p hp
+/-- when may the planner take a path -/
+def applicable (s : Store) (key : Nat) (op : Op) (lit : V) : Path → Prop
+  | .pruned => s.props.mightMatch key op lit = false
+  | .index => op = .eq ∧ (lookupKeys lit).isSome = true ∧ s.hasIndex key = true
+  | .range => op.isRange = true
+  | .generic => True
 
-/-! ### (c) at full strength, and why it is false -/
+theorem choosePath_applicable (s : Store) (key : Nat) (op : Op) (lit : V) :
+    applicable s key op lit (s.choosePath key op lit) := by
+  unfold Store.choosePath
+  cases h1 : s.props.mightMatch key op lit with
+  | false => simp [applicable, h1]
+  | true =>
+    simp only [Bool.not_true, Bool.false_eq_true, if_false]
+    by_cases h2 : (decide (op = .eq) && (lookupKeys lit).isSome && s.hasIndex key) = true
+    · simp only [h2, if_true]
+      simp only [Bool.and_eq_true, decide_eq_true_eq] at h2
+      exact ⟨h2.1.1, h2.1.2, h2.2⟩
+    · simp only [h2, if_false]
+      cases h3 : op.isRange with
+      | true => simp [applicable, h3]
+      | false => simp [applicable]
 
+section Planner
+variable (ops : List SOp) (hops : ∀ o ∈ ops, o.valOk) (key : Nat) (op : Op) (lit : V) (wl : WF lit)
+include hops wl
+
+/-- **(c)** For every history of well-formed values — index creation/drop, overwrites, removes,
+node deletions, rebuilds (any iteration order) anywhere — every comparison operator and every
+literal: every path the planner may take (zone-map prune, index lookup, range lookup, generic
+filter) yields, as a set, the generic filter's answer. The index path alone needs the history to
+write properties to live nodes only (`wfRun`; the store itself does not check this, see
+`c10_w_plan_index_misses_live`). -/
+theorem c10_planner_paths_agree (p : Path) (hp : applicable (Store.run ops) key op lit p)
+    (hw : p = .index → wfRun {} ops) :
+    ∀ n, n ∈ (Store.run ops).runPath key op lit p ↔ n ∈ (Store.run ops).genericPath key op lit := by
+  intro n
+  cases p with
+  | generic => exact Iff.rfl
+  | pruned =>
+    simp only [Store.runPath, List.not_mem_nil, false_iff]
+    rw [mem_genericPath]
+    rintro ⟨_, x, hx, hf⟩
+    have := c10_zone_map_sound_filter ops hops key op lit wl hp n x hx
+    rw [this] at hf; cases hf
+  | index =>
+    obtain ⟨hop, hks, hi⟩ := hp
+    subst hop
+    have hwf := hw rfl
+    obtain ⟨ks, hk⟩ : ∃ ks, lookupKeys lit = some ks := by
+      cases h : lookupKeys lit with
+      | none => simp [h] at hks
+      | some ks => exact ⟨ks, rfl⟩
+    simp only [Store.runPath, Store.indexPath, hk, Option.getD_some, List.mem_filter,
+      List.mem_flatMap, Bool.and_eq_true, List.contains_iff_mem]
+    rw [mem_genericPath]
+    constructor
+    · rintro ⟨_, hlv, hh⟩
+      cases hg : (Store.run ops).props.get n key with
+      | none => simp [hg, holds] at hh
+      | some x => exact ⟨hlv, x, rfl, by simpa [hg, holds] using hh⟩
+    · rintro ⟨hlv, x, hx, hf⟩
+      have wx := current_value_wf ops hops hx
+      have hmem : x ∈ ks := keys_cover wx wl hk (by simpa [fsat] using hf)
+      refine ⟨⟨x, hmem, (mem_find_indexed ops hwf key x n hi).mpr hx⟩, hlv, ?_⟩
+      simp only [hx, holds]; exact hf
+  | range =>
+    simp only [applicable] at hp
+    simp only [Store.runPath, Store.rangePath, List.mem_filter, Bool.and_eq_true,
+      List.contains_iff_mem]
+    rw [mem_genericPath]
+    constructor
+    · rintro ⟨_, hlv, hh⟩
+      cases hg : (Store.run ops).props.get n key with
+      | none => simp [hg, holds] at hh
+      | some x => exact ⟨hlv, x, rfl, by simpa [hg, holds] using hh⟩
+    · rintro ⟨hlv, x, hx, hf⟩
+      refine ⟨?_, hlv, by simp only [hx, holds]; exact hf⟩
+      unfold Store.findRange
+      have hlo : ∀ l, (rangeArgs op lit).1 = some l → WF l := by
+        intro l hl'; cases op <;> simp [rangeArgs] at hl' <;> (subst hl'; exact wl)
+      have hhi : ∀ u, (rangeArgs op lit).2.1 = some u → WF u := by
+        intro u hu'; cases op <;> simp [rangeArgs] at hu' <;> (subst hu'; exact wl)
+      cases hm : (Store.run ops).props.mightRange key (rangeArgs op lit).1 (rangeArgs op lit).2.1
+          (rangeArgs op lit).2.2.1 (rangeArgs op lit).2.2.2 with
+      | true =>
+        simp only [if_true]
+        rw [mem_scanRange]
+        exact ⟨hlv, x, hx, valueInRange_of_fsat hp hf⟩
+      | false =>
+        exfalso
+        have := c10_zone_map_range_sound ops hops key _ _ _ _ hlo hhi hm n x hx
+        rw [satRange_of_fsat hp hf] at this; cases this
+
+/-- **(c) PlannerPathIndependent.** The planner's answer is the generic filter's answer: a
+function of the live nodes and their current values only — not of the history, the zone-map
+state, the hash-map iteration order or the set of indexes. -/
+theorem c10_planner_path_independent (hw : wfRun {} ops) :
+    ∀ n, n ∈ (Store.run ops).planFilter key op lit ↔
+      (n ∈ (Store.run ops).live ∧ ∃ x, (Store.run ops).props.get n key = some x ∧ fsat op x lit = true) := by
+  intro n
+  unfold Store.planFilter
+  rw [c10_planner_paths_agree ops hops key op lit wl _ (choosePath_applicable _ key op lit)
+    (fun _ => hw) n, mem_genericPath]
+
+/-- the same without any hypothesis on where properties were written, as long as the planner does
+not take the index path (no index on the key, or a literal the index path does not serve) -/
+theorem c10_planner_path_independent_noindex
+    (hni : (Store.run ops).choosePath key op lit ≠ .index) :
+    ∀ n, n ∈ (Store.run ops).planFilter key op lit ↔ n ∈ (Store.run ops).genericPath key op lit := by
+  intro n
+  unfold Store.planFilter
+  exact c10_planner_paths_agree ops hops key op lit wl _ (choosePath_applicable _ key op lit)
+    (fun h => absurd h hni) n
+
+end Planner
+
+/-! ## 7. The statements of the property, and what is left of the old defects -/
+
+/-- **(a)** pruning false ⇒ no current value satisfies the engine's filter semantics -/
+def ZoneMapSoundFilter : Prop :=
+  ∀ (ops : List SOp), (∀ o ∈ ops, o.valOk) → ∀ (key : Nat) (op : Op) (v : V), WF v →
+    (Store.run ops).props.mightMatch key op v = false →
+    ∀ n x, (Store.run ops).props.get n key = some x → fsat op x v = false
+
+theorem c10_ZoneMapSoundFilter : ZoneMapSoundFilter :=
+  fun ops hops key op v wv hf => c10_zone_map_sound_filter ops hops key op v wv hf
+
+/-- **(c)** the planner's answer is the generic filter's, for histories that write properties to
+live nodes -/
 def PlannerPathIndependent : Prop :=
-  ∀ (ops : List SOp) (key : Nat) (op : Op) (lit : V) (n : Nat),
-    n ∈ (Store.run ops).planFilter key op lit ↔ n ∈ (Store.run ops).genericPath key op lit
+  ∀ (ops : List SOp), (∀ o ∈ ops, o.valOk) → wfRun {} ops → ∀ (key : Nat) (op : Op) (lit : V), WF lit →
+    ∀ n, n ∈ (Store.run ops).planFilter key op lit ↔ n ∈ (Store.run ops).genericPath key op lit
 
+theorem c10_PlannerPathIndependent : PlannerPathIndependent := by
+  intro ops hops hw key op lit wl n
+  rw [c10_planner_path_independent ops hops key op lit wl hw n, mem_genericPath]
+
+/-- … and without that hypothesis it is false (residual; API level) -/
+def PlannerPathIndependentAnyWrites : Prop :=
+  ∀ (ops : List SOp), (∀ o ∈ ops, o.valOk) → ∀ (key : Nat) (op : Op) (lit : V), WF lit →
+    ∀ n, n ∈ (Store.run ops).planFilter key op lit ↔ n ∈ (Store.run ops).genericPath key op lit
+
+/-- W (residual of (c)): a property written to an id before the node exists, the index built in
+between: the index path misses the live node that the generic filter returns. -/
+theorem c10_w_plan_index_misses_live :
+    let ops := [SOp.set 0 0 (.int 5), .index 0, .node]
+    (Store.run ops).choosePath 0 .eq (.int 5) = .index ∧
+    (Store.run ops).planFilter 0 .eq (.int 5) = [] ∧ (Store.run ops).genericPath 0 .eq (.int 5) = [0] := by
+  decide +kernel
+
+theorem c10_planner_any_writes_refuted : ¬ PlannerPathIndependentAnyWrites := by
+  intro h
+  have := h [SOp.set 0 0 (.int 5), .index 0, .node]
+    (by intro o ho; simp only [List.mem_cons, List.not_mem_nil, or_false] at ho
+        rcases ho with rfl | rfl | rfl <;> simp [SOp.valOk, WF, I64]) 0 .eq (.int 5)
+    (by simp [WF, I64]) 0
+  revert this; decide +kernel
+
+theorem wfRun_append : ∀ (l : List SOp) (s : Store) (op : SOp), wfRun s l →
+    wfOp (l.foldl Store.step s) op → wfRun s (l ++ [op])
+  | [], _, _, _, h => ⟨h, trivial⟩
+  | o :: rest, s, op, h1, h2 => ⟨h1.1, wfRun_append rest (s.step o) op h1.2 h2⟩
+
+/-- **The iteration order of `rebuild_zone_map` never shows in an answer.** (It is random in the
+implementation — the hash maps are seeded per instance — and does change the recorded min/max of
+a column of mutually incomparable values; such a column is `mixed` and never pruned.) -/
+theorem c10_rebuild_order_irrelevant (ops : List SOp) (hops : ∀ o ∈ ops, o.valOk) (hw : wfRun {} ops)
+    (key : Nat) (op : Op) (lit : V) (wl : WF lit) (o1 o2 : List (Nat × List Nat)) (n : Nat) :
+    n ∈ (Store.run (ops ++ [.rebuild o1])).planFilter key op lit ↔
+      n ∈ (Store.run (ops ++ [.rebuild o2])).planFilter key op lit := by
+  have e : ∀ o, Store.run (ops ++ [SOp.rebuild o]) = (Store.run ops).rebuild o := by
+    intro o; simp [Store.run, List.foldl_append, Store.step]
+  have hv : ∀ o, ∀ x ∈ ops ++ [SOp.rebuild o], x.valOk := by
+    intro o x hx
+    rcases List.mem_append.mp hx with hx | hx
+    · exact hops x hx
+    · simp only [List.mem_cons, List.not_mem_nil, or_false] at hx; subst hx; trivial
+  have hwf : ∀ o, wfRun {} (ops ++ [SOp.rebuild o]) := fun o => wfRun_append ops {} _ hw trivial
+  rw [c10_planner_path_independent _ (hv o1) key op lit wl (hwf o1) n,
+    c10_planner_path_independent _ (hv o2) key op lit wl (hwf o2) n, e, e]
+  simp only [Store.rebuild, get_rebuild]
+
+/-- the zone map's order is still not transitive on all values (Int–Float–Int above 2^53); the
+repaired code no longer relies on it: an integer next to a float makes the column `mixed` -/
+theorem c10_order_not_transitive :
+    le (.int (2 ^ 53 + 1)) (.float 0x4340000000000000) ∧ le (.float 0x4340000000000000) (.int (2 ^ 53)) ∧
+      ¬ le (.int (2 ^ 53 + 1)) (.int (2 ^ 53)) := by
+  unfold le; decide
+
+def f64_inf : Nat := 0x7ff0000000000000
+def f64_2p53 : Nat := 0x4340000000000000
+def f64_0p3 : Nat := 0x3fd3333333333333
+def f64_0p3next : Nat := 0x3fd3333333333334
+def f64_half : Nat := 0x3fe0000000000000
 def f64_1p5 : Nat := 0x3ff8000000000000
 
-/-- W: the range path compares without Int/Float coercion (`compare_values_for_range`), the
-generic filter with it: `x > 1.5` over {2} is empty by the range path, {node} by the filter. -/
-theorem c10_w_plan_range_int_float :
-    let s := Store.run [.node, .set 0 0 (.int 2)]
-    s.choosePath 0 .gt (.float f64_1p5) = .range ∧ s.planFilter 0 .gt (.float f64_1p5) = [] ∧
-      s.genericPath 0 .gt (.float f64_1p5) = [0] := by decide
-
-/-- W: booleans order in the range path (`false < true`) and do not compare in the filter. -/
-theorem c10_w_plan_range_bool :
-    let s := Store.run [.node, .set 0 0 (.bool false)]
-    s.planFilter 0 .lt (.bool true) = [0] ∧ s.genericPath 0 .lt (.bool true) = [] := by decide
-
-/-- W: NaN passes `<=` in the filter (three-way comparison lands on 0) and fails it in the
-range path. -/
-theorem c10_w_plan_range_nan :
-    let s := Store.run [.node, .set 0 0 (.float f64_nan)]
-    s.planFilter 0 .le (.float f64_one) = [] ∧ s.genericPath 0 .le (.float f64_one) = [0] := by decide
+set_option exponentiation.threshold 1100 in
+/-- N / regression: the scenarios that the pinned code before cc52572 pruned wrongly are no
+longer pruned — stored NULL and `<>`; NaN next to a number and `<=`; the ε-neighbour literal;
+`inf <> inf` (now false for the filter, so pruning it is right); integer next to float at 2^53 —
+while a genuine prune still happens (`> 7` over {1, 5}; `= 0.5` over {0.3}). -/
+theorem c10_nv_zone :
+    (Store.run [.node, .node, .set 0 0 (.int 5), .set 1 0 .null]).props.mightMatch 0 .ne (.int 5) = true ∧
+    (Store.run [.node, .node, .set 0 0 (.float f64_one), .set 1 0 (.float f64_nan)]).props.mightMatch 0 .le (.float 0) = true ∧
+    (Store.run [.node, .set 0 0 (.float f64_0p3)]).props.mightMatch 0 .eq (.float f64_0p3next) = true ∧
+    (Store.run [.node, .set 0 0 (.float f64_0p3)]).props.mightMatch 0 .eq (.float f64_half) = false ∧
+    ((Store.run [.node, .set 0 0 (.float f64_inf)]).props.mightMatch 0 .ne (.float f64_inf) = false ∧
+      fsat .ne (.float f64_inf) (.float f64_inf) = false) ∧
+    (Store.run [.node, .node, .set 0 0 (.float f64_2p53), .set 1 0 (.int (2 ^ 53 + 1))]).props.mightMatch 0 .gt (.int (2 ^ 53)) = true ∧
+    (Store.run [.node, .node, .set 0 0 (.str [0x61]), .set 1 0 (.int 1)]).props.mightMatch 0 .ne (.str [0x61]) = true ∧
+    ((Store.run [.node, .node, .set 0 0 (.int 1), .set 1 0 (.int 5), .set 1 0 (.int 3)]).props.mightMatch 0 .gt (.int 7) = false ∧
+      (Store.run [.node, .node, .set 0 0 (.int 1), .set 1 0 (.int 5), .set 1 0 (.int 3)]).props.mightMatch 0 .gt (.int 4) = true) := by
+  decide +kernel
 
 set_option exponentiation.threshold 1100 in
-/-- W: creating an index removes a row. `x = 1.0` over {1}: without the index the filter's
-numeric equality finds the node; with it, the lookup key `Float64(1.0)` is not `Int64(1)`. -/
-theorem c10_w_plan_index_int_float :
-    let ops := [SOp.node, .set 0 0 (.int 1)]
-    (Store.run ops).planFilter 0 .eq (.float f64_one) = [0] ∧
-    (Store.run (ops ++ [.index 0])).planFilter 0 .eq (.float f64_one) = [] := by decide
-
-set_option exponentiation.threshold 1100 in
-/-- W: the answer depends on the history, not on the data. Both stores hold exactly {node 0:
-0.0}; `x = 1e-20` is pruned in the first (zone map [0, 0]) and answered by the filter's
-ε-equality in the second (zone map [0, 1] after an overwrite). -/
-theorem c10_w_plan_history_dependent :
-    let s1 := Store.run [.node, .set 0 0 (.float 0)]
-    let s2 := Store.run [.node, .set 0 0 (.float f64_one), .set 0 0 (.float 0)]
-    s1.live = s2.live ∧ s1.props.get 0 0 = s2.props.get 0 0 ∧
-      s1.planFilter 0 .eq (.float f64_1em20) = [] ∧ s2.planFilter 0 .eq (.float f64_1em20) = [0] := by
-  decide
-
-/-- W: a stored NULL and `<>` — pruned by the zone map, accepted by the filter. -/
-theorem c10_w_plan_pruned_null :
-    let s := Store.run [.node, .node, .set 0 0 (.int 5), .set 1 0 .null]
-    s.planFilter 0 .ne (.int 5) = [] ∧ s.genericPath 0 .ne (.int 5) = [1] := by decide
-
-theorem c10_planner_path_independent_refuted : ¬ PlannerPathIndependent := by
-  intro h
-  have := h [.node, .set 0 0 (.int 2)] 0 .gt (.float f64_1p5) 0
-  revert this; decide
-
-/-- N: non-vacuity of (c): a history with overwrite, remove, deletion, rebuild and index churn
-over integers; each path that is applicable is exercised and agrees with the filter. -/
+/-- N / regression for the planner: range path with Int/Float and Bool, index path with an
+Int/Float literal, history independence of the ε case. -/
 theorem c10_nv_planner :
-    let ops := [SOp.node, .node, .node, .node, .set 0 0 (.int 1), .set 1 0 (.int 7), .index 0,
-      .set 1 0 (.int 3), .set 2 0 (.int 9), .remove 0 0, .delnode 2, .rebuild [], .set 3 0 (.int 3)]
-    wfRun {} ops ∧ (∀ o ∈ ops, o.valOk IntOrStr) ∧
-    (Store.run ops).choosePath 0 .eq (.int 3) = .index ∧ (Store.run ops).planFilter 0 .eq (.int 3) = [3, 1] ∧
-    (Store.run ops).choosePath 0 .gt (.int 2) = .range ∧ (Store.run ops).planFilter 0 .gt (.int 2) = [3, 1] ∧
-    (Store.run ops).choosePath 0 .gt (.int 5) = .pruned ∧ (Store.run ops).genericPath 0 .gt (.int 5) = [] ∧
-    (Store.run ops).choosePath 0 .ne (.int 5) = .generic := by
-  refine ⟨by decide, ?_, by decide, by decide, by decide, by decide, by decide, by decide, by decide⟩
-  intro o ho
-  simp only [List.mem_cons, List.not_mem_nil, or_false] at ho
-  rcases ho with rfl | rfl | rfl | rfl | rfl | rfl | rfl | rfl | rfl | rfl | rfl | rfl | rfl <;>
-    simp [SOp.valOk, IntOrStr]
+    (Store.run [.node, .set 0 0 (.int 2)]).planFilter 0 .gt (.float f64_1p5) = [0] ∧
+    (Store.run [.node, .set 0 0 (.bool false)]).planFilter 0 .lt (.bool true) = [] ∧
+    (Store.run [.node, .set 0 0 (.int 2), .index 0]).choosePath 0 .eq (.float 0x4000000000000000) = .index ∧
+    (Store.run [.node, .set 0 0 (.int 2), .index 0]).planFilter 0 .eq (.float 0x4000000000000000) = [0] ∧
+    (Store.run [.node, .set 0 0 (.int 1), .index 0]).choosePath 0 .eq (.float f64_one) = .generic ∧
+    (Store.run [.node, .set 0 0 (.int 1), .index 0]).planFilter 0 .eq (.float f64_one) = [0] ∧
+    (Store.run [.node, .set 0 0 (.float f64_0p3)]).planFilter 0 .eq (.float f64_0p3next) = [0] ∧
+    (Store.run [.node, .set 0 0 (.float f64_one), .set 0 0 (.float f64_0p3), .rebuild []]).planFilter 0 .eq (.float f64_0p3next) = [0] ∧
+    wfRun {} [.node, .set 0 0 (.int 2), .index 0] := by
+  decide +kernel
 
 end Grafeo.ZoneMap
